@@ -16,2147 +16,1770 @@ Definition terms (ts : list tok) (t : pt) : string :=
   digest (show_toks (Some ts)) ++ " " ++ digest (show_pt (Some t)) ++ " " ++ digest (show_pt (parse ts)).
 Definition terms_full (ts : list tok) (t : pt) : string :=
   show_toks (Some ts) ++ nl ++ show_pt (Some t) ++ nl ++ show_pt (parse ts).
-Eval vm_compute in ("<<<M14>>>" ++ check (runes_of_ascii "
-")).
-Eval vm_compute in ("<<<M46>>>" ++ check (runes_of_ascii "
-MetaData int	{ string f32a//	t
-`two words`
-, } //")).
-Eval vm_compute in ("<<<M78>>>" ++ check (runes_of_ascii "MetaData
-chars {
-uint32 chars	`doc` , int64 float, // trailing space 
-u8
-pack `
-` ,
-    }
-")).
-Eval vm_compute in ("<<<M110>>>" ++ check (runes_of_ascii "packet  matchKey
-{
-    } options{ int = ""a\\""
-; lengthOf //	t
-= ""it's"" } MetaData lengthOf { Pad  tag
-    , } root packet
-    x {int @lengthOf(	pack )
-`a\` //
-, string matchKey
-@lengthOf( chars
-    )  `" ++ [233]%N ++ runes_of_ascii "` , repeat repeatCount
-//x
-//
-{
-    // packet A { u8 x, }
-    match x_y_z as A
-    {""1"": o	,
-// packet A { u8 x, }
-// `tick` ""quote"" 'q'
-7 :uint8x
-// `tick` ""quote"" 'q'
-//	t
-, [
-// `tick` ""quote"" 'q'
-// " ++ [128512]%N ++ runes_of_ascii " emoji
-65535 , """"
-] ://
-Header """ ++ [233]%N ++ runes_of_ascii "t" ++ [233]%N ++ runes_of_ascii """ :  u8x
-    """ ++ [28040; 24687]%N ++ runes_of_ascii """ : charz 65535 :
-stringy }// " ++ [128512]%N ++ runes_of_ascii " emoji
-,	zchar[007]	uint8x ,f32 repeatCount @lengthOf( // c
-float) `two words` , f64 A  `u8 x,`	,
-}, }
-    packet Header{ }
-")).
-Eval vm_compute in ("<<<M142>>>" ++ check (runes_of_ascii "MetaData
-options1
-    {
-    char[ 7 ] i8i8
-, zchar[ 65535
-] u128
-    , char[]  repeatCount
-,
-}
-")).
-Eval vm_compute in ("<<<M174>>>" ++ check (runes_of_ascii "options { roots
-=//x
-int64 }
-// @lengthOf(
-// @lengthOf(
-packet
-    int {
-char  zchar, repeat len {
-    f32a `" ++ [28040; 24687; 31867; 22411]%N ++ runes_of_ascii "`, } ,zchar[
-007 ]As
-    `it's`
-,  zchar[007
-    // a // b
-    ] uint8x @lengthOf(
-    //x
-    Foo)
-    ,
-// packet A { u8 x, }
-// packet A { u8 x, }
-}
-")).
-Eval vm_compute in ("<<<T174>>>" ++ terms [mkTok 1 "options" 1 0 false; mkTok 2 "{" 1 8 false; mkTok 42 "roots" 1 10 false; mkTok 4 "=" 2 0 false; mkTok 44 "//x" 2 1 true; mkTok 27 "int64" 3 0 false; mkTok 3 "}" 3 6 false; mkTok 44 "// @lengthOf(" 4 0 true; mkTok 44 "// @lengthOf(" 5 0 true; mkTok 35 "packet" 6 0 false; mkTok 42 "int" 7 4 false; mkTok 2 "{" 7 8 false; mkTok 19 "char" 8 0 false; mkTok 42 "zchar" 8 6 false; mkTok 40 "," 8 11 false; mkTok 36 "repeat" 8 13 false; mkTok 42 "len" 8 20 false; mkTok 2 "{" 8 24 false; mkTok 42 "f32a" 9 4 false; mkTok 43 (string_of_bytes [96; 230; 182; 136; 230; 129; 175; 231; 177; 187; 229; 158; 139; 96]%N) 9 9 false; mkTok 40 "," 9 15 false; mkTok 3 "}" 9 17 false; mkTok 40 "," 9 19 false; mkTok 14 "zchar[" 9 20 false; mkTok 30 "007" 10 0 false; mkTok 13 "]" 10 4 false; mkTok 42 "As" 10 5 false; mkTok 43 "`it's`" 11 4 false; mkTok 40 "," 12 0 false; mkTok 14 "zchar[" 12 3 false; mkTok 30 "007" 12 9 false; mkTok 44 "// a // b" 13 4 true; mkTok 13 "]" 14 4 false; mkTok 42 "uint8x" 14 6 false; mkTok 7 "@lengthOf(" 14 13 false; mkTok 44 "//x" 15 4 true; mkTok 42 "Foo" 16 4 false; mkTok 6 ")" 16 7 false; mkTok 40 "," 17 4 false; mkTok 44 "// packet A { u8 x, }" 18 0 true; mkTok 44 "// packet A { u8 x, }" 19 0 true; mkTok 3 "}" 20 0 false; mkTok 0 "<EOF>" 21 0 false] (mkPacket (mkPtok 1 "options" 1 0 0) (Some (mkPtok 3 "}" 20 0 41)) [(DOption (mkOptionDef (mkSpan (mkPtok 1 "options" 1 0 0) (mkPtok 3 "}" 3 6 6)) (mkPtok 1 "options" 1 0 0) (mkPtok 2 "{" 1 8 1) [(mkOptionDecl (mkSpan (mkPtok 42 "roots" 1 10 2) (mkPtok 27 "int64" 3 0 5)) (mkPtok 42 "roots" 1 10 2) (mkPtok 4 "=" 2 0 3) (VType (mkSpan (mkPtok 27 "int64" 3 0 5) (mkPtok 27 "int64" 3 0 5)) (TyBasic (mkSpan (mkPtok 27 "int64" 3 0 5) (mkPtok 27 "int64" 3 0 5)) (mkBasicType (mkSpan (mkPtok 27 "int64" 3 0 5) (mkPtok 27 "int64" 3 0 5)) (mkPtok 27 "int64" 3 0 5)))) None)] (mkPtok 3 "}" 3 6 6))); (DPacket (mkPacketDef (mkSpan (mkPtok 35 "packet" 6 0 9) (mkPtok 3 "}" 20 0 41)) None (mkPtok 35 "packet" 6 0 9) (mkPtok 42 "int" 7 4 10) (mkPtok 2 "{" 7 8 11) [(mkFieldWithAttr (mkSpan (mkPtok 19 "char" 8 0 12) (mkPtok 40 "," 8 11 14)) [] (MetaField (mkSpan (mkPtok 19 "char" 8 0 12) (mkPtok 40 "," 8 11 14)) None (mkMetaDecl (mkSpan (mkPtok 19 "char" 8 0 12) (mkPtok 40 "," 8 11 14)) (TyBasic (mkSpan (mkPtok 19 "char" 8 0 12) (mkPtok 19 "char" 8 0 12)) (mkBasicType (mkSpan (mkPtok 19 "char" 8 0 12) (mkPtok 19 "char" 8 0 12)) (mkPtok 19 "char" 8 0 12))) (mkPtok 42 "zchar" 8 6 13) None (mkPtok 40 "," 8 11 14)))); (mkFieldWithAttr (mkSpan (mkPtok 36 "repeat" 8 13 15) (mkPtok 40 "," 9 19 22)) [] (InerObjectField (mkSpan (mkPtok 36 "repeat" 8 13 15) (mkPtok 40 "," 9 19 22)) (Some (mkPtok 36 "repeat" 8 13 15)) (InerObjectDecl (mkSpan (mkPtok 42 "len" 8 20 16) (mkPtok 3 "}" 9 17 21)) (mkPtok 42 "len" 8 20 16) (mkPtok 2 "{" 8 24 17) [(ObjectField (mkSpan (mkPtok 42 "f32a" 9 4 18) (mkPtok 40 "," 9 15 20)) None (mkPtok 42 "f32a" 9 4 18) None (Some (mkPtok 43 (string_of_bytes [96; 230; 182; 136; 230; 129; 175; 231; 177; 187; 229; 158; 139; 96]%N) 9 9 19)) (mkPtok 40 "," 9 15 20))] (mkPtok 3 "}" 9 17 21)) (mkPtok 40 "," 9 19 22))); (mkFieldWithAttr (mkSpan (mkPtok 14 "zchar[" 9 20 23) (mkPtok 40 "," 12 0 28)) [] (MetaField (mkSpan (mkPtok 14 "zchar[" 9 20 23) (mkPtok 40 "," 12 0 28)) None (mkMetaDecl (mkSpan (mkPtok 14 "zchar[" 9 20 23) (mkPtok 40 "," 12 0 28)) (TyFixed (mkSpan (mkPtok 14 "zchar[" 9 20 23) (mkPtok 13 "]" 10 4 25)) (mkFixedString (mkSpan (mkPtok 14 "zchar[" 9 20 23) (mkPtok 13 "]" 10 4 25)) (mkPtok 14 "zchar[" 9 20 23) (mkPtok 30 "007" 10 0 24) (mkPtok 13 "]" 10 4 25))) (mkPtok 42 "As" 10 5 26) (Some (mkPtok 43 "`it's`" 11 4 27)) (mkPtok 40 "," 12 0 28)))); (mkFieldWithAttr (mkSpan (mkPtok 14 "zchar[" 12 3 29) (mkPtok 40 "," 17 4 38)) [] (LengthField (mkSpan (mkPtok 14 "zchar[" 12 3 29) (mkPtok 40 "," 17 4 38)) (mkLengthFieldDecl (mkSpan (mkPtok 14 "zchar[" 12 3 29) (mkPtok 40 "," 17 4 38)) (Some (TyFixed (mkSpan (mkPtok 14 "zchar[" 12 3 29) (mkPtok 13 "]" 14 4 32)) (mkFixedString (mkSpan (mkPtok 14 "zchar[" 12 3 29) (mkPtok 13 "]" 14 4 32)) (mkPtok 14 "zchar[" 12 3 29) (mkPtok 30 "007" 12 9 30) (mkPtok 13 "]" 14 4 32)))) (mkPtok 42 "uint8x" 14 6 33) (mkLengthOf (mkSpan (mkPtok 7 "@lengthOf(" 14 13 34) (mkPtok 6 ")" 16 7 37)) (mkPtok 7 "@lengthOf(" 14 13 34) (mkPtok 42 "Foo" 16 4 36) (mkPtok 6 ")" 16 7 37)) None (mkPtok 40 "," 17 4 38))))] (mkPtok 3 "}" 20 0 41)))])).
-Eval vm_compute in ("<<<M206>>>" ++ check (runes_of_ascii "
-root packet
-    tag { f64
-len ,
-char[
-    4294967296 ] A@calculatedFrom( """"  )`it's`, @tag( 65535
-    )
-match charz// a // b
-as tag	{
-    [ ""// no comment"" , """ ++ [128512]%N ++ runes_of_ascii """ ]:
-zchar	,
-    ""\n"":falsey  , },} packet float {f32a { repeat  packetx{
-    //x
-    char[ 255 ] int `it's`  ,} , uint32 x_y_z @lengthOf( pack ) // " ++ [27880; 37322]%N ++ runes_of_ascii "
-,}, } // `tick` ""quote"" 'q'")).
-Eval vm_compute in ("<<<M238>>>" ++ check (runes_of_ascii "packet float { }	packet
-body
-    { }
-//x
-")).
-Eval vm_compute in ("<<<M270>>>" ++ check (runes_of_ascii "options { Pad = char[]; u8x
-    // trailing space 
-    =
-    ""packet"";
-o = i64
-; stringy
-=""a\""b""
-packetx
-    // trailing space 
-    = 65535
-} options
-{ chars
-= '0'}")).
-Eval vm_compute in ("<<<M302>>>" ++ check (runes_of_ascii "options { leftPad //	t
-= //	t
-""" ++ [28040; 24687]%N ++ runes_of_ascii """ } // " ++ [128512]%N ++ runes_of_ascii " emoji")).
-Eval vm_compute in ("<<<M334>>>" ++ check (runes_of_ascii "
-//
-")).
-Eval vm_compute in ("<<<M366>>>" ++ check (runes_of_ascii "packet i64_ { }
-")).
-Eval vm_compute in ("<<<M398>>>" ++ check (runes_of_ascii "packet BodyLength// packet A { u8 x, }
-{ leftPad lengthOf ,	float rootA `it's`	, @leftPad (
-    '0' ) repeat
-    BodyLength ,@rightPad
-(
-    ) i16// a // b
-falsey @lengthOf(// a // b
-i64_ ) , // `tick` ""quote"" 'q'
-repeat
-char[ 0123456789 ]uint8x , repeat
-    // " ++ [27880; 37322]%N ++ runes_of_ascii "
-    f64 i64_,	a1 tag`" ++ [233]%N ++ runes_of_ascii "` ,char[ 10 ]packetx
-`say ""hi""`
-,
-    repeat  tag metadata
-`tab	here` , }
-    /// triple
-    options {
-crc = """"
-    ;
-}
-    packet int
-{ repeat zchar[	255
-    ]	i64_ `two words`//x
-,
-    string tag@lengthOf( // a // b
-Header )
-,char chars ,
-@lengthOf(
-    crc ) match asx as Foo{ 7  : BodyLength , ""packet"" : Z9_
-,007 :
-    matchKey ,} ,
-uint16 metadata// a // b
-,
-i64_ {	repeat
-u8
-msg_type, stringy {char[ 0123456789 ] // c
-o @calculatedFrom(
-""\n"" ) `" ++ [233]%N ++ runes_of_ascii "` ,}
-/// triple
-// packet A { u8 x, }
-, zchar[
-00]
-    stringy	`line1
-line2`
-, } ,
-@leftPad//
-('0') match uint8x as u128 {
-[ 1 // a // b
-, ""abc"" ]
-    : _x  ""a	b"" :Packet
-    // c
-    3 : _x //	t
-, ""`tick`"" :
-packetx ,
-""\n""
-: Header ,  } ,
-x
-    // c
-    @calculatedFrom(
-    /// triple
-    ""\n"" ) ,zchar[ 65535 ]
-    Packet//x
-,
-} MetaData Logon{
-    } packet packetx {
-@calculatedFrom( ""a\\"" )
-match roots as Foo { [""\n"", 4294967296 ] : asx ,00
-:  o , ""{,}"" :Header ,255 : packetx , [255,4294967296	] :MetaDataX
-    ,  } , }")).
-Eval vm_compute in ("<<<T398>>>" ++ terms [mkTok 35 "packet" 1 0 false; mkTok 42 "BodyLength" 1 7 false; mkTok 44 "// packet A { u8 x, }" 1 17 true; mkTok 2 "{" 2 0 false; mkTok 42 "leftPad" 2 2 false; mkTok 42 "lengthOf" 2 10 false; mkTok 40 "," 2 19 false; mkTok 42 "float" 2 21 false; mkTok 42 "rootA" 2 27 false; mkTok 43 "`it's`" 2 33 false; mkTok 40 "," 2 40 false; mkTok 32 "@leftPad" 2 42 false; mkTok 8 "(" 2 51 false; mkTok 33 "'0'" 3 4 false; mkTok 6 ")" 3 8 false; mkTok 36 "repeat" 3 10 false; mkTok 42 "BodyLength" 4 4 false; mkTok 40 "," 4 15 false; mkTok 32 "@rightPad" 4 16 false; mkTok 8 "(" 5 0 false; mkTok 6 ")" 6 4 false; mkTok 25 "i16" 6 6 false; mkTok 44 "// a // b" 6 9 true; mkTok 42 "falsey" 7 0 false; mkTok 7 "@lengthOf(" 7 7 false; mkTok 44 "// a // b" 7 17 true; mkTok 42 "i64_" 8 0 false; mkTok 6 ")" 8 5 false; mkTok 40 "," 8 7 false; mkTok 44 "// `tick` ""quote"" 'q'" 8 9 true; mkTok 36 "repeat" 9 0 false; mkTok 12 "char[" 10 0 false; mkTok 30 "0123456789" 10 6 false; mkTok 13 "]" 10 17 false; mkTok 42 "uint8x" 10 18 false; mkTok 40 "," 10 25 false; mkTok 36 "repeat" 10 27 false; mkTok 44 (string_of_bytes [47; 47; 32; 230; 179; 168; 233; 135; 138]%N) 11 4 true; mkTok 29 "f64" 12 4 false; mkTok 42 "i64_" 12 8 false; mkTok 40 "," 12 12 false; mkTok 42 "a1" 12 14 false; mkTok 42 "tag" 12 17 false; mkTok 43 (string_of_bytes [96; 195; 169; 96]%N) 12 20 false; mkTok 40 "," 12 24 false; mkTok 12 "char[" 12 25 false; mkTok 30 "10" 12 31 false; mkTok 13 "]" 12 34 false; mkTok 42 "packetx" 12 35 false; mkTok 43 "`say ""hi""`" 13 0 false; mkTok 40 "," 14 0 false; mkTok 36 "repeat" 15 4 false; mkTok 42 "tag" 15 12 false; mkTok 42 "metadata" 15 16 false; mkTok 43 (string_of_bytes [96; 116; 97; 98; 9; 104; 101; 114; 101; 96]%N) 16 0 false; mkTok 40 "," 16 11 false; mkTok 3 "}" 16 13 false; mkTok 44 "/// triple" 17 4 true; mkTok 1 "options" 18 4 false; mkTok 2 "{" 18 12 false; mkTok 42 "crc" 19 0 false; mkTok 4 "=" 19 4 false; mkTok 31 """""" 19 6 false; mkTok 41 ";" 20 4 false; mkTok 3 "}" 21 0 false; mkTok 35 "packet" 22 4 false; mkTok 42 "int" 22 11 false; mkTok 2 "{" 23 0 false; mkTok 36 "repeat" 23 2 false; mkTok 14 "zchar[" 23 9 false; mkTok 30 "255" 23 16 false; mkTok 13 "]" 24 4 false; mkTok 42 "i64_" 24 6 false; mkTok 43 "`two words`" 24 11 false; mkTok 44 "//x" 24 22 true; mkTok 40 "," 25 0 false; mkTok 15 "string" 26 4 false; mkTok 42 "tag" 26 11 false; mkTok 7 "@lengthOf(" 26 14 false; mkTok 44 "// a // b" 26 25 true; mkTok 42 "Header" 27 0 false; mkTok 6 ")" 27 7 false; mkTok 40 "," 28 0 false; mkTok 19 "char" 28 1 false; mkTok 42 "chars" 28 6 false; mkTok 40 "," 28 12 false; mkTok 7 "@lengthOf(" 29 0 false; mkTok 42 "crc" 30 4 false; mkTok 6 ")" 30 8 false; mkTok 38 "match" 30 10 false; mkTok 42 "asx" 30 16 false; mkTok 17 "as" 30 20 false; mkTok 42 "Foo" 30 23 false; mkTok 2 "{" 30 26 false; mkTok 30 "7" 30 28 false; mkTok 39 ":" 30 31 false; mkTok 42 "BodyLength" 30 33 false; mkTok 40 "," 30 44 false; mkTok 31 """packet""" 30 46 false; mkTok 39 ":" 30 55 false; mkTok 42 "Z9_" 30 57 false; mkTok 40 "," 31 0 false; mkTok 30 "007" 31 1 false; mkTok 39 ":" 31 5 false; mkTok 42 "matchKey" 32 4 false; mkTok 40 "," 32 13 false; mkTok 3 "}" 32 14 false; mkTok 40 "," 32 16 false; mkTok 21 "uint16" 33 0 false; mkTok 42 "metadata" 33 7 false; mkTok 44 "// a // b" 33 15 true; mkTok 40 "," 34 0 false; mkTok 42 "i64_" 35 0 false; mkTok 2 "{" 35 5 false; mkTok 36 "repeat" 35 7 false; mkTok 20 "u8" 36 0 false; mkTok 42 "msg_type" 37 0 false; mkTok 40 "," 37 8 false; mkTok 42 "stringy" 37 10 false; mkTok 2 "{" 37 18 false; mkTok 12 "char[" 37 19 false; mkTok 30 "0123456789" 37 25 false; mkTok 13 "]" 37 36 false; mkTok 44 "// c" 37 38 true; mkTok 42 "o" 38 0 false; mkTok 5 "@calculatedFrom(" 38 2 false; mkTok 31 """\n""" 39 0 false; mkTok 6 ")" 39 5 false; mkTok 43 (string_of_bytes [96; 195; 169; 96]%N) 39 7 false; mkTok 40 "," 39 11 false; mkTok 3 "}" 39 12 false; mkTok 44 "/// triple" 40 0 true; mkTok 44 "// packet A { u8 x, }" 41 0 true; mkTok 40 "," 42 0 false; mkTok 14 "zchar[" 42 2 false; mkTok 30 "00" 43 0 false; mkTok 13 "]" 43 2 false; mkTok 42 "stringy" 44 4 false; mkTok 43 (string_of_bytes [96; 108; 105; 110; 101; 49; 10; 108; 105; 110; 101; 50; 96]%N) 44 12 false; mkTok 40 "," 46 0 false; mkTok 3 "}" 46 2 false; mkTok 40 "," 46 4 false; mkTok 32 "@leftPad" 47 0 false; mkTok 44 "//" 47 8 true; mkTok 8 "(" 48 0 false; mkTok 33 "'0'" 48 1 false; mkTok 6 ")" 48 4 false; mkTok 38 "match" 48 6 false; mkTok 42 "uint8x" 48 12 false; mkTok 17 "as" 48 19 false; mkTok 42 "u128" 48 22 false; mkTok 2 "{" 48 27 false; mkTok 18 "[" 49 0 false; mkTok 30 "1" 49 2 false; mkTok 44 "// a // b" 49 4 true; mkTok 40 "," 50 0 false; mkTok 31 """abc""" 50 2 false; mkTok 13 "]" 50 8 false; mkTok 39 ":" 51 4 false; mkTok 42 "_x" 51 6 false; mkTok 31 (string_of_bytes [34; 97; 9; 98; 34]%N) 51 10 false; mkTok 39 ":" 51 16 false; mkTok 42 "Packet" 51 17 false; mkTok 44 "// c" 52 4 true; mkTok 30 "3" 53 4 false; mkTok 39 ":" 53 6 false; mkTok 42 "_x" 53 8 false; mkTok 44 (string_of_bytes [47; 47; 9; 116]%N) 53 11 true; mkTok 40 "," 54 0 false; mkTok 31 """`tick`""" 54 2 false; mkTok 39 ":" 54 11 false; mkTok 42 "packetx" 55 0 false; mkTok 40 "," 55 8 false; mkTok 31 """\n""" 56 0 false; mkTok 39 ":" 57 0 false; mkTok 42 "Header" 57 2 false; mkTok 40 "," 57 9 false; mkTok 3 "}" 57 12 false; mkTok 40 "," 57 14 false; mkTok 42 "x" 58 0 false; mkTok 44 "// c" 59 4 true; mkTok 5 "@calculatedFrom(" 60 4 false; mkTok 44 "/// triple" 61 4 true; mkTok 31 """\n""" 62 4 false; mkTok 6 ")" 62 9 false; mkTok 40 "," 62 11 false; mkTok 14 "zchar[" 62 12 false; mkTok 30 "65535" 62 19 false; mkTok 13 "]" 62 25 false; mkTok 42 "Packet" 63 4 false; mkTok 44 "//x" 63 10 true; mkTok 40 "," 64 0 false; mkTok 3 "}" 65 0 false; mkTok 37 "MetaData" 65 2 false; mkTok 42 "Logon" 65 11 false; mkTok 2 "{" 65 16 false; mkTok 3 "}" 66 4 false; mkTok 35 "packet" 66 6 false; mkTok 42 "packetx" 66 13 false; mkTok 2 "{" 66 21 false; mkTok 5 "@calculatedFrom(" 67 0 false; mkTok 31 """a\\""" 67 17 false; mkTok 6 ")" 67 23 false; mkTok 38 "match" 68 0 false; mkTok 42 "roots" 68 6 false; mkTok 17 "as" 68 12 false; mkTok 42 "Foo" 68 15 false; mkTok 2 "{" 68 19 false; mkTok 18 "[" 68 21 false; mkTok 31 """\n""" 68 22 false; mkTok 40 "," 68 26 false; mkTok 30 "4294967296" 68 28 false; mkTok 13 "]" 68 39 false; mkTok 39 ":" 68 41 false; mkTok 42 "asx" 68 43 false; mkTok 40 "," 68 47 false; mkTok 30 "00" 68 48 false; mkTok 39 ":" 69 0 false; mkTok 42 "o" 69 3 false; mkTok 40 "," 69 5 false; mkTok 31 """{,}""" 69 7 false; mkTok 39 ":" 69 13 false; mkTok 42 "Header" 69 14 false; mkTok 40 "," 69 21 false; mkTok 30 "255" 69 22 false; mkTok 39 ":" 69 26 false; mkTok 42 "packetx" 69 28 false; mkTok 40 "," 69 36 false; mkTok 18 "[" 69 38 false; mkTok 30 "255" 69 39 false; mkTok 40 "," 69 42 false; mkTok 30 "4294967296" 69 43 false; mkTok 13 "]" 69 54 false; mkTok 39 ":" 69 56 false; mkTok 42 "MetaDataX" 69 57 false; mkTok 40 "," 70 4 false; mkTok 3 "}" 70 7 false; mkTok 40 "," 70 9 false; mkTok 3 "}" 70 11 false; mkTok 0 "<EOF>" 70 12 false] (mkPacket (mkPtok 35 "packet" 1 0 0) (Some (mkPtok 3 "}" 70 11 238)) [(DPacket (mkPacketDef (mkSpan (mkPtok 35 "packet" 1 0 0) (mkPtok 3 "}" 16 13 56)) None (mkPtok 35 "packet" 1 0 0) (mkPtok 42 "BodyLength" 1 7 1) (mkPtok 2 "{" 2 0 3) [(mkFieldWithAttr (mkSpan (mkPtok 42 "leftPad" 2 2 4) (mkPtok 40 "," 2 19 6)) [] (ObjectField (mkSpan (mkPtok 42 "leftPad" 2 2 4) (mkPtok 40 "," 2 19 6)) None (mkPtok 42 "leftPad" 2 2 4) (Some (mkPtok 42 "lengthOf" 2 10 5)) None (mkPtok 40 "," 2 19 6))); (mkFieldWithAttr (mkSpan (mkPtok 42 "float" 2 21 7) (mkPtok 40 "," 2 40 10)) [] (ObjectField (mkSpan (mkPtok 42 "float" 2 21 7) (mkPtok 40 "," 2 40 10)) None (mkPtok 42 "float" 2 21 7) (Some (mkPtok 42 "rootA" 2 27 8)) (Some (mkPtok 43 "`it's`" 2 33 9)) (mkPtok 40 "," 2 40 10))); (mkFieldWithAttr (mkSpan (mkPtok 32 "@leftPad" 2 42 11) (mkPtok 40 "," 4 15 17)) [(FAPadding (mkSpan (mkPtok 32 "@leftPad" 2 42 11) (mkPtok 6 ")" 3 8 14)) (mkPaddingAttr (mkSpan (mkPtok 32 "@leftPad" 2 42 11) (mkPtok 6 ")" 3 8 14)) (mkPtok 32 "@leftPad" 2 42 11) (mkPtok 8 "(" 2 51 12) (Some (mkPtok 33 "'0'" 3 4 13)) (mkPtok 6 ")" 3 8 14)))] (ObjectField (mkSpan (mkPtok 36 "repeat" 3 10 15) (mkPtok 40 "," 4 15 17)) (Some (mkPtok 36 "repeat" 3 10 15)) (mkPtok 42 "BodyLength" 4 4 16) None None (mkPtok 40 "," 4 15 17))); (mkFieldWithAttr (mkSpan (mkPtok 32 "@rightPad" 4 16 18) (mkPtok 40 "," 8 7 28)) [(FAPadding (mkSpan (mkPtok 32 "@rightPad" 4 16 18) (mkPtok 6 ")" 6 4 20)) (mkPaddingAttr (mkSpan (mkPtok 32 "@rightPad" 4 16 18) (mkPtok 6 ")" 6 4 20)) (mkPtok 32 "@rightPad" 4 16 18) (mkPtok 8 "(" 5 0 19) None (mkPtok 6 ")" 6 4 20)))] (LengthField (mkSpan (mkPtok 25 "i16" 6 6 21) (mkPtok 40 "," 8 7 28)) (mkLengthFieldDecl (mkSpan (mkPtok 25 "i16" 6 6 21) (mkPtok 40 "," 8 7 28)) (Some (TyBasic (mkSpan (mkPtok 25 "i16" 6 6 21) (mkPtok 25 "i16" 6 6 21)) (mkBasicType (mkSpan (mkPtok 25 "i16" 6 6 21) (mkPtok 25 "i16" 6 6 21)) (mkPtok 25 "i16" 6 6 21)))) (mkPtok 42 "falsey" 7 0 23) (mkLengthOf (mkSpan (mkPtok 7 "@lengthOf(" 7 7 24) (mkPtok 6 ")" 8 5 27)) (mkPtok 7 "@lengthOf(" 7 7 24) (mkPtok 42 "i64_" 8 0 26) (mkPtok 6 ")" 8 5 27)) None (mkPtok 40 "," 8 7 28)))); (mkFieldWithAttr (mkSpan (mkPtok 36 "repeat" 9 0 30) (mkPtok 40 "," 10 25 35)) [] (MetaField (mkSpan (mkPtok 36 "repeat" 9 0 30) (mkPtok 40 "," 10 25 35)) (Some (mkPtok 36 "repeat" 9 0 30)) (mkMetaDecl (mkSpan (mkPtok 12 "char[" 10 0 31) (mkPtok 40 "," 10 25 35)) (TyFixed (mkSpan (mkPtok 12 "char[" 10 0 31) (mkPtok 13 "]" 10 17 33)) (mkFixedString (mkSpan (mkPtok 12 "char[" 10 0 31) (mkPtok 13 "]" 10 17 33)) (mkPtok 12 "char[" 10 0 31) (mkPtok 30 "0123456789" 10 6 32) (mkPtok 13 "]" 10 17 33))) (mkPtok 42 "uint8x" 10 18 34) None (mkPtok 40 "," 10 25 35)))); (mkFieldWithAttr (mkSpan (mkPtok 36 "repeat" 10 27 36) (mkPtok 40 "," 12 12 40)) [] (MetaField (mkSpan (mkPtok 36 "repeat" 10 27 36) (mkPtok 40 "," 12 12 40)) (Some (mkPtok 36 "repeat" 10 27 36)) (mkMetaDecl (mkSpan (mkPtok 29 "f64" 12 4 38) (mkPtok 40 "," 12 12 40)) (TyBasic (mkSpan (mkPtok 29 "f64" 12 4 38) (mkPtok 29 "f64" 12 4 38)) (mkBasicType (mkSpan (mkPtok 29 "f64" 12 4 38) (mkPtok 29 "f64" 12 4 38)) (mkPtok 29 "f64" 12 4 38))) (mkPtok 42 "i64_" 12 8 39) None (mkPtok 40 "," 12 12 40)))); (mkFieldWithAttr (mkSpan (mkPtok 42 "a1" 12 14 41) (mkPtok 40 "," 12 24 44)) [] (ObjectField (mkSpan (mkPtok 42 "a1" 12 14 41) (mkPtok 40 "," 12 24 44)) None (mkPtok 42 "a1" 12 14 41) (Some (mkPtok 42 "tag" 12 17 42)) (Some (mkPtok 43 (string_of_bytes [96; 195; 169; 96]%N) 12 20 43)) (mkPtok 40 "," 12 24 44))); (mkFieldWithAttr (mkSpan (mkPtok 12 "char[" 12 25 45) (mkPtok 40 "," 14 0 50)) [] (MetaField (mkSpan (mkPtok 12 "char[" 12 25 45) (mkPtok 40 "," 14 0 50)) None (mkMetaDecl (mkSpan (mkPtok 12 "char[" 12 25 45) (mkPtok 40 "," 14 0 50)) (TyFixed (mkSpan (mkPtok 12 "char[" 12 25 45) (mkPtok 13 "]" 12 34 47)) (mkFixedString (mkSpan (mkPtok 12 "char[" 12 25 45) (mkPtok 13 "]" 12 34 47)) (mkPtok 12 "char[" 12 25 45) (mkPtok 30 "10" 12 31 46) (mkPtok 13 "]" 12 34 47))) (mkPtok 42 "packetx" 12 35 48) (Some (mkPtok 43 "`say ""hi""`" 13 0 49)) (mkPtok 40 "," 14 0 50)))); (mkFieldWithAttr (mkSpan (mkPtok 36 "repeat" 15 4 51) (mkPtok 40 "," 16 11 55)) [] (ObjectField (mkSpan (mkPtok 36 "repeat" 15 4 51) (mkPtok 40 "," 16 11 55)) (Some (mkPtok 36 "repeat" 15 4 51)) (mkPtok 42 "tag" 15 12 52) (Some (mkPtok 42 "metadata" 15 16 53)) (Some (mkPtok 43 (string_of_bytes [96; 116; 97; 98; 9; 104; 101; 114; 101; 96]%N) 16 0 54)) (mkPtok 40 "," 16 11 55)))] (mkPtok 3 "}" 16 13 56))); (DOption (mkOptionDef (mkSpan (mkPtok 1 "options" 18 4 58) (mkPtok 3 "}" 21 0 64)) (mkPtok 1 "options" 18 4 58) (mkPtok 2 "{" 18 12 59) [(mkOptionDecl (mkSpan (mkPtok 42 "crc" 19 0 60) (mkPtok 41 ";" 20 4 63)) (mkPtok 42 "crc" 19 0 60) (mkPtok 4 "=" 19 4 61) (VString (mkSpan (mkPtok 31 """""" 19 6 62) (mkPtok 31 """""" 19 6 62)) (mkPtok 31 """""" 19 6 62)) (Some (mkPtok 41 ";" 20 4 63)))] (mkPtok 3 "}" 21 0 64))); (DPacket (mkPacketDef (mkSpan (mkPtok 35 "packet" 22 4 65) (mkPtok 3 "}" 65 0 192)) None (mkPtok 35 "packet" 22 4 65) (mkPtok 42 "int" 22 11 66) (mkPtok 2 "{" 23 0 67) [(mkFieldWithAttr (mkSpan (mkPtok 36 "repeat" 23 2 68) (mkPtok 40 "," 25 0 75)) [] (MetaField (mkSpan (mkPtok 36 "repeat" 23 2 68) (mkPtok 40 "," 25 0 75)) (Some (mkPtok 36 "repeat" 23 2 68)) (mkMetaDecl (mkSpan (mkPtok 14 "zchar[" 23 9 69) (mkPtok 40 "," 25 0 75)) (TyFixed (mkSpan (mkPtok 14 "zchar[" 23 9 69) (mkPtok 13 "]" 24 4 71)) (mkFixedString (mkSpan (mkPtok 14 "zchar[" 23 9 69) (mkPtok 13 "]" 24 4 71)) (mkPtok 14 "zchar[" 23 9 69) (mkPtok 30 "255" 23 16 70) (mkPtok 13 "]" 24 4 71))) (mkPtok 42 "i64_" 24 6 72) (Some (mkPtok 43 "`two words`" 24 11 73)) (mkPtok 40 "," 25 0 75)))); (mkFieldWithAttr (mkSpan (mkPtok 15 "string" 26 4 76) (mkPtok 40 "," 28 0 82)) [] (LengthField (mkSpan (mkPtok 15 "string" 26 4 76) (mkPtok 40 "," 28 0 82)) (mkLengthFieldDecl (mkSpan (mkPtok 15 "string" 26 4 76) (mkPtok 40 "," 28 0 82)) (Some (TyDynamic (mkSpan (mkPtok 15 "string" 26 4 76) (mkPtok 15 "string" 26 4 76)) (mkDynamicString (mkSpan (mkPtok 15 "string" 26 4 76) (mkPtok 15 "string" 26 4 76)) (mkPtok 15 "string" 26 4 76)))) (mkPtok 42 "tag" 26 11 77) (mkLengthOf (mkSpan (mkPtok 7 "@lengthOf(" 26 14 78) (mkPtok 6 ")" 27 7 81)) (mkPtok 7 "@lengthOf(" 26 14 78) (mkPtok 42 "Header" 27 0 80) (mkPtok 6 ")" 27 7 81)) None (mkPtok 40 "," 28 0 82)))); (mkFieldWithAttr (mkSpan (mkPtok 19 "char" 28 1 83) (mkPtok 40 "," 28 12 85)) [] (MetaField (mkSpan (mkPtok 19 "char" 28 1 83) (mkPtok 40 "," 28 12 85)) None (mkMetaDecl (mkSpan (mkPtok 19 "char" 28 1 83) (mkPtok 40 "," 28 12 85)) (TyBasic (mkSpan (mkPtok 19 "char" 28 1 83) (mkPtok 19 "char" 28 1 83)) (mkBasicType (mkSpan (mkPtok 19 "char" 28 1 83) (mkPtok 19 "char" 28 1 83)) (mkPtok 19 "char" 28 1 83))) (mkPtok 42 "chars" 28 6 84) None (mkPtok 40 "," 28 12 85)))); (mkFieldWithAttr (mkSpan (mkPtok 7 "@lengthOf(" 29 0 86) (mkPtok 40 "," 32 16 107)) [(FALengthOf (mkSpan (mkPtok 7 "@lengthOf(" 29 0 86) (mkPtok 6 ")" 30 8 88)) (mkLengthOf (mkSpan (mkPtok 7 "@lengthOf(" 29 0 86) (mkPtok 6 ")" 30 8 88)) (mkPtok 7 "@lengthOf(" 29 0 86) (mkPtok 42 "crc" 30 4 87) (mkPtok 6 ")" 30 8 88)))] (MatchField (mkSpan (mkPtok 38 "match" 30 10 89) (mkPtok 40 "," 32 16 107)) (mkMatchFieldDecl (mkSpan (mkPtok 38 "match" 30 10 89) (mkPtok 3 "}" 32 14 106)) (mkPtok 38 "match" 30 10 89) (mkPtok 42 "asx" 30 16 90) (mkPtok 17 "as" 30 20 91) (mkPtok 42 "Foo" 30 23 92) (mkPtok 2 "{" 30 26 93) [(mkMatchPair (mkSpan (mkPtok 30 "7" 30 28 94) (mkPtok 40 "," 30 44 97)) (MKDigits (mkPtok 30 "7" 30 28 94)) (mkPtok 39 ":" 30 31 95) (mkPtok 42 "BodyLength" 30 33 96) (Some (mkPtok 40 "," 30 44 97))); (mkMatchPair (mkSpan (mkPtok 31 """packet""" 30 46 98) (mkPtok 40 "," 31 0 101)) (MKString (mkPtok 31 """packet""" 30 46 98)) (mkPtok 39 ":" 30 55 99) (mkPtok 42 "Z9_" 30 57 100) (Some (mkPtok 40 "," 31 0 101))); (mkMatchPair (mkSpan (mkPtok 30 "007" 31 1 102) (mkPtok 40 "," 32 13 105)) (MKDigits (mkPtok 30 "007" 31 1 102)) (mkPtok 39 ":" 31 5 103) (mkPtok 42 "matchKey" 32 4 104) (Some (mkPtok 40 "," 32 13 105)))] (mkPtok 3 "}" 32 14 106)) (mkPtok 40 "," 32 16 107))); (mkFieldWithAttr (mkSpan (mkPtok 21 "uint16" 33 0 108) (mkPtok 40 "," 34 0 111)) [] (MetaField (mkSpan (mkPtok 21 "uint16" 33 0 108) (mkPtok 40 "," 34 0 111)) None (mkMetaDecl (mkSpan (mkPtok 21 "uint16" 33 0 108) (mkPtok 40 "," 34 0 111)) (TyBasic (mkSpan (mkPtok 21 "uint16" 33 0 108) (mkPtok 21 "uint16" 33 0 108)) (mkBasicType (mkSpan (mkPtok 21 "uint16" 33 0 108) (mkPtok 21 "uint16" 33 0 108)) (mkPtok 21 "uint16" 33 0 108))) (mkPtok 42 "metadata" 33 7 109) None (mkPtok 40 "," 34 0 111)))); (mkFieldWithAttr (mkSpan (mkPtok 42 "i64_" 35 0 112) (mkPtok 40 "," 46 4 141)) [] (InerObjectField (mkSpan (mkPtok 42 "i64_" 35 0 112) (mkPtok 40 "," 46 4 141)) None (InerObjectDecl (mkSpan (mkPtok 42 "i64_" 35 0 112) (mkPtok 3 "}" 46 2 140)) (mkPtok 42 "i64_" 35 0 112) (mkPtok 2 "{" 35 5 113) [(MetaField (mkSpan (mkPtok 36 "repeat" 35 7 114) (mkPtok 40 "," 37 8 117)) (Some (mkPtok 36 "repeat" 35 7 114)) (mkMetaDecl (mkSpan (mkPtok 20 "u8" 36 0 115) (mkPtok 40 "," 37 8 117)) (TyBasic (mkSpan (mkPtok 20 "u8" 36 0 115) (mkPtok 20 "u8" 36 0 115)) (mkBasicType (mkSpan (mkPtok 20 "u8" 36 0 115) (mkPtok 20 "u8" 36 0 115)) (mkPtok 20 "u8" 36 0 115))) (mkPtok 42 "msg_type" 37 0 116) None (mkPtok 40 "," 37 8 117))); (InerObjectField (mkSpan (mkPtok 42 "stringy" 37 10 118) (mkPtok 40 "," 42 0 133)) None (InerObjectDecl (mkSpan (mkPtok 42 "stringy" 37 10 118) (mkPtok 3 "}" 39 12 130)) (mkPtok 42 "stringy" 37 10 118) (mkPtok 2 "{" 37 18 119) [(CheckSumField (mkSpan (mkPtok 12 "char[" 37 19 120) (mkPtok 40 "," 39 11 129)) (mkChecksumFieldDecl (mkSpan (mkPtok 12 "char[" 37 19 120) (mkPtok 40 "," 39 11 129)) (Some (TyFixed (mkSpan (mkPtok 12 "char[" 37 19 120) (mkPtok 13 "]" 37 36 122)) (mkFixedString (mkSpan (mkPtok 12 "char[" 37 19 120) (mkPtok 13 "]" 37 36 122)) (mkPtok 12 "char[" 37 19 120) (mkPtok 30 "0123456789" 37 25 121) (mkPtok 13 "]" 37 36 122)))) (mkPtok 42 "o" 38 0 124) (mkCalculatedFrom (mkSpan (mkPtok 5 "@calculatedFrom(" 38 2 125) (mkPtok 6 ")" 39 5 127)) (mkPtok 5 "@calculatedFrom(" 38 2 125) (mkPtok 31 """\n""" 39 0 126) (mkPtok 6 ")" 39 5 127)) (Some (mkPtok 43 (string_of_bytes [96; 195; 169; 96]%N) 39 7 128)) (mkPtok 40 "," 39 11 129)))] (mkPtok 3 "}" 39 12 130)) (mkPtok 40 "," 42 0 133)); (MetaField (mkSpan (mkPtok 14 "zchar[" 42 2 134) (mkPtok 40 "," 46 0 139)) None (mkMetaDecl (mkSpan (mkPtok 14 "zchar[" 42 2 134) (mkPtok 40 "," 46 0 139)) (TyFixed (mkSpan (mkPtok 14 "zchar[" 42 2 134) (mkPtok 13 "]" 43 2 136)) (mkFixedString (mkSpan (mkPtok 14 "zchar[" 42 2 134) (mkPtok 13 "]" 43 2 136)) (mkPtok 14 "zchar[" 42 2 134) (mkPtok 30 "00" 43 0 135) (mkPtok 13 "]" 43 2 136))) (mkPtok 42 "stringy" 44 4 137) (Some (mkPtok 43 (string_of_bytes [96; 108; 105; 110; 101; 49; 10; 108; 105; 110; 101; 50; 96]%N) 44 12 138)) (mkPtok 40 "," 46 0 139)))] (mkPtok 3 "}" 46 2 140)) (mkPtok 40 "," 46 4 141))); (mkFieldWithAttr (mkSpan (mkPtok 32 "@leftPad" 47 0 142) (mkPtok 40 "," 57 14 178)) [(FAPadding (mkSpan (mkPtok 32 "@leftPad" 47 0 142) (mkPtok 6 ")" 48 4 146)) (mkPaddingAttr (mkSpan (mkPtok 32 "@leftPad" 47 0 142) (mkPtok 6 ")" 48 4 146)) (mkPtok 32 "@leftPad" 47 0 142) (mkPtok 8 "(" 48 0 144) (Some (mkPtok 33 "'0'" 48 1 145)) (mkPtok 6 ")" 48 4 146)))] (MatchField (mkSpan (mkPtok 38 "match" 48 6 147) (mkPtok 40 "," 57 14 178)) (mkMatchFieldDecl (mkSpan (mkPtok 38 "match" 48 6 147) (mkPtok 3 "}" 57 12 177)) (mkPtok 38 "match" 48 6 147) (mkPtok 42 "uint8x" 48 12 148) (mkPtok 17 "as" 48 19 149) (mkPtok 42 "u128" 48 22 150) (mkPtok 2 "{" 48 27 151) [(mkMatchPair (mkSpan (mkPtok 18 "[" 49 0 152) (mkPtok 42 "_x" 51 6 159)) (MKList (mkKeyList (mkSpan (mkPtok 18 "[" 49 0 152) (mkPtok 13 "]" 50 8 157)) (mkPtok 18 "[" 49 0 152) (mkPtok 30 "1" 49 2 153) [((mkPtok 40 "," 50 0 155), (mkPtok 31 """abc""" 50 2 156))] (mkPtok 13 "]" 50 8 157))) (mkPtok 39 ":" 51 4 158) (mkPtok 42 "_x" 51 6 159) None); (mkMatchPair (mkSpan (mkPtok 31 (string_of_bytes [34; 97; 9; 98; 34]%N) 51 10 160) (mkPtok 42 "Packet" 51 17 162)) (MKString (mkPtok 31 (string_of_bytes [34; 97; 9; 98; 34]%N) 51 10 160)) (mkPtok 39 ":" 51 16 161) (mkPtok 42 "Packet" 51 17 162) None); (mkMatchPair (mkSpan (mkPtok 30 "3" 53 4 164) (mkPtok 40 "," 54 0 168)) (MKDigits (mkPtok 30 "3" 53 4 164)) (mkPtok 39 ":" 53 6 165) (mkPtok 42 "_x" 53 8 166) (Some (mkPtok 40 "," 54 0 168))); (mkMatchPair (mkSpan (mkPtok 31 """`tick`""" 54 2 169) (mkPtok 40 "," 55 8 172)) (MKString (mkPtok 31 """`tick`""" 54 2 169)) (mkPtok 39 ":" 54 11 170) (mkPtok 42 "packetx" 55 0 171) (Some (mkPtok 40 "," 55 8 172))); (mkMatchPair (mkSpan (mkPtok 31 """\n""" 56 0 173) (mkPtok 40 "," 57 9 176)) (MKString (mkPtok 31 """\n""" 56 0 173)) (mkPtok 39 ":" 57 0 174) (mkPtok 42 "Header" 57 2 175) (Some (mkPtok 40 "," 57 9 176)))] (mkPtok 3 "}" 57 12 177)) (mkPtok 40 "," 57 14 178))); (mkFieldWithAttr (mkSpan (mkPtok 42 "x" 58 0 179) (mkPtok 40 "," 62 11 185)) [] (CheckSumField (mkSpan (mkPtok 42 "x" 58 0 179) (mkPtok 40 "," 62 11 185)) (mkChecksumFieldDecl (mkSpan (mkPtok 42 "x" 58 0 179) (mkPtok 40 "," 62 11 185)) None (mkPtok 42 "x" 58 0 179) (mkCalculatedFrom (mkSpan (mkPtok 5 "@calculatedFrom(" 60 4 181) (mkPtok 6 ")" 62 9 184)) (mkPtok 5 "@calculatedFrom(" 60 4 181) (mkPtok 31 """\n""" 62 4 183) (mkPtok 6 ")" 62 9 184)) None (mkPtok 40 "," 62 11 185)))); (mkFieldWithAttr (mkSpan (mkPtok 14 "zchar[" 62 12 186) (mkPtok 40 "," 64 0 191)) [] (MetaField (mkSpan (mkPtok 14 "zchar[" 62 12 186) (mkPtok 40 "," 64 0 191)) None (mkMetaDecl (mkSpan (mkPtok 14 "zchar[" 62 12 186) (mkPtok 40 "," 64 0 191)) (TyFixed (mkSpan (mkPtok 14 "zchar[" 62 12 186) (mkPtok 13 "]" 62 25 188)) (mkFixedString (mkSpan (mkPtok 14 "zchar[" 62 12 186) (mkPtok 13 "]" 62 25 188)) (mkPtok 14 "zchar[" 62 12 186) (mkPtok 30 "65535" 62 19 187) (mkPtok 13 "]" 62 25 188))) (mkPtok 42 "Packet" 63 4 189) None (mkPtok 40 "," 64 0 191))))] (mkPtok 3 "}" 65 0 192))); (DMeta (mkMetaDef (mkSpan (mkPtok 37 "MetaData" 65 2 193) (mkPtok 3 "}" 66 4 196)) (mkPtok 37 "MetaData" 65 2 193) (mkPtok 42 "Logon" 65 11 194) (mkPtok 2 "{" 65 16 195) [] (mkPtok 3 "}" 66 4 196))); (DPacket (mkPacketDef (mkSpan (mkPtok 35 "packet" 66 6 197) (mkPtok 3 "}" 70 11 238)) None (mkPtok 35 "packet" 66 6 197) (mkPtok 42 "packetx" 66 13 198) (mkPtok 2 "{" 66 21 199) [(mkFieldWithAttr (mkSpan (mkPtok 5 "@calculatedFrom(" 67 0 200) (mkPtok 40 "," 70 9 237)) [(FACalculatedFrom (mkSpan (mkPtok 5 "@calculatedFrom(" 67 0 200) (mkPtok 6 ")" 67 23 202)) (mkCalculatedFrom (mkSpan (mkPtok 5 "@calculatedFrom(" 67 0 200) (mkPtok 6 ")" 67 23 202)) (mkPtok 5 "@calculatedFrom(" 67 0 200) (mkPtok 31 """a\\""" 67 17 201) (mkPtok 6 ")" 67 23 202)))] (MatchField (mkSpan (mkPtok 38 "match" 68 0 203) (mkPtok 40 "," 70 9 237)) (mkMatchFieldDecl (mkSpan (mkPtok 38 "match" 68 0 203) (mkPtok 3 "}" 70 7 236)) (mkPtok 38 "match" 68 0 203) (mkPtok 42 "roots" 68 6 204) (mkPtok 17 "as" 68 12 205) (mkPtok 42 "Foo" 68 15 206) (mkPtok 2 "{" 68 19 207) [(mkMatchPair (mkSpan (mkPtok 18 "[" 68 21 208) (mkPtok 40 "," 68 47 215)) (MKList (mkKeyList (mkSpan (mkPtok 18 "[" 68 21 208) (mkPtok 13 "]" 68 39 212)) (mkPtok 18 "[" 68 21 208) (mkPtok 31 """\n""" 68 22 209) [((mkPtok 40 "," 68 26 210), (mkPtok 30 "4294967296" 68 28 211))] (mkPtok 13 "]" 68 39 212))) (mkPtok 39 ":" 68 41 213) (mkPtok 42 "asx" 68 43 214) (Some (mkPtok 40 "," 68 47 215))); (mkMatchPair (mkSpan (mkPtok 30 "00" 68 48 216) (mkPtok 40 "," 69 5 219)) (MKDigits (mkPtok 30 "00" 68 48 216)) (mkPtok 39 ":" 69 0 217) (mkPtok 42 "o" 69 3 218) (Some (mkPtok 40 "," 69 5 219))); (mkMatchPair (mkSpan (mkPtok 31 """{,}""" 69 7 220) (mkPtok 40 "," 69 21 223)) (MKString (mkPtok 31 """{,}""" 69 7 220)) (mkPtok 39 ":" 69 13 221) (mkPtok 42 "Header" 69 14 222) (Some (mkPtok 40 "," 69 21 223))); (mkMatchPair (mkSpan (mkPtok 30 "255" 69 22 224) (mkPtok 40 "," 69 36 227)) (MKDigits (mkPtok 30 "255" 69 22 224)) (mkPtok 39 ":" 69 26 225) (mkPtok 42 "packetx" 69 28 226) (Some (mkPtok 40 "," 69 36 227))); (mkMatchPair (mkSpan (mkPtok 18 "[" 69 38 228) (mkPtok 40 "," 70 4 235)) (MKList (mkKeyList (mkSpan (mkPtok 18 "[" 69 38 228) (mkPtok 13 "]" 69 54 232)) (mkPtok 18 "[" 69 38 228) (mkPtok 30 "255" 69 39 229) [((mkPtok 40 "," 69 42 230), (mkPtok 30 "4294967296" 69 43 231))] (mkPtok 13 "]" 69 54 232))) (mkPtok 39 ":" 69 56 233) (mkPtok 42 "MetaDataX" 69 57 234) (Some (mkPtok 40 "," 70 4 235)))] (mkPtok 3 "}" 70 7 236)) (mkPtok 40 "," 70 9 237)))] (mkPtok 3 "}" 70 11 238)))])).
-Eval vm_compute in ("<<<M430>>>" ++ check (runes_of_ascii "options { options1 =
-0 } packet _x { @tag( 3
-    // trailing space 
-    )
-@lengthOf( packetx
-)repeat
-    zchar[ 255] roots,}	packet  Logon{ f64
-float ,
-matchKey	,
-    f32a//
-Pad
-    `" ++ [233]%N ++ runes_of_ascii "` ,
-    // `tick` ""quote"" 'q'
-    @calculatedFrom( ""packet"" ) match u128 as
-Pad{
-    [// " ++ [27880; 37322]%N ++ runes_of_ascii "
-00 ,""CRC32"" ]
-    : msg_type
-65535
-:	stringy , [
-""abc"" //	t
-,00, """ ++ [233]%N ++ runes_of_ascii "t" ++ [233]%N ++ runes_of_ascii """ , ""// no comment""
-    , // trailing space 
-0
-,""// no comment""
-    , ""1"" ]
-    : matchKey [ ""it's"" ,0] : A } , zchar[ 3] //x
-uint8x , } options { _x = ' ' rootA = //x
-char[] uint8x= //	t
-""a	b"" ;
-body= char[]
-    // trailing space 
-    }
-    root
-packet
-    len  { }
-")).
-Eval vm_compute in ("<<<M462>>>" ++ check (runes_of_ascii "// " ++ [27880; 37322]%N ++ runes_of_ascii "
-packet// @lengthOf(
-roots {	int64 Packet ,}
-/// triple
-// c
-packet trueish
-    { @calculatedFrom(
-    """" )  msg_type @calculatedFrom(
-    ""a\""b"")  ,
-    // " ++ [27880; 37322]%N ++ runes_of_ascii "
-    u16 trueish
-, f32a	, uint64 //x
-lengthOf
-    @lengthOf( Foo
-) , }options { repeatCount = true ; x = false
-    chars=zchar[ 007]
-;}")).
-Eval vm_compute in ("<<<M494>>>" ++ check (runes_of_ascii "MetaData Z9_
-    {
-}")).
-Eval vm_compute in ("<<<M526>>>" ++ check (runes_of_ascii "packet leftPad //x
-{uint16 x , lengthOf // a // b
-chars `// not a comment` , @calculatedFrom( ""a\\"") repeat
-char[] As`{ , }`
-, metadata
-@calculatedFrom(
-    ""// no comment"" ),
-uint32 f32a`
-`
-, @tag( // @lengthOf(
-255) repeat trueish `doc` ,
-char[] trueish
-@lengthOf(
-len )
-,int16
-i64_ ,
-@calculatedFrom( ""\n""
-)
-i8i8 `" ++ [28040; 24687; 31867; 22411]%N ++ runes_of_ascii "`  ,
-    } root
-    packet crc { repeat uint8x	packetx, match
-u8x as T {
-0
-: crc,1  : T ,
-    [ ""a\\""// c
-, 0123456789 , 00 ] : chars ,	7 :
-T //	t
-,	}// a // b
-,
-roots  @lengthOf(	lengthOf
-    ) `two words`
-    , match
-rootA as A{
-10
-    : x ,
-    }, crc @calculatedFrom( ""a	b""
-    )
-    , chars {
-match lengthOf as Header
-{4294967296 :// c
-zchar
-, [4294967296 ,
-""a\\""
-    ]: asx ,}
-,_x  @calculatedFrom(
-    ""\" ++ [233]%N ++ runes_of_ascii """)`tab	here` // a // b
-, },} //
-MetaData asx { zchar[
-    42	] uint8x
-// `tick` ""quote"" 'q'
-// `tick` ""quote"" 'q'
-, uint8
-    Logon //x
-`// not a comment` , } MetaData
-    o
-//	t
-//x
-{ u16 // " ++ [27880; 37322]%N ++ runes_of_ascii "
-_x , x_y_z float `crlf
-line`,BodyLength calculatedFrom
-    `tab	here` ,
-    uint16
-MetaDataX , }
-")).
-Eval vm_compute in ("<<<M558>>>" ++ check (runes_of_ascii "packet pack// @lengthOf(
-{ repeat
-As// " ++ [27880; 37322]%N ++ runes_of_ascii "
-{ char[65535  ] u128 // a // b
-@lengthOf( a1 )
-`tab	here` ,i8 rootA `crlf
-line`
-,
-    match //x
-i8i8 as
-    zchar { [""1""]
-: tag ,""a	b"":
-u8x
-    ""a\""b""
-: calculatedFrom, } , match leftPad //	t
-as
-    Pad
-{
-// `tick` ""quote"" 'q'
-// trailing space 
-65535 : options1
-},}	,u32 crc
-    , zchar[ 00]
-roots, }
-
-")).
-Eval vm_compute in ("<<<M590>>>" ++ check (runes_of_ascii "packet
-    A { calculatedFrom
-    //
-    @lengthOf(//
-zchar ) `say ""hi""`	, @calculatedFrom(  ""{,}""
-)
-repeat
-    u8x // `tick` ""quote"" 'q'
-uint8x `u8 x,` ,
-    match
-//
-// " ++ [128512]%N ++ runes_of_ascii " emoji
-o as matchKey {
-[ 3 ,""""]: T ,//
-""{,}""// @lengthOf(
-:
-// a // b
-// packet A { u8 x, }
-calculatedFrom } ,
-    repeat char[ 255	] u
-,char[]Packet ,repeat int64
-packetx// trailing space 
-,  @leftPad( '\x00'
-)@calculatedFrom( """" ) zchar { // trailing space 
-f32
-    //
-    zchar `" ++ [28040; 24687; 31867; 22411]%N ++ runes_of_ascii "`,match
-u128 as
-    options1
-{ [""abc"",10 ,
-    65535 , 0 , ""\n"" ,""" ++ [128512]%N ++ runes_of_ascii """ ,
-0123456789 ]
-    : // a // b
-chars
-, 00 :
-As
-, ""a	b""
-    : packetx, 10: a1, // packet A { u8 x, }
-} , },
-    float64 calculatedFrom @lengthOf( //
-packetx
-    ) ,char[ //x
-00]
-// " ++ [128512]%N ++ runes_of_ascii " emoji
-//
-string_ `
-` , @calculatedFrom( ""it's""
-    )@leftPad
-()
-    f32 BodyLength , }
-// " ++ [27880; 37322]%N ++ runes_of_ascii "
-")).
-Eval vm_compute in ("<<<M622>>>" ++ check (runes_of_ascii "// packet A { u8 x, }
-options{ // a // b
-} options
-    { matchKey = 00
-metadata =
-/// triple
-//
-float64 u8x// `tick` ""quote"" 'q'
-= 42
-    }
-packet
-    uint8x{
-    @lengthOf( matchKey
-)
-    float32 options1
-,
-@lengthOf( packetx ) repeat
-zchar[7 ]
-As ,@rightPad (
-)
-    // `tick` ""quote"" 'q'
-    uint64 repeatCount
-//	t
-// packet A { u8 x, }
-@lengthOf( leftPad	), @lengthOf( As
-) @leftPad(
-'\x00') // @lengthOf(
-Header options1, @lengthOf( // a // b
-packetx //
-) repeat
-    zchar[ 255
-    ] zchar `it's` , }
-")).
-Eval vm_compute in ("<<<T622>>>" ++ terms [mkTok 44 "// packet A { u8 x, }" 1 0 true; mkTok 1 "options" 2 0 false; mkTok 2 "{" 2 7 false; mkTok 44 "// a // b" 2 9 true; mkTok 3 "}" 3 0 false; mkTok 1 "options" 3 2 false; mkTok 2 "{" 4 4 false; mkTok 42 "matchKey" 4 6 false; mkTok 4 "=" 4 15 false; mkTok 30 "00" 4 17 false; mkTok 42 "metadata" 5 0 false; mkTok 4 "=" 5 9 false; mkTok 44 "/// triple" 6 0 true; mkTok 44 "//" 7 0 true; mkTok 29 "float64" 8 0 false; mkTok 42 "u8x" 8 8 false; mkTok 44 "// `tick` ""quote"" 'q'" 8 11 true; mkTok 4 "=" 9 0 false; mkTok 30 "42" 9 2 false; mkTok 3 "}" 10 4 false; mkTok 35 "packet" 11 0 false; mkTok 42 "uint8x" 12 4 false; mkTok 2 "{" 12 10 false; mkTok 7 "@lengthOf(" 13 4 false; mkTok 42 "matchKey" 13 15 false; mkTok 6 ")" 14 0 false; mkTok 28 "float32" 15 4 false; mkTok 42 "options1" 15 12 false; mkTok 40 "," 16 0 false; mkTok 7 "@lengthOf(" 17 0 false; mkTok 42 "packetx" 17 11 false; mkTok 6 ")" 17 19 false; mkTok 36 "repeat" 17 21 false; mkTok 14 "zchar[" 18 0 false; mkTok 30 "7" 18 6 false; mkTok 13 "]" 18 8 false; mkTok 42 "As" 19 0 false; mkTok 40 "," 19 3 false; mkTok 32 "@rightPad" 19 4 false; mkTok 8 "(" 19 14 false; mkTok 6 ")" 20 0 false; mkTok 44 "// `tick` ""quote"" 'q'" 21 4 true; mkTok 23 "uint64" 22 4 false; mkTok 42 "repeatCount" 22 11 false; mkTok 44 (string_of_bytes [47; 47; 9; 116]%N) 23 0 true; mkTok 44 "// packet A { u8 x, }" 24 0 true; mkTok 7 "@lengthOf(" 25 0 false; mkTok 42 "leftPad" 25 11 false; mkTok 6 ")" 25 19 false; mkTok 40 "," 25 20 false; mkTok 7 "@lengthOf(" 25 22 false; mkTok 42 "As" 25 33 false; mkTok 6 ")" 26 0 false; mkTok 32 "@leftPad" 26 2 false; mkTok 8 "(" 26 10 false; mkTok 33 "'\x00'" 27 0 false; mkTok 6 ")" 27 6 false; mkTok 44 "// @lengthOf(" 27 8 true; mkTok 42 "Header" 28 0 false; mkTok 42 "options1" 28 7 false; mkTok 40 "," 28 15 false; mkTok 7 "@lengthOf(" 28 17 false; mkTok 44 "// a // b" 28 28 true; mkTok 42 "packetx" 29 0 false; mkTok 44 "//" 29 8 true; mkTok 6 ")" 30 0 false; mkTok 36 "repeat" 30 2 false; mkTok 14 "zchar[" 31 4 false; mkTok 30 "255" 31 11 false; mkTok 13 "]" 32 4 false; mkTok 42 "zchar" 32 6 false; mkTok 43 "`it's`" 32 12 false; mkTok 40 "," 32 19 false; mkTok 3 "}" 32 21 false; mkTok 0 "<EOF>" 33 0 false] (mkPacket (mkPtok 1 "options" 2 0 1) (Some (mkPtok 3 "}" 32 21 73)) [(DOption (mkOptionDef (mkSpan (mkPtok 1 "options" 2 0 1) (mkPtok 3 "}" 3 0 4)) (mkPtok 1 "options" 2 0 1) (mkPtok 2 "{" 2 7 2) [] (mkPtok 3 "}" 3 0 4))); (DOption (mkOptionDef (mkSpan (mkPtok 1 "options" 3 2 5) (mkPtok 3 "}" 10 4 19)) (mkPtok 1 "options" 3 2 5) (mkPtok 2 "{" 4 4 6) [(mkOptionDecl (mkSpan (mkPtok 42 "matchKey" 4 6 7) (mkPtok 30 "00" 4 17 9)) (mkPtok 42 "matchKey" 4 6 7) (mkPtok 4 "=" 4 15 8) (VDigits (mkSpan (mkPtok 30 "00" 4 17 9) (mkPtok 30 "00" 4 17 9)) (mkPtok 30 "00" 4 17 9)) None); (mkOptionDecl (mkSpan (mkPtok 42 "metadata" 5 0 10) (mkPtok 29 "float64" 8 0 14)) (mkPtok 42 "metadata" 5 0 10) (mkPtok 4 "=" 5 9 11) (VType (mkSpan (mkPtok 29 "float64" 8 0 14) (mkPtok 29 "float64" 8 0 14)) (TyBasic (mkSpan (mkPtok 29 "float64" 8 0 14) (mkPtok 29 "float64" 8 0 14)) (mkBasicType (mkSpan (mkPtok 29 "float64" 8 0 14) (mkPtok 29 "float64" 8 0 14)) (mkPtok 29 "float64" 8 0 14)))) None); (mkOptionDecl (mkSpan (mkPtok 42 "u8x" 8 8 15) (mkPtok 30 "42" 9 2 18)) (mkPtok 42 "u8x" 8 8 15) (mkPtok 4 "=" 9 0 17) (VDigits (mkSpan (mkPtok 30 "42" 9 2 18) (mkPtok 30 "42" 9 2 18)) (mkPtok 30 "42" 9 2 18)) None)] (mkPtok 3 "}" 10 4 19))); (DPacket (mkPacketDef (mkSpan (mkPtok 35 "packet" 11 0 20) (mkPtok 3 "}" 32 21 73)) None (mkPtok 35 "packet" 11 0 20) (mkPtok 42 "uint8x" 12 4 21) (mkPtok 2 "{" 12 10 22) [(mkFieldWithAttr (mkSpan (mkPtok 7 "@lengthOf(" 13 4 23) (mkPtok 40 "," 16 0 28)) [(FALengthOf (mkSpan (mkPtok 7 "@lengthOf(" 13 4 23) (mkPtok 6 ")" 14 0 25)) (mkLengthOf (mkSpan (mkPtok 7 "@lengthOf(" 13 4 23) (mkPtok 6 ")" 14 0 25)) (mkPtok 7 "@lengthOf(" 13 4 23) (mkPtok 42 "matchKey" 13 15 24) (mkPtok 6 ")" 14 0 25)))] (MetaField (mkSpan (mkPtok 28 "float32" 15 4 26) (mkPtok 40 "," 16 0 28)) None (mkMetaDecl (mkSpan (mkPtok 28 "float32" 15 4 26) (mkPtok 40 "," 16 0 28)) (TyBasic (mkSpan (mkPtok 28 "float32" 15 4 26) (mkPtok 28 "float32" 15 4 26)) (mkBasicType (mkSpan (mkPtok 28 "float32" 15 4 26) (mkPtok 28 "float32" 15 4 26)) (mkPtok 28 "float32" 15 4 26))) (mkPtok 42 "options1" 15 12 27) None (mkPtok 40 "," 16 0 28)))); (mkFieldWithAttr (mkSpan (mkPtok 7 "@lengthOf(" 17 0 29) (mkPtok 40 "," 19 3 37)) [(FALengthOf (mkSpan (mkPtok 7 "@lengthOf(" 17 0 29) (mkPtok 6 ")" 17 19 31)) (mkLengthOf (mkSpan (mkPtok 7 "@lengthOf(" 17 0 29) (mkPtok 6 ")" 17 19 31)) (mkPtok 7 "@lengthOf(" 17 0 29) (mkPtok 42 "packetx" 17 11 30) (mkPtok 6 ")" 17 19 31)))] (MetaField (mkSpan (mkPtok 36 "repeat" 17 21 32) (mkPtok 40 "," 19 3 37)) (Some (mkPtok 36 "repeat" 17 21 32)) (mkMetaDecl (mkSpan (mkPtok 14 "zchar[" 18 0 33) (mkPtok 40 "," 19 3 37)) (TyFixed (mkSpan (mkPtok 14 "zchar[" 18 0 33) (mkPtok 13 "]" 18 8 35)) (mkFixedString (mkSpan (mkPtok 14 "zchar[" 18 0 33) (mkPtok 13 "]" 18 8 35)) (mkPtok 14 "zchar[" 18 0 33) (mkPtok 30 "7" 18 6 34) (mkPtok 13 "]" 18 8 35))) (mkPtok 42 "As" 19 0 36) None (mkPtok 40 "," 19 3 37)))); (mkFieldWithAttr (mkSpan (mkPtok 32 "@rightPad" 19 4 38) (mkPtok 40 "," 25 20 49)) [(FAPadding (mkSpan (mkPtok 32 "@rightPad" 19 4 38) (mkPtok 6 ")" 20 0 40)) (mkPaddingAttr (mkSpan (mkPtok 32 "@rightPad" 19 4 38) (mkPtok 6 ")" 20 0 40)) (mkPtok 32 "@rightPad" 19 4 38) (mkPtok 8 "(" 19 14 39) None (mkPtok 6 ")" 20 0 40)))] (LengthField (mkSpan (mkPtok 23 "uint64" 22 4 42) (mkPtok 40 "," 25 20 49)) (mkLengthFieldDecl (mkSpan (mkPtok 23 "uint64" 22 4 42) (mkPtok 40 "," 25 20 49)) (Some (TyBasic (mkSpan (mkPtok 23 "uint64" 22 4 42) (mkPtok 23 "uint64" 22 4 42)) (mkBasicType (mkSpan (mkPtok 23 "uint64" 22 4 42) (mkPtok 23 "uint64" 22 4 42)) (mkPtok 23 "uint64" 22 4 42)))) (mkPtok 42 "repeatCount" 22 11 43) (mkLengthOf (mkSpan (mkPtok 7 "@lengthOf(" 25 0 46) (mkPtok 6 ")" 25 19 48)) (mkPtok 7 "@lengthOf(" 25 0 46) (mkPtok 42 "leftPad" 25 11 47) (mkPtok 6 ")" 25 19 48)) None (mkPtok 40 "," 25 20 49)))); (mkFieldWithAttr (mkSpan (mkPtok 7 "@lengthOf(" 25 22 50) (mkPtok 40 "," 28 15 60)) [(FALengthOf (mkSpan (mkPtok 7 "@lengthOf(" 25 22 50) (mkPtok 6 ")" 26 0 52)) (mkLengthOf (mkSpan (mkPtok 7 "@lengthOf(" 25 22 50) (mkPtok 6 ")" 26 0 52)) (mkPtok 7 "@lengthOf(" 25 22 50) (mkPtok 42 "As" 25 33 51) (mkPtok 6 ")" 26 0 52))); (FAPadding (mkSpan (mkPtok 32 "@leftPad" 26 2 53) (mkPtok 6 ")" 27 6 56)) (mkPaddingAttr (mkSpan (mkPtok 32 "@leftPad" 26 2 53) (mkPtok 6 ")" 27 6 56)) (mkPtok 32 "@leftPad" 26 2 53) (mkPtok 8 "(" 26 10 54) (Some (mkPtok 33 "'\x00'" 27 0 55)) (mkPtok 6 ")" 27 6 56)))] (ObjectField (mkSpan (mkPtok 42 "Header" 28 0 58) (mkPtok 40 "," 28 15 60)) None (mkPtok 42 "Header" 28 0 58) (Some (mkPtok 42 "options1" 28 7 59)) None (mkPtok 40 "," 28 15 60))); (mkFieldWithAttr (mkSpan (mkPtok 7 "@lengthOf(" 28 17 61) (mkPtok 40 "," 32 19 72)) [(FALengthOf (mkSpan (mkPtok 7 "@lengthOf(" 28 17 61) (mkPtok 6 ")" 30 0 65)) (mkLengthOf (mkSpan (mkPtok 7 "@lengthOf(" 28 17 61) (mkPtok 6 ")" 30 0 65)) (mkPtok 7 "@lengthOf(" 28 17 61) (mkPtok 42 "packetx" 29 0 63) (mkPtok 6 ")" 30 0 65)))] (MetaField (mkSpan (mkPtok 36 "repeat" 30 2 66) (mkPtok 40 "," 32 19 72)) (Some (mkPtok 36 "repeat" 30 2 66)) (mkMetaDecl (mkSpan (mkPtok 14 "zchar[" 31 4 67) (mkPtok 40 "," 32 19 72)) (TyFixed (mkSpan (mkPtok 14 "zchar[" 31 4 67) (mkPtok 13 "]" 32 4 69)) (mkFixedString (mkSpan (mkPtok 14 "zchar[" 31 4 67) (mkPtok 13 "]" 32 4 69)) (mkPtok 14 "zchar[" 31 4 67) (mkPtok 30 "255" 31 11 68) (mkPtok 13 "]" 32 4 69))) (mkPtok 42 "zchar" 32 6 70) (Some (mkPtok 43 "`it's`" 32 12 71)) (mkPtok 40 "," 32 19 72))))] (mkPtok 3 "}" 32 21 73)))])).
-Eval vm_compute in ("<<<M654>>>" ++ check (runes_of_ascii "
-")).
-Eval vm_compute in ("<<<M686>>>" ++ check (runes_of_ascii "options { T=""it's"" ; // trailing space 
-Z9_  =""\" ++ [233]%N ++ runes_of_ascii """
-int = '\x00'u8x  =	""`tick`""crc
-=""packet"" ;	} root // packet A { u8 x, }
-packet string_ { match charz
-//x
-// c
-as u { // " ++ [128512]%N ++ runes_of_ascii " emoji
-0123456789 :
-    zchar , 42
-    // packet A { u8 x, }
-    :rootA ,  007:
-//	t
-// packet A { u8 x, }
-crc , """ ++ [28040; 24687]%N ++ runes_of_ascii """ : Foo[
-007	, ""x y"" ] :int , // " ++ [27880; 37322]%N ++ runes_of_ascii "
-}
-,
-    @tag(  7
-// a // b
-// @lengthOf(
-) repeat
-// `tick` ""quote"" 'q'
-//
-metadata, string len // a // b
-@lengthOf( o ) `crlf
-line` , repeat int32 falsey `
-`
-// a // b
-// " ++ [27880; 37322]%N ++ runes_of_ascii "
-, @leftPad( )
-x
-    @calculatedFrom(
-    ""// no comment"" )`// not a comment`
-,uint16 rootA , @lengthOf( a1// `tick` ""quote"" 'q'
-) char calculatedFrom , @tag( /// triple
-3 ) zchar[ 65535 ]	body ,}
-packet Logon // `tick` ""quote"" 'q'
-{ @leftPad (/// triple
-)@tag( 7 )
-char
-u128 `say ""hi""` ,
-@tag( 10 ) char[42  ]
-    roots , } root // " ++ [27880; 37322]%N ++ runes_of_ascii "
-packet	i64_ {
-    repeat
-    _x { repeat
-    // @lengthOf(
-    MetaDataX o //x
-, } , u128 { asx { u8 a1  ,
-repeat	As, // a // b
-}	,} ,
-    int16 Foo ,
-    u64
-asx `
-` , u8x @lengthOf( crc ) //	t
-, @calculatedFrom(
-    // `tick` ""quote"" 'q'
-    ""CRC32"" ) @lengthOf(body	) @tag( 7 ) falsey
-//x
-// a // b
-body
-`{ , }` ,	MetaDataX { trueish
-MetaDataX`tab	here` , char[ 3 ] i8i8
-@calculatedFrom(""" ++ [128512]%N ++ runes_of_ascii """  )
-`" ++ [233]%N ++ runes_of_ascii "`, },
-}options { _x
-=false
-    _x
-    =// c
-char[
-    0123456789 ]	repeatCount
-=
-    ' '_x = ""packet"";
-}
-
-")).
-Eval vm_compute in ("<<<M718>>>" ++ check (runes_of_ascii "//
-root packet  Foo{ char[]//
-leftPad // trailing space 
-,}options { } root
-packet i64_ { @lengthOf( x_y_z ) @calculatedFrom( ""abc"" )  @lengthOf( leftPad )
-repeat body	zchar `it's`  , char[]
-    metadata @lengthOf( MetaDataX
-//	t
-/// triple
-) `doc`
-    , repeat
-Foo Header , /// triple
-}
-")).
-Eval vm_compute in ("<<<M750>>>" ++ check (runes_of_ascii "packet float { @leftPad (' '
-)
-@calculatedFrom(// `tick` ""quote"" 'q'
-""a\""b"")@calculatedFrom( ""packet""
-) u32 msg_type
-//
-// a // b
-`" ++ [233]%N ++ runes_of_ascii "`	,
-@tag( 00 ) @rightPad (' ' )
-    repeat chars
-metadata// " ++ [128512]%N ++ runes_of_ascii " emoji
-,@rightPad ('0'	) tag string_	, repeat f64 int `u8 x,`  , }
-// c
-")).
-Eval vm_compute in ("<<<M782>>>" ++ check (runes_of_ascii "// " ++ [27880; 37322]%N ++ runes_of_ascii "
-options  { i8i8
-    //	t
-    = 007 ; Logon =	3
-; }	packet u128 {BodyLength{ char[ //x
-7
-] int, u16 _x@lengthOf( // packet A { u8 x, }
-u)	, i8 rootA
-    `tab	here`
-,
-    stringy MetaDataX`u8 x,` , } , @tag(007 ) f32a @calculatedFrom( """ ++ [28040; 24687]%N ++ runes_of_ascii """ )
-    `it's`
-,
-// c
-// a // b
-@calculatedFrom( ""x y""
-    )char[007 ] string_ //x
-@calculatedFrom( """ ++ [128512]%N ++ runes_of_ascii """ )
-    , // c
-@calculatedFrom( ""// no comment""
-) @calculatedFrom( ""a	b"" )  f64
-As , // `tick` ""quote"" 'q'
-zchar[7]x `
-` ,
-    /// triple
-    u16
-o, repeat float32 roots `{ , }`
-    ,
-@leftPad (
-)// c
-repeatCount
-{ float64
-u8x `a\`
-// @lengthOf(
-// " ++ [27880; 37322]%N ++ runes_of_ascii "
-,rootA@lengthOf( //	t
-chars ) ,
-    match u128  as
-roots{
-// a // b
-//
-[
-""" ++ [128512]%N ++ runes_of_ascii """ ] : msg_type// c
-, ""\n"" :
-    u8x
-00 :
-crc
-    //x
-    } , },
-//x
-/// triple
-u16 lengthOf @calculatedFrom( // c
-""" ++ [233]%N ++ runes_of_ascii "t" ++ [233]%N ++ runes_of_ascii """  ),	}MetaData
-repeatCount{ zchar[ 0123456789
-] Logon , char[ 42	]  int	,}
-    options {}
-options // " ++ [128512]%N ++ runes_of_ascii " emoji
-{
-repeatCount = ""1""
-Z9_ = 255  string_ = ' '
-;  trueish = 3 ; crc =
-""packet""
-    ;}
-")).
-Eval vm_compute in ("<<<M814>>>" ++ check (runes_of_ascii "
-")).
-Eval vm_compute in ("<<<M846>>>" ++ check (runes_of_ascii "options{ Header = ' ' } root
-packet lengthOf{ uint8 chars , @leftPad (  '\x00' ) repeat
-    u128 {match	Header as	msg_type{ 007	:roots  , }
-// c
-//	t
-, A
-o ,
-match Header as
-options1 { 00 : float,""1"": int , """ ++ [128512]%N ++ runes_of_ascii """
-: T , [
-    ""a\\""
-// " ++ [128512]%N ++ runes_of_ascii " emoji
-// packet A { u8 x, }
-,""// no comment""
-// a // b
-// packet A { u8 x, }
-] //	t
-: Foo	0123456789	:
-    matchKey , } ,repeat
-    o ,
-}, } packet x_y_z { repeat stringy A  , @tag(  42 ) char[
-    007 ]  Logon ,@leftPad ('\x00'
-    )  zchar[
-007 ]MetaDataX
-, }")).
-Eval vm_compute in ("<<<T846>>>" ++ terms [mkTok 1 "options" 1 0 false; mkTok 2 "{" 1 7 false; mkTok 42 "Header" 1 9 false; mkTok 4 "=" 1 16 false; mkTok 33 "' '" 1 18 false; mkTok 3 "}" 1 22 false; mkTok 34 "root" 1 24 false; mkTok 35 "packet" 2 0 false; mkTok 42 "lengthOf" 2 7 false; mkTok 2 "{" 2 15 false; mkTok 20 "uint8" 2 17 false; mkTok 42 "chars" 2 23 false; mkTok 40 "," 2 29 false; mkTok 32 "@leftPad" 2 31 false; mkTok 8 "(" 2 40 false; mkTok 33 "'\x00'" 2 43 false; mkTok 6 ")" 2 50 false; mkTok 36 "repeat" 2 52 false; mkTok 42 "u128" 3 4 false; mkTok 2 "{" 3 9 false; mkTok 38 "match" 3 10 false; mkTok 42 "Header" 3 16 false; mkTok 17 "as" 3 23 false; mkTok 42 "msg_type" 3 26 false; mkTok 2 "{" 3 34 false; mkTok 30 "007" 3 36 false; mkTok 39 ":" 3 40 false; mkTok 42 "roots" 3 41 false; mkTok 40 "," 3 48 false; mkTok 3 "}" 3 50 false; mkTok 44 "// c" 4 0 true; mkTok 44 (string_of_bytes [47; 47; 9; 116]%N) 5 0 true; mkTok 40 "," 6 0 false; mkTok 42 "A" 6 2 false; mkTok 42 "o" 7 0 false; mkTok 40 "," 7 2 false; mkTok 38 "match" 8 0 false; mkTok 42 "Header" 8 6 false; mkTok 17 "as" 8 13 false; mkTok 42 "options1" 9 0 false; mkTok 2 "{" 9 9 false; mkTok 30 "00" 9 11 false; mkTok 39 ":" 9 14 false; mkTok 42 "float" 9 16 false; mkTok 40 "," 9 21 false; mkTok 31 """1""" 9 22 false; mkTok 39 ":" 9 25 false; mkTok 42 "int" 9 27 false; mkTok 40 "," 9 31 false; mkTok 31 (string_of_bytes [34; 240; 159; 152; 128; 34]%N) 9 33 false; mkTok 39 ":" 10 0 false; mkTok 42 "T" 10 2 false; mkTok 40 "," 10 4 false; mkTok 18 "[" 10 6 false; mkTok 31 """a\\""" 11 4 false; mkTok 44 (string_of_bytes [47; 47; 32; 240; 159; 152; 128; 32; 101; 109; 111; 106; 105]%N) 12 0 true; mkTok 44 "// packet A { u8 x, }" 13 0 true; mkTok 40 "," 14 0 false; mkTok 31 """// no comment""" 14 1 false; mkTok 44 "// a // b" 15 0 true; mkTok 44 "// packet A { u8 x, }" 16 0 true; mkTok 13 "]" 17 0 false; mkTok 44 (string_of_bytes [47; 47; 9; 116]%N) 17 2 true; mkTok 39 ":" 18 0 false; mkTok 42 "Foo" 18 2 false; mkTok 30 "0123456789" 18 6 false; mkTok 39 ":" 18 17 false; mkTok 42 "matchKey" 19 4 false; mkTok 40 "," 19 13 false; mkTok 3 "}" 19 15 false; mkTok 40 "," 19 17 false; mkTok 36 "repeat" 19 18 false; mkTok 42 "o" 20 4 false; mkTok 40 "," 20 6 false; mkTok 3 "}" 21 0 false; mkTok 40 "," 21 1 false; mkTok 3 "}" 21 3 false; mkTok 35 "packet" 21 5 false; mkTok 42 "x_y_z" 21 12 false; mkTok 2 "{" 21 18 false; mkTok 36 "repeat" 21 20 false; mkTok 42 "stringy" 21 27 false; mkTok 42 "A" 21 35 false; mkTok 40 "," 21 38 false; mkTok 9 "@tag(" 21 40 false; mkTok 30 "42" 21 47 false; mkTok 6 ")" 21 50 false; mkTok 12 "char[" 21 52 false; mkTok 30 "007" 22 4 false; mkTok 13 "]" 22 8 false; mkTok 42 "Logon" 22 11 false; mkTok 40 "," 22 17 false; mkTok 32 "@leftPad" 22 18 false; mkTok 8 "(" 22 27 false; mkTok 33 "'\x00'" 22 28 false; mkTok 6 ")" 23 4 false; mkTok 14 "zchar[" 23 7 false; mkTok 30 "007" 24 0 false; mkTok 13 "]" 24 4 false; mkTok 42 "MetaDataX" 24 5 false; mkTok 40 "," 25 0 false; mkTok 3 "}" 25 2 false; mkTok 0 "<EOF>" 25 3 false] (mkPacket (mkPtok 1 "options" 1 0 0) (Some (mkPtok 3 "}" 25 2 101)) [(DOption (mkOptionDef (mkSpan (mkPtok 1 "options" 1 0 0) (mkPtok 3 "}" 1 22 5)) (mkPtok 1 "options" 1 0 0) (mkPtok 2 "{" 1 7 1) [(mkOptionDecl (mkSpan (mkPtok 42 "Header" 1 9 2) (mkPtok 33 "' '" 1 18 4)) (mkPtok 42 "Header" 1 9 2) (mkPtok 4 "=" 1 16 3) (VPaddingChar (mkSpan (mkPtok 33 "' '" 1 18 4) (mkPtok 33 "' '" 1 18 4)) (mkPtok 33 "' '" 1 18 4)) None)] (mkPtok 3 "}" 1 22 5))); (DPacket (mkPacketDef (mkSpan (mkPtok 34 "root" 1 24 6) (mkPtok 3 "}" 21 3 76)) (Some (mkPtok 34 "root" 1 24 6)) (mkPtok 35 "packet" 2 0 7) (mkPtok 42 "lengthOf" 2 7 8) (mkPtok 2 "{" 2 15 9) [(mkFieldWithAttr (mkSpan (mkPtok 20 "uint8" 2 17 10) (mkPtok 40 "," 2 29 12)) [] (MetaField (mkSpan (mkPtok 20 "uint8" 2 17 10) (mkPtok 40 "," 2 29 12)) None (mkMetaDecl (mkSpan (mkPtok 20 "uint8" 2 17 10) (mkPtok 40 "," 2 29 12)) (TyBasic (mkSpan (mkPtok 20 "uint8" 2 17 10) (mkPtok 20 "uint8" 2 17 10)) (mkBasicType (mkSpan (mkPtok 20 "uint8" 2 17 10) (mkPtok 20 "uint8" 2 17 10)) (mkPtok 20 "uint8" 2 17 10))) (mkPtok 42 "chars" 2 23 11) None (mkPtok 40 "," 2 29 12)))); (mkFieldWithAttr (mkSpan (mkPtok 32 "@leftPad" 2 31 13) (mkPtok 40 "," 21 1 75)) [(FAPadding (mkSpan (mkPtok 32 "@leftPad" 2 31 13) (mkPtok 6 ")" 2 50 16)) (mkPaddingAttr (mkSpan (mkPtok 32 "@leftPad" 2 31 13) (mkPtok 6 ")" 2 50 16)) (mkPtok 32 "@leftPad" 2 31 13) (mkPtok 8 "(" 2 40 14) (Some (mkPtok 33 "'\x00'" 2 43 15)) (mkPtok 6 ")" 2 50 16)))] (InerObjectField (mkSpan (mkPtok 36 "repeat" 2 52 17) (mkPtok 40 "," 21 1 75)) (Some (mkPtok 36 "repeat" 2 52 17)) (InerObjectDecl (mkSpan (mkPtok 42 "u128" 3 4 18) (mkPtok 3 "}" 21 0 74)) (mkPtok 42 "u128" 3 4 18) (mkPtok 2 "{" 3 9 19) [(MatchField (mkSpan (mkPtok 38 "match" 3 10 20) (mkPtok 40 "," 6 0 32)) (mkMatchFieldDecl (mkSpan (mkPtok 38 "match" 3 10 20) (mkPtok 3 "}" 3 50 29)) (mkPtok 38 "match" 3 10 20) (mkPtok 42 "Header" 3 16 21) (mkPtok 17 "as" 3 23 22) (mkPtok 42 "msg_type" 3 26 23) (mkPtok 2 "{" 3 34 24) [(mkMatchPair (mkSpan (mkPtok 30 "007" 3 36 25) (mkPtok 40 "," 3 48 28)) (MKDigits (mkPtok 30 "007" 3 36 25)) (mkPtok 39 ":" 3 40 26) (mkPtok 42 "roots" 3 41 27) (Some (mkPtok 40 "," 3 48 28)))] (mkPtok 3 "}" 3 50 29)) (mkPtok 40 "," 6 0 32)); (ObjectField (mkSpan (mkPtok 42 "A" 6 2 33) (mkPtok 40 "," 7 2 35)) None (mkPtok 42 "A" 6 2 33) (Some (mkPtok 42 "o" 7 0 34)) None (mkPtok 40 "," 7 2 35)); (MatchField (mkSpan (mkPtok 38 "match" 8 0 36) (mkPtok 40 "," 19 17 70)) (mkMatchFieldDecl (mkSpan (mkPtok 38 "match" 8 0 36) (mkPtok 3 "}" 19 15 69)) (mkPtok 38 "match" 8 0 36) (mkPtok 42 "Header" 8 6 37) (mkPtok 17 "as" 8 13 38) (mkPtok 42 "options1" 9 0 39) (mkPtok 2 "{" 9 9 40) [(mkMatchPair (mkSpan (mkPtok 30 "00" 9 11 41) (mkPtok 40 "," 9 21 44)) (MKDigits (mkPtok 30 "00" 9 11 41)) (mkPtok 39 ":" 9 14 42) (mkPtok 42 "float" 9 16 43) (Some (mkPtok 40 "," 9 21 44))); (mkMatchPair (mkSpan (mkPtok 31 """1""" 9 22 45) (mkPtok 40 "," 9 31 48)) (MKString (mkPtok 31 """1""" 9 22 45)) (mkPtok 39 ":" 9 25 46) (mkPtok 42 "int" 9 27 47) (Some (mkPtok 40 "," 9 31 48))); (mkMatchPair (mkSpan (mkPtok 31 (string_of_bytes [34; 240; 159; 152; 128; 34]%N) 9 33 49) (mkPtok 40 "," 10 4 52)) (MKString (mkPtok 31 (string_of_bytes [34; 240; 159; 152; 128; 34]%N) 9 33 49)) (mkPtok 39 ":" 10 0 50) (mkPtok 42 "T" 10 2 51) (Some (mkPtok 40 "," 10 4 52))); (mkMatchPair (mkSpan (mkPtok 18 "[" 10 6 53) (mkPtok 42 "Foo" 18 2 64)) (MKList (mkKeyList (mkSpan (mkPtok 18 "[" 10 6 53) (mkPtok 13 "]" 17 0 61)) (mkPtok 18 "[" 10 6 53) (mkPtok 31 """a\\""" 11 4 54) [((mkPtok 40 "," 14 0 57), (mkPtok 31 """// no comment""" 14 1 58))] (mkPtok 13 "]" 17 0 61))) (mkPtok 39 ":" 18 0 63) (mkPtok 42 "Foo" 18 2 64) None); (mkMatchPair (mkSpan (mkPtok 30 "0123456789" 18 6 65) (mkPtok 40 "," 19 13 68)) (MKDigits (mkPtok 30 "0123456789" 18 6 65)) (mkPtok 39 ":" 18 17 66) (mkPtok 42 "matchKey" 19 4 67) (Some (mkPtok 40 "," 19 13 68)))] (mkPtok 3 "}" 19 15 69)) (mkPtok 40 "," 19 17 70)); (ObjectField (mkSpan (mkPtok 36 "repeat" 19 18 71) (mkPtok 40 "," 20 6 73)) (Some (mkPtok 36 "repeat" 19 18 71)) (mkPtok 42 "o" 20 4 72) None None (mkPtok 40 "," 20 6 73))] (mkPtok 3 "}" 21 0 74)) (mkPtok 40 "," 21 1 75)))] (mkPtok 3 "}" 21 3 76))); (DPacket (mkPacketDef (mkSpan (mkPtok 35 "packet" 21 5 77) (mkPtok 3 "}" 25 2 101)) None (mkPtok 35 "packet" 21 5 77) (mkPtok 42 "x_y_z" 21 12 78) (mkPtok 2 "{" 21 18 79) [(mkFieldWithAttr (mkSpan (mkPtok 36 "repeat" 21 20 80) (mkPtok 40 "," 21 38 83)) [] (ObjectField (mkSpan (mkPtok 36 "repeat" 21 20 80) (mkPtok 40 "," 21 38 83)) (Some (mkPtok 36 "repeat" 21 20 80)) (mkPtok 42 "stringy" 21 27 81) (Some (mkPtok 42 "A" 21 35 82)) None (mkPtok 40 "," 21 38 83))); (mkFieldWithAttr (mkSpan (mkPtok 9 "@tag(" 21 40 84) (mkPtok 40 "," 22 17 91)) [(FATag (mkSpan (mkPtok 9 "@tag(" 21 40 84) (mkPtok 6 ")" 21 50 86)) (mkTagAttr (mkSpan (mkPtok 9 "@tag(" 21 40 84) (mkPtok 6 ")" 21 50 86)) (mkPtok 9 "@tag(" 21 40 84) (mkPtok 30 "42" 21 47 85) (mkPtok 6 ")" 21 50 86)))] (MetaField (mkSpan (mkPtok 12 "char[" 21 52 87) (mkPtok 40 "," 22 17 91)) None (mkMetaDecl (mkSpan (mkPtok 12 "char[" 21 52 87) (mkPtok 40 "," 22 17 91)) (TyFixed (mkSpan (mkPtok 12 "char[" 21 52 87) (mkPtok 13 "]" 22 8 89)) (mkFixedString (mkSpan (mkPtok 12 "char[" 21 52 87) (mkPtok 13 "]" 22 8 89)) (mkPtok 12 "char[" 21 52 87) (mkPtok 30 "007" 22 4 88) (mkPtok 13 "]" 22 8 89))) (mkPtok 42 "Logon" 22 11 90) None (mkPtok 40 "," 22 17 91)))); (mkFieldWithAttr (mkSpan (mkPtok 32 "@leftPad" 22 18 92) (mkPtok 40 "," 25 0 100)) [(FAPadding (mkSpan (mkPtok 32 "@leftPad" 22 18 92) (mkPtok 6 ")" 23 4 95)) (mkPaddingAttr (mkSpan (mkPtok 32 "@leftPad" 22 18 92) (mkPtok 6 ")" 23 4 95)) (mkPtok 32 "@leftPad" 22 18 92) (mkPtok 8 "(" 22 27 93) (Some (mkPtok 33 "'\x00'" 22 28 94)) (mkPtok 6 ")" 23 4 95)))] (MetaField (mkSpan (mkPtok 14 "zchar[" 23 7 96) (mkPtok 40 "," 25 0 100)) None (mkMetaDecl (mkSpan (mkPtok 14 "zchar[" 23 7 96) (mkPtok 40 "," 25 0 100)) (TyFixed (mkSpan (mkPtok 14 "zchar[" 23 7 96) (mkPtok 13 "]" 24 4 98)) (mkFixedString (mkSpan (mkPtok 14 "zchar[" 23 7 96) (mkPtok 13 "]" 24 4 98)) (mkPtok 14 "zchar[" 23 7 96) (mkPtok 30 "007" 24 0 97) (mkPtok 13 "]" 24 4 98))) (mkPtok 42 "MetaDataX" 24 5 99) None (mkPtok 40 "," 25 0 100))))] (mkPtok 3 "}" 25 2 101)))])).
-Eval vm_compute in ("<<<M878>>>" ++ check (runes_of_ascii "options
-    { float	=
-// " ++ [128512]%N ++ runes_of_ascii " emoji
-// @lengthOf(
-string }
-")).
-Eval vm_compute in ("<<<M910>>>" ++ check (runes_of_ascii "options {float = ' ' Foo =
-""a	b"" A = // packet A { u8 x, }
-i16
-    ; string_ =""it's""} // c
-MetaData float{ charz falsey // " ++ [27880; 37322]%N ++ runes_of_ascii "
-, char[]chars
-, float32
-    Pad , }MetaData repeatCount
-    {
-    char[	65535] // `tick` ""quote"" 'q'
-Header `" ++ [233]%N ++ runes_of_ascii "` // trailing space 
-,
-    float32 Pad
-, u64 len
-    ,
-    // `tick` ""quote"" 'q'
-    lengthOf a1 `{ , }`
-    //	t
-    ,
-    //x
-    }
-options
-    {  leftPad = zchar[ 00] ; charz
-= 10
-    ;options1
-    =
-    // trailing space 
-    string len =zchar[255 ] ; Logon = ""\n""
-    ; }
-")).
-Eval vm_compute in ("<<<M942>>>" ++ check (runes_of_ascii "options	{ Foo =1	i64_ =char[]
-    /// triple
-    ; string_//
-=
-uint16 ;  chars = char[] ;//	t
-}root
-packet msg_type{ body, @calculatedFrom(// " ++ [27880; 37322]%N ++ runes_of_ascii "
-""packet"" ) repeat zchar[ 4294967296 ]	u128
-,
-}")).
-Eval vm_compute in ("<<<M974>>>" ++ check (runes_of_ascii "options { f32a
-=
-007
-    ;body =""" ++ [128512]%N ++ runes_of_ascii """	i64_ // " ++ [27880; 37322]%N ++ runes_of_ascii "
-=zchar[ 0123456789
-]
-}
-options {
-    i8i8
-= // c
-""abc"" ; body = true T
-=
-float32} root packet MetaDataX
-    //	t
-    {	@rightPad
-    ( '\x00' )char[] // " ++ [128512]%N ++ runes_of_ascii " emoji
-matchKey ,
-    @calculatedFrom(""CRC32""
-) // c
-match
-int as
-options1 { """ ++ [233]%N ++ runes_of_ascii "t" ++ [233]%N ++ runes_of_ascii """ : calculatedFrom , } ,@tag(  7) char[
-    65535 ] packetx `" ++ [233]%N ++ runes_of_ascii "` , @calculatedFrom(
-    """ ++ [28040; 24687]%N ++ runes_of_ascii """) string
-    A  ,  repeat T{
-repeat tag
-`// not a comment`
-, } ,
-    // `tick` ""quote"" 'q'
-    @rightPad	( '0' ) @calculatedFrom( ""{,}"") Header
-    {
-int8 A
-    `u8 x,`
-    , chars  { zchar
-{ metadata//	t
-metadata ,} ,zchar[ 00
-] Foo // " ++ [27880; 37322]%N ++ runes_of_ascii "
-, repeat lengthOf
-{ x	`line1
-line2` ,
-    repeat
-    // trailing space 
-    zchar[ 1
-    //x
-    ]
-trueish ,},
-match uint8x as As { 1 :u128
-, ""a\""b""	:i64_ 0 : string_,} ,
-} , }//
-,//	t
-repeat char float `say ""hi""`  ,
-// a // b
-//
-repeat
-    char[]x `say ""hi""`
-    , repeat char[]
-    //	t
-    A `{ , }` , Header @lengthOf( lengthOf ) , } root packet
-float { string_/// triple
-repeatCount ,
-repeat //x
-rootA x  ,  }
-// " ++ [128512]%N ++ runes_of_ascii " emoji
-")).
-Eval vm_compute in ("<<<M1006>>>" ++ check (runes_of_ascii "
-MetaData
-A
-//
-// " ++ [128512]%N ++ runes_of_ascii " emoji
-{ u8x
-A /// triple
-``
-, int16 roots `// not a comment`
-    , u128 u,
-int options1 `" ++ [28040; 24687; 31867; 22411]%N ++ runes_of_ascii "`,  i16 repeatCount
-,i8	roots, // `tick` ""quote"" 'q'
-} root
-packet matchKey{  lengthOf/// triple
-{ i64_@lengthOf( msg_type )
-, } ,
-    }
-options
-    {x=
-    char[] } // trailing space 
-packet
-As{ i64_`crlf
-line` , // c
-rootA Z9_	,string Pad @calculatedFrom( ""// no comment""
-) `say ""hi""`
-,
-@rightPad
-(
-    '\x00' )
-@calculatedFrom(
-    ""{,}""
-)// `tick` ""quote"" 'q'
-@calculatedFrom(
-    ""CRC32""	)falsey `doc` , match Logon as tag { 3 : f32a ,
-    ""abc"":  o , 255 :	A""abc"": leftPad, }  , @calculatedFrom(""" ++ [233]%N ++ runes_of_ascii "t" ++ [233]%N ++ runes_of_ascii """)repeat u32
-_x `{ , }` , repeat stringy`a\`
-,
-// @lengthOf(
-// " ++ [128512]%N ++ runes_of_ascii " emoji
-len // packet A { u8 x, }
-@lengthOf(Header
-)
-//
-// " ++ [27880; 37322]%N ++ runes_of_ascii "
-`" ++ [28040; 24687; 31867; 22411]%N ++ runes_of_ascii "`
-,
-    i32 len @lengthOf( repeatCount ) `line1
-line2`,
-    @tag(
-//x
-// a // b
-42//x
-)	BodyLength	,	}")).
-Eval vm_compute in ("<<<M1038>>>" ++ check (runes_of_ascii "packet metadata
-    {}
-    packet charz // `tick` ""quote"" 'q'
-{
-    repeat
-string len ,string_@lengthOf(
-x_y_z )
-`" ++ [233]%N ++ runes_of_ascii "`
-, repeat asx,
-    // @lengthOf(
-    } MetaData
-f32a
-    { }")).
-Eval vm_compute in ("<<<M1070>>>" ++ check (@nil rune)).
-Eval vm_compute in ("<<<T1070>>>" ++ terms [mkTok 0 "<EOF>" 1 0 false] (mkPacket (mkPtok 0 "<EOF>" 1 0 0) None [])).
-Eval vm_compute in ("<<<M1102>>>" ++ check (runes_of_ascii "//
-packet T
-    { @lengthOf( stringy )
-f64 packetx `a\` ,packetx asx// `tick` ""quote"" 'q'
-,	string matchKey `say ""hi""` , int8 roots ,u32 asx @calculatedFrom(""it's"")
-, @calculatedFrom( ""// no comment""// " ++ [128512]%N ++ runes_of_ascii " emoji
-)
-// " ++ [27880; 37322]%N ++ runes_of_ascii "
-// @lengthOf(
-match i64_ as
-roots
-{ ""// no comment""// trailing space 
-:crc , }	,
-@lengthOf(
-leftPad
-) string u128 `doc`, @lengthOf( asx ) match
-    asx
-as f32a { [10,007 ] : asx , [ 10 , ""1""
-] :
-BodyLength, 1: Logon, }
-    , @calculatedFrom(
-    ""// no comment""
-)
-    @lengthOf(
-    zchar )zchar[ 0123456789] // trailing space 
-T
-    `" ++ [28040; 24687; 31867; 22411]%N ++ runes_of_ascii "`  , char[
-10 ]matchKey``,
-    } MetaData options1
-{ i64
-repeatCount`a\`
-,	f32 calculatedFrom `// not a comment` , char[1]	T , } packet A { // " ++ [128512]%N ++ runes_of_ascii " emoji
-char[ 1 ]u `" ++ [28040; 24687; 31867; 22411]%N ++ runes_of_ascii "` , }
-")).
-Eval vm_compute in ("<<<M1134>>>" ++ check (runes_of_ascii "packet matchKey // @lengthOf(
-{ // packet A { u8 x, }
-@leftPad( '0' ) int16 options1,}
-")).
-Eval vm_compute in ("<<<M1166>>>" ++ check (runes_of_ascii "root packet Pad {
-float64
-// a // b
-//x
-Pad@lengthOf(repeatCount)
-,@lengthOf( _x ) BodyLength o
-,
-}
-")).
-Eval vm_compute in ("<<<M1198>>>" ++ check (runes_of_ascii "packet
-Pad { @leftPad
-() @lengthOf(float
-) @calculatedFrom( ""// no comment"" )
-    repeat calculatedFrom{ uint16
-i64_ @lengthOf( msg_type ) , BodyLength	trueish,_x Logon ,
-} ,
-} //	t")).
-Eval vm_compute in ("<<<M1230>>>" ++ check (runes_of_ascii "options {
-    // " ++ [27880; 37322]%N ++ runes_of_ascii "
-    len =
-// @lengthOf(
-// c
-3 }
-")).
-Eval vm_compute in ("<<<M1262>>>" ++ check (runes_of_ascii "MetaData Foo// " ++ [128512]%N ++ runes_of_ascii " emoji
-{  }")).
-Eval vm_compute in ("<<<M1294>>>" ++ check (runes_of_ascii "options { u8x
-    = // @lengthOf(
-""it's"" x_y_z = //
-42 o
-    = true ;MetaDataX
-='0' ;	}
-MetaData	calculatedFrom { i64 trueish , // " ++ [27880; 37322]%N ++ runes_of_ascii "
-u16 stringy
-    `two words`,u8x
-    repeatCount,int8 matchKey
-    ,} packet MetaDataX {@calculatedFrom( ""\" ++ [233]%N ++ runes_of_ascii """ ) uint8x
-//x
-/// triple
-@lengthOf(
-    /// triple
-    uint8x) ,
-    //	t
-    repeat zchar[ 007 ]	Foo`" ++ [233]%N ++ runes_of_ascii "` , @lengthOf(
-/// triple
-// a // b
-metadata  ) @tag(1 )
-match metadata as BodyLength { 00 :
-tag ,
-""a	b"" :	Packet
-, [ ""abc""]:	pack },
-//	t
-// " ++ [27880; 37322]%N ++ runes_of_ascii "
-}  root packet
-packetx
-    { @leftPad( '\x00'
-)f32a
-@lengthOf( options1 ) , }
-packet MetaDataX
-{ }
-")).
-Eval vm_compute in ("<<<T1294>>>" ++ terms [mkTok 1 "options" 1 0 false; mkTok 2 "{" 1 8 false; mkTok 42 "u8x" 1 10 false; mkTok 4 "=" 2 4 false; mkTok 44 "// @lengthOf(" 2 6 true; mkTok 31 """it's""" 3 0 false; mkTok 42 "x_y_z" 3 7 false; mkTok 4 "=" 3 13 false; mkTok 44 "//" 3 15 true; mkTok 30 "42" 4 0 false; mkTok 42 "o" 4 3 false; mkTok 4 "=" 5 4 false; mkTok 10 "true" 5 6 false; mkTok 41 ";" 5 11 false; mkTok 42 "MetaDataX" 5 12 false; mkTok 4 "=" 6 0 false; mkTok 33 "'0'" 6 1 false; mkTok 41 ";" 6 5 false; mkTok 3 "}" 6 7 false; mkTok 37 "MetaData" 7 0 false; mkTok 42 "calculatedFrom" 7 9 false; mkTok 2 "{" 7 24 false; mkTok 27 "i64" 7 26 false; mkTok 42 "trueish" 7 30 false; mkTok 40 "," 7 38 false; mkTok 44 (string_of_bytes [47; 47; 32; 230; 179; 168; 233; 135; 138]%N) 7 40 true; mkTok 21 "u16" 8 0 false; mkTok 42 "stringy" 8 4 false; mkTok 43 "`two words`" 9 4 false; mkTok 40 "," 9 15 false; mkTok 42 "u8x" 9 16 false; mkTok 42 "repeatCount" 10 4 false; mkTok 40 "," 10 15 false; mkTok 24 "int8" 10 16 false; mkTok 42 "matchKey" 10 21 false; mkTok 40 "," 11 4 false; mkTok 3 "}" 11 5 false; mkTok 35 "packet" 11 7 false; mkTok 42 "MetaDataX" 11 14 false; mkTok 2 "{" 11 24 false; mkTok 5 "@calculatedFrom(" 11 25 false; mkTok 31 (string_of_bytes [34; 92; 195; 169; 34]%N) 11 42 false; mkTok 6 ")" 11 47 false; mkTok 42 "uint8x" 11 49 false; mkTok 44 "//x" 12 0 true; mkTok 44 "/// triple" 13 0 true; mkTok 7 "@lengthOf(" 14 0 false; mkTok 44 "/// triple" 15 4 true; mkTok 42 "uint8x" 16 4 false; mkTok 6 ")" 16 10 false; mkTok 40 "," 16 12 false; mkTok 44 (string_of_bytes [47; 47; 9; 116]%N) 17 4 true; mkTok 36 "repeat" 18 4 false; mkTok 14 "zchar[" 18 11 false; mkTok 30 "007" 18 18 false; mkTok 13 "]" 18 22 false; mkTok 42 "Foo" 18 24 false; mkTok 43 (string_of_bytes [96; 195; 169; 96]%N) 18 27 false; mkTok 40 "," 18 31 false; mkTok 7 "@lengthOf(" 18 33 false; mkTok 44 "/// triple" 19 0 true; mkTok 44 "// a // b" 20 0 true; mkTok 42 "metadata" 21 0 false; mkTok 6 ")" 21 10 false; mkTok 9 "@tag(" 21 12 false; mkTok 30 "1" 21 17 false; mkTok 6 ")" 21 19 false; mkTok 38 "match" 22 0 false; mkTok 42 "metadata" 22 6 false; mkTok 17 "as" 22 15 false; mkTok 42 "BodyLength" 22 18 false; mkTok 2 "{" 22 29 false; mkTok 30 "00" 22 31 false; mkTok 39 ":" 22 34 false; mkTok 42 "tag" 23 0 false; mkTok 40 "," 23 4 false; mkTok 31 (string_of_bytes [34; 97; 9; 98; 34]%N) 24 0 false; mkTok 39 ":" 24 6 false; mkTok 42 "Packet" 24 8 false; mkTok 40 "," 25 0 false; mkTok 18 "[" 25 2 false; mkTok 31 """abc""" 25 4 false; mkTok 13 "]" 25 9 false; mkTok 39 ":" 25 10 false; mkTok 42 "pack" 25 12 false; mkTok 3 "}" 25 17 false; mkTok 40 "," 25 18 false; mkTok 44 (string_of_bytes [47; 47; 9; 116]%N) 26 0 true; mkTok 44 (string_of_bytes [47; 47; 32; 230; 179; 168; 233; 135; 138]%N) 27 0 true; mkTok 3 "}" 28 0 false; mkTok 34 "root" 28 3 false; mkTok 35 "packet" 28 8 false; mkTok 42 "packetx" 29 0 false; mkTok 2 "{" 30 4 false; mkTok 32 "@leftPad" 30 6 false; mkTok 8 "(" 30 14 false; mkTok 33 "'\x00'" 30 16 false; mkTok 6 ")" 31 0 false; mkTok 42 "f32a" 31 1 false; mkTok 7 "@lengthOf(" 32 0 false; mkTok 42 "options1" 32 11 false; mkTok 6 ")" 32 20 false; mkTok 40 "," 32 22 false; mkTok 3 "}" 32 24 false; mkTok 35 "packet" 33 0 false; mkTok 42 "MetaDataX" 33 7 false; mkTok 2 "{" 34 0 false; mkTok 3 "}" 34 2 false; mkTok 0 "<EOF>" 35 0 false] (mkPacket (mkPtok 1 "options" 1 0 0) (Some (mkPtok 3 "}" 34 2 107)) [(DOption (mkOptionDef (mkSpan (mkPtok 1 "options" 1 0 0) (mkPtok 3 "}" 6 7 18)) (mkPtok 1 "options" 1 0 0) (mkPtok 2 "{" 1 8 1) [(mkOptionDecl (mkSpan (mkPtok 42 "u8x" 1 10 2) (mkPtok 31 """it's""" 3 0 5)) (mkPtok 42 "u8x" 1 10 2) (mkPtok 4 "=" 2 4 3) (VString (mkSpan (mkPtok 31 """it's""" 3 0 5) (mkPtok 31 """it's""" 3 0 5)) (mkPtok 31 """it's""" 3 0 5)) None); (mkOptionDecl (mkSpan (mkPtok 42 "x_y_z" 3 7 6) (mkPtok 30 "42" 4 0 9)) (mkPtok 42 "x_y_z" 3 7 6) (mkPtok 4 "=" 3 13 7) (VDigits (mkSpan (mkPtok 30 "42" 4 0 9) (mkPtok 30 "42" 4 0 9)) (mkPtok 30 "42" 4 0 9)) None); (mkOptionDecl (mkSpan (mkPtok 42 "o" 4 3 10) (mkPtok 41 ";" 5 11 13)) (mkPtok 42 "o" 4 3 10) (mkPtok 4 "=" 5 4 11) (VTrue (mkSpan (mkPtok 10 "true" 5 6 12) (mkPtok 10 "true" 5 6 12)) (mkPtok 10 "true" 5 6 12)) (Some (mkPtok 41 ";" 5 11 13))); (mkOptionDecl (mkSpan (mkPtok 42 "MetaDataX" 5 12 14) (mkPtok 41 ";" 6 5 17)) (mkPtok 42 "MetaDataX" 5 12 14) (mkPtok 4 "=" 6 0 15) (VPaddingChar (mkSpan (mkPtok 33 "'0'" 6 1 16) (mkPtok 33 "'0'" 6 1 16)) (mkPtok 33 "'0'" 6 1 16)) (Some (mkPtok 41 ";" 6 5 17)))] (mkPtok 3 "}" 6 7 18))); (DMeta (mkMetaDef (mkSpan (mkPtok 37 "MetaData" 7 0 19) (mkPtok 3 "}" 11 5 36)) (mkPtok 37 "MetaData" 7 0 19) (mkPtok 42 "calculatedFrom" 7 9 20) (mkPtok 2 "{" 7 24 21) [(MIDecl (mkMetaDecl (mkSpan (mkPtok 27 "i64" 7 26 22) (mkPtok 40 "," 7 38 24)) (TyBasic (mkSpan (mkPtok 27 "i64" 7 26 22) (mkPtok 27 "i64" 7 26 22)) (mkBasicType (mkSpan (mkPtok 27 "i64" 7 26 22) (mkPtok 27 "i64" 7 26 22)) (mkPtok 27 "i64" 7 26 22))) (mkPtok 42 "trueish" 7 30 23) None (mkPtok 40 "," 7 38 24))); (MIDecl (mkMetaDecl (mkSpan (mkPtok 21 "u16" 8 0 26) (mkPtok 40 "," 9 15 29)) (TyBasic (mkSpan (mkPtok 21 "u16" 8 0 26) (mkPtok 21 "u16" 8 0 26)) (mkBasicType (mkSpan (mkPtok 21 "u16" 8 0 26) (mkPtok 21 "u16" 8 0 26)) (mkPtok 21 "u16" 8 0 26))) (mkPtok 42 "stringy" 8 4 27) (Some (mkPtok 43 "`two words`" 9 4 28)) (mkPtok 40 "," 9 15 29))); (MIRef (mkRefMetaDecl (mkSpan (mkPtok 42 "u8x" 9 16 30) (mkPtok 40 "," 10 15 32)) (mkPtok 42 "u8x" 9 16 30) (mkPtok 42 "repeatCount" 10 4 31) None (mkPtok 40 "," 10 15 32))); (MIDecl (mkMetaDecl (mkSpan (mkPtok 24 "int8" 10 16 33) (mkPtok 40 "," 11 4 35)) (TyBasic (mkSpan (mkPtok 24 "int8" 10 16 33) (mkPtok 24 "int8" 10 16 33)) (mkBasicType (mkSpan (mkPtok 24 "int8" 10 16 33) (mkPtok 24 "int8" 10 16 33)) (mkPtok 24 "int8" 10 16 33))) (mkPtok 42 "matchKey" 10 21 34) None (mkPtok 40 "," 11 4 35)))] (mkPtok 3 "}" 11 5 36))); (DPacket (mkPacketDef (mkSpan (mkPtok 35 "packet" 11 7 37) (mkPtok 3 "}" 28 0 89)) None (mkPtok 35 "packet" 11 7 37) (mkPtok 42 "MetaDataX" 11 14 38) (mkPtok 2 "{" 11 24 39) [(mkFieldWithAttr (mkSpan (mkPtok 5 "@calculatedFrom(" 11 25 40) (mkPtok 40 "," 16 12 50)) [(FACalculatedFrom (mkSpan (mkPtok 5 "@calculatedFrom(" 11 25 40) (mkPtok 6 ")" 11 47 42)) (mkCalculatedFrom (mkSpan (mkPtok 5 "@calculatedFrom(" 11 25 40) (mkPtok 6 ")" 11 47 42)) (mkPtok 5 "@calculatedFrom(" 11 25 40) (mkPtok 31 (string_of_bytes [34; 92; 195; 169; 34]%N) 11 42 41) (mkPtok 6 ")" 11 47 42)))] (LengthField (mkSpan (mkPtok 42 "uint8x" 11 49 43) (mkPtok 40 "," 16 12 50)) (mkLengthFieldDecl (mkSpan (mkPtok 42 "uint8x" 11 49 43) (mkPtok 40 "," 16 12 50)) None (mkPtok 42 "uint8x" 11 49 43) (mkLengthOf (mkSpan (mkPtok 7 "@lengthOf(" 14 0 46) (mkPtok 6 ")" 16 10 49)) (mkPtok 7 "@lengthOf(" 14 0 46) (mkPtok 42 "uint8x" 16 4 48) (mkPtok 6 ")" 16 10 49)) None (mkPtok 40 "," 16 12 50)))); (mkFieldWithAttr (mkSpan (mkPtok 36 "repeat" 18 4 52) (mkPtok 40 "," 18 31 58)) [] (MetaField (mkSpan (mkPtok 36 "repeat" 18 4 52) (mkPtok 40 "," 18 31 58)) (Some (mkPtok 36 "repeat" 18 4 52)) (mkMetaDecl (mkSpan (mkPtok 14 "zchar[" 18 11 53) (mkPtok 40 "," 18 31 58)) (TyFixed (mkSpan (mkPtok 14 "zchar[" 18 11 53) (mkPtok 13 "]" 18 22 55)) (mkFixedString (mkSpan (mkPtok 14 "zchar[" 18 11 53) (mkPtok 13 "]" 18 22 55)) (mkPtok 14 "zchar[" 18 11 53) (mkPtok 30 "007" 18 18 54) (mkPtok 13 "]" 18 22 55))) (mkPtok 42 "Foo" 18 24 56) (Some (mkPtok 43 (string_of_bytes [96; 195; 169; 96]%N) 18 27 57)) (mkPtok 40 "," 18 31 58)))); (mkFieldWithAttr (mkSpan (mkPtok 7 "@lengthOf(" 18 33 59) (mkPtok 40 "," 25 18 86)) [(FALengthOf (mkSpan (mkPtok 7 "@lengthOf(" 18 33 59) (mkPtok 6 ")" 21 10 63)) (mkLengthOf (mkSpan (mkPtok 7 "@lengthOf(" 18 33 59) (mkPtok 6 ")" 21 10 63)) (mkPtok 7 "@lengthOf(" 18 33 59) (mkPtok 42 "metadata" 21 0 62) (mkPtok 6 ")" 21 10 63))); (FATag (mkSpan (mkPtok 9 "@tag(" 21 12 64) (mkPtok 6 ")" 21 19 66)) (mkTagAttr (mkSpan (mkPtok 9 "@tag(" 21 12 64) (mkPtok 6 ")" 21 19 66)) (mkPtok 9 "@tag(" 21 12 64) (mkPtok 30 "1" 21 17 65) (mkPtok 6 ")" 21 19 66)))] (MatchField (mkSpan (mkPtok 38 "match" 22 0 67) (mkPtok 40 "," 25 18 86)) (mkMatchFieldDecl (mkSpan (mkPtok 38 "match" 22 0 67) (mkPtok 3 "}" 25 17 85)) (mkPtok 38 "match" 22 0 67) (mkPtok 42 "metadata" 22 6 68) (mkPtok 17 "as" 22 15 69) (mkPtok 42 "BodyLength" 22 18 70) (mkPtok 2 "{" 22 29 71) [(mkMatchPair (mkSpan (mkPtok 30 "00" 22 31 72) (mkPtok 40 "," 23 4 75)) (MKDigits (mkPtok 30 "00" 22 31 72)) (mkPtok 39 ":" 22 34 73) (mkPtok 42 "tag" 23 0 74) (Some (mkPtok 40 "," 23 4 75))); (mkMatchPair (mkSpan (mkPtok 31 (string_of_bytes [34; 97; 9; 98; 34]%N) 24 0 76) (mkPtok 40 "," 25 0 79)) (MKString (mkPtok 31 (string_of_bytes [34; 97; 9; 98; 34]%N) 24 0 76)) (mkPtok 39 ":" 24 6 77) (mkPtok 42 "Packet" 24 8 78) (Some (mkPtok 40 "," 25 0 79))); (mkMatchPair (mkSpan (mkPtok 18 "[" 25 2 80) (mkPtok 42 "pack" 25 12 84)) (MKList (mkKeyList (mkSpan (mkPtok 18 "[" 25 2 80) (mkPtok 13 "]" 25 9 82)) (mkPtok 18 "[" 25 2 80) (mkPtok 31 """abc""" 25 4 81) [] (mkPtok 13 "]" 25 9 82))) (mkPtok 39 ":" 25 10 83) (mkPtok 42 "pack" 25 12 84) None)] (mkPtok 3 "}" 25 17 85)) (mkPtok 40 "," 25 18 86)))] (mkPtok 3 "}" 28 0 89))); (DPacket (mkPacketDef (mkSpan (mkPtok 34 "root" 28 3 90) (mkPtok 3 "}" 32 24 103)) (Some (mkPtok 34 "root" 28 3 90)) (mkPtok 35 "packet" 28 8 91) (mkPtok 42 "packetx" 29 0 92) (mkPtok 2 "{" 30 4 93) [(mkFieldWithAttr (mkSpan (mkPtok 32 "@leftPad" 30 6 94) (mkPtok 40 "," 32 22 102)) [(FAPadding (mkSpan (mkPtok 32 "@leftPad" 30 6 94) (mkPtok 6 ")" 31 0 97)) (mkPaddingAttr (mkSpan (mkPtok 32 "@leftPad" 30 6 94) (mkPtok 6 ")" 31 0 97)) (mkPtok 32 "@leftPad" 30 6 94) (mkPtok 8 "(" 30 14 95) (Some (mkPtok 33 "'\x00'" 30 16 96)) (mkPtok 6 ")" 31 0 97)))] (LengthField (mkSpan (mkPtok 42 "f32a" 31 1 98) (mkPtok 40 "," 32 22 102)) (mkLengthFieldDecl (mkSpan (mkPtok 42 "f32a" 31 1 98) (mkPtok 40 "," 32 22 102)) None (mkPtok 42 "f32a" 31 1 98) (mkLengthOf (mkSpan (mkPtok 7 "@lengthOf(" 32 0 99) (mkPtok 6 ")" 32 20 101)) (mkPtok 7 "@lengthOf(" 32 0 99) (mkPtok 42 "options1" 32 11 100) (mkPtok 6 ")" 32 20 101)) None (mkPtok 40 "," 32 22 102))))] (mkPtok 3 "}" 32 24 103))); (DPacket (mkPacketDef (mkSpan (mkPtok 35 "packet" 33 0 104) (mkPtok 3 "}" 34 2 107)) None (mkPtok 35 "packet" 33 0 104) (mkPtok 42 "MetaDataX" 33 7 105) (mkPtok 2 "{" 34 0 106) [] (mkPtok 3 "}" 34 2 107)))])).
-Eval vm_compute in ("<<<M1326>>>" ++ check (runes_of_ascii "root packet i64_{	}
-")).
-Eval vm_compute in ("<<<M1358>>>" ++ check (runes_of_ascii " // @lengthOf(")).
-Eval vm_compute in ("<<<M1390>>>" ++ check (runes_of_ascii "options { string_
-=
-0123456789 ; u=""" ++ [28040; 24687]%N ++ runes_of_ascii """ ; } options { f32a= 1
-// " ++ [27880; 37322]%N ++ runes_of_ascii "
-//x
-;}packet u8x{	float32 A@calculatedFrom( ""`tick`""
-    //x
-    ) ,i16 o
-    `" ++ [233]%N ++ runes_of_ascii "` ,int64 Logon	`
-`,@calculatedFrom( ""`tick`"") @tag(
-    //x
-    42 ) @leftPad
-    (	)
-    int8
-    // a // b
-    len
-    ,repeat char[3  ] // @lengthOf(
-crc , char[] Packet	@lengthOf( pack ) // trailing space 
-`" ++ [233]%N ++ runes_of_ascii "` // packet A { u8 x, }
-, /// triple
-}
-// @lengthOf(
-// @lengthOf(
-packet MetaDataX{ match u8x as Header{0 : body
-    //x
-    , [  ""\n""
-,""\n""
-// @lengthOf(
-/// triple
-, """ ++ [128512]%N ++ runes_of_ascii """
-, """ ++ [28040; 24687]%N ++ runes_of_ascii """	, 007// c
-]	:
-// `tick` ""quote"" 'q'
-//x
-leftPad, [ ""x y"" ] :
-// trailing space 
-//
-chars[ //	t
-10  ,3, ""`tick`"" ]: Header , }
-    , }
-")).
-Eval vm_compute in ("<<<M1422>>>" ++ check (runes_of_ascii "packet options1{match string_
-as// packet A { u8 x, }
-i8i8 {
-    10 :
-a1 , ""a\""b"" :
-    x_y_z ""abc"" :
-charz
-""" ++ [28040; 24687]%N ++ runes_of_ascii """
-    : //
-repeatCount, ""\" ++ [233]%N ++ runes_of_ascii """  : u8x, } ,@lengthOf( Foo// @lengthOf(
-)repeat x_y_z {  repeat u32
-BodyLength
-,
-    } ,match Foo
-    as
-msg_type
-{ 42
-:Pad [ 0
-    , """ ++ [28040; 24687]%N ++ runes_of_ascii """] : MetaDataX ,	""1"" :
-    // `tick` ""quote"" 'q'
-    float
-""x y"" // @lengthOf(
-: msg_type
-    //x
-    , 4294967296:len} , float `" ++ [28040; 24687; 31867; 22411]%N ++ runes_of_ascii "`, }
-")).
-Eval vm_compute in ("<<<M1454>>>" ++ check (runes_of_ascii "
-MetaData u128 { } packet string_
-{ @lengthOf(	i64_
-)
-    /// triple
-    repeat u16
-    a1 , falsey	msg_type `doc`//
-,@leftPad('\x00' )
-u64 i64_
-@calculatedFrom(
-    //x
-    """ ++ [28040; 24687]%N ++ runes_of_ascii """ )
-,
-    match
-    body as len {""" ++ [128512]%N ++ runes_of_ascii """ :charz
-    , //x
-} , BodyLength
-    `two words` // `tick` ""quote"" 'q'
-,  @leftPad ( '0'
-) repeat char
-o
-,
-@tag( 42 // `tick` ""quote"" 'q'
-) @tag( 1 )@calculatedFrom(""{,}""//
-)
-    u64 matchKey
-@lengthOf( /// triple
-charz)
-    `// not a comment`
-    ,	@calculatedFrom( ""1"")u8
-A @lengthOf(
-x_y_z )
-    ,	@calculatedFrom( // a // b
-""// no comment"" ) @lengthOf( falsey )	@calculatedFrom(""\" ++ [233]%N ++ runes_of_ascii """) match tag as f32a { [ ""\n""	, // " ++ [27880; 37322]%N ++ runes_of_ascii "
-""x y"" ,
-4294967296  , 00 , ""\n"" , 255
-]:
-    float ,
-[ ""\" ++ [233]%N ++ runes_of_ascii """
-] :packetx ,
-    // " ++ [27880; 37322]%N ++ runes_of_ascii "
-    0 :
-Z9_
-    , [
-""" ++ [233]%N ++ runes_of_ascii "t" ++ [233]%N ++ runes_of_ascii """
-]// `tick` ""quote"" 'q'
-:	rootA
-    ,} , } options{ f32a =
-char[ 00 ]
-    // `tick` ""quote"" 'q'
-    ;
-tag =
-4294967296 ; rootA=""{,}"" } options
-    {
-//	t
-// `tick` ""quote"" 'q'
-msg_type =""\n"" ; f32a
-=
-""// no comment""
-//x
-// `tick` ""quote"" 'q'
-; falsey = 65535 ;}
-")).
-Eval vm_compute in ("<<<M1486>>>" ++ check (runes_of_ascii "
-root
-    packet _x
-    { }
-    /// triple
-    root packet // `tick` ""quote"" 'q'
-rootA
-{
-    @lengthOf( msg_type
-)
-    @calculatedFrom( ""a	b""
-    ) Z9_ { repeat char[]msg_type `two words` , }, }
-options {Logon = 7 ; u8x = '0' len =
-'\x00' Foo	=
-    10 ; } MetaData leftPad
-    {// @lengthOf(
-Packet
-i8i8 `a\`
-,
-msg_type
-    int// " ++ [27880; 37322]%N ++ runes_of_ascii "
-`line1
-line2`
-// @lengthOf(
-/// triple
-,
-uint8x
-i8i8
-    `it's`
-    ,BodyLength repeatCount ,// packet A { u8 x, }
-}
-")).
-Eval vm_compute in ("<<<M1518>>>" ++ check (runes_of_ascii " 	 ")).
-Eval vm_compute in ("<<<T1518>>>" ++ terms [mkTok 0 "<EOF>" 1 3 false] (mkPacket (mkPtok 0 "<EOF>" 1 3 0) None [])).
-Eval vm_compute in ("<<<M1550>>>" ++ check (runes_of_ascii "packet
-Pad //x
-{ match  Logon
-    as//	t
-lengthOf
-{ [
-    ""a\""b""//	t
-,	00 ,
-    ""\" ++ [233]%N ++ runes_of_ascii """// " ++ [27880; 37322]%N ++ runes_of_ascii "
-]	: rootA
-,
-[
-    ""a\\"" ] : Header ,  [ ""a\""b"" , 1 ] //	t
-: As ""\" ++ [233]%N ++ runes_of_ascii """:crc
-, }	, @tag( 0123456789	)	u8x@lengthOf( a1 ),
-    @calculatedFrom( """") uint8 crc@calculatedFrom( ""x y"") , @lengthOf(
-//	t
-/// triple
-options1 )
-    repeat Pad
-    x_y_z `it's`
-,
-@calculatedFrom(""" ++ [28040; 24687]%N ++ runes_of_ascii """
-    )@calculatedFrom( // trailing space 
-""" ++ [128512]%N ++ runes_of_ascii """
-    ) @calculatedFrom(  ""// no comment"" // packet A { u8 x, }
-) char[ 10 ]T  `say ""hi""`,
-    @lengthOf( Header ) repeat BodyLength {  char[
-// " ++ [27880; 37322]%N ++ runes_of_ascii "
-// packet A { u8 x, }
-3
-    ] trueish @lengthOf(
-    leftPad )	, zchar i8i8 ,
-/// triple
-// trailing space 
-char[]
-    u8x`u8 x,`,int16 MetaDataX `crlf
-line` ,
-} , @calculatedFrom( """ ++ [128512]%N ++ runes_of_ascii """
-) // " ++ [128512]%N ++ runes_of_ascii " emoji
-repeat u8x `say ""hi""`,
-    zchar[7 ] /// triple
-float @calculatedFrom( """ ++ [28040; 24687]%N ++ runes_of_ascii """
-    ), string Packet , // a // b
-@rightPad
-    (  '\x00'
-) @calculatedFrom(
-""a\\""
-)
-@calculatedFrom(/// triple
-""`tick`"") match MetaDataX as leftPad{
-// c
-//
-""// no comment"":// c
-len  , } , }
-    //x
-    options {rootA=
-/// triple
-// " ++ [27880; 37322]%N ++ runes_of_ascii "
-3 ; } MetaData
-    trueish  { f32
-float`
-` ,
-roots T , trueish	charz ,
-i32 As ,
-} packet
-    u128	{ // " ++ [27880; 37322]%N ++ runes_of_ascii "
-_x // @lengthOf(
-@calculatedFrom( ""a	b""
-) , }")).
-Eval vm_compute in ("<<<M1582>>>" ++ check (runes_of_ascii "packet
-MetaDataX
-{ @tag(
-42
-    ) stringy// " ++ [27880; 37322]%N ++ runes_of_ascii "
-crc
-    ,
-string trueish  ,
-@lengthOf( float )
-//x
-// trailing space 
-zchar[
-10
-]
-// `tick` ""quote"" 'q'
-// a // b
-uint8x @lengthOf(repeatCount) `
-` ,repeat i16 msg_type`" ++ [233]%N ++ runes_of_ascii "` , i16
-    _x // @lengthOf(
-,repeat  zchar[ 10 ] u128
-,float32
-o  `line1
-line2` ,
-    }
-packet
-chars { // a // b
-zchar[65535  ]
-    o ,match lengthOf as Pad{
-""a	b"" : string_""1"" : _x
-    , [""a\\"" ]: pack	, }
-, @lengthOf( // a // b
-asx )
-    packetx /// triple
-zchar `tab	here` ,
-// `tick` ""quote"" 'q'
-// trailing space 
-match
-Packet as T{ """" : repeatCount , ""packet""	: chars ,	[// packet A { u8 x, }
-00 ] :	Header,
-    } , msg_type@lengthOf( x )  , @tag( 00 )Packet { match tag
-as MetaDataX	{ 7	: MetaDataX [
-42 , 3 , ""// no comment"" ,
-00 , // `tick` ""quote"" 'q'
-007 ,""a\""b""
-    // a // b
-    ,42
-, 3
-    // @lengthOf(
-    ]:rootA	, [ ""packet"" ,""" ++ [128512]%N ++ runes_of_ascii """
-    ,""1"" ] :chars
-,}, } , repeat repeatCount { zchar[
-0123456789
-    ]  string_ @lengthOf(
-    len
-    // `tick` ""quote"" 'q'
-    ) , repeat
-    asx
-    ,
-}  ,
-    repeat i64 charz , @tag(3 ) i16
-    o ,
-}  packet // c
-body {msg_type	body`it's` ,@lengthOf( charz) @lengthOf(
-    repeatCount ) char[ 0123456789
-]options1 @calculatedFrom(
-""a	b"" /// triple
-)`say ""hi""` ,trueish@lengthOf(// packet A { u8 x, }
-u128 ) , crc packetx `crlf
-line` ,@lengthOf( Header )
-    stringy i64_ ,
-@tag( 7 ) match //
-matchKey
-    as  Logon
-    { [ """ ++ [28040; 24687]%N ++ runes_of_ascii """ //	t
-,  """ ++ [233]%N ++ runes_of_ascii "t" ++ [233]%N ++ runes_of_ascii """
-] : int , [ 007 ]
-    : f32a ,0123456789 : i8i8 42:
-    i64_
-    ,
-    }
-, repeat
-char[ 42 //	t
-] int	, T
-    ,int32
-    Pad @lengthOf( Foo )
-,calculatedFrom
-{ Pad @lengthOf( o ) , } , } packet pack {
-    @tag(
-// trailing space 
-//x
-007)match
-o as Pad { 0123456789
-:
-rootA , } ,  rootA T , int64 int,
-@tag(  255 )repeat Foo
-{
-// packet A { u8 x, }
-// `tick` ""quote"" 'q'
-x_y_z `
-`	, repeat leftPad { repeat
-crc // a // b
-`" ++ [233]%N ++ runes_of_ascii "`  ,As	{
-int As
-, } ,
-repeat zchar[
-    0 ] T , // c
-} , repeat
-    lengthOf u8x,
-}
-    , @calculatedFrom( ""\n""
-) @rightPad( ' '	)BodyLength
-{ Header , int16 rootA ,
-match
-asx // `tick` ""quote"" 'q'
-as// " ++ [128512]%N ++ runes_of_ascii " emoji
-uint8x {007
-:_x , } , } , char[] Foo , repeat options1 { repeat uint8 tag,
-// " ++ [128512]%N ++ runes_of_ascii " emoji
-// " ++ [128512]%N ++ runes_of_ascii " emoji
-zchar[ 65535]	a1
-    @calculatedFrom(
-""" ++ [28040; 24687]%N ++ runes_of_ascii """ )
-,  repeat string packetx `{ , }`,
-    }, repeat Header
-{ As,
-    //	t
-    } ,
-    } packet msg_type
-{@calculatedFrom( ""CRC32"" //x
-)repeatCount
-    @lengthOf(string_	) `crlf
-line` , repeat  zchar[ 4294967296 ]
-    msg_type
-, @tag( 1
-    //	t
-    ) pack	, }
-
-")).
-Eval vm_compute in ("<<<M1614>>>" ++ check (runes_of_ascii "packet u8x {
-}
-")).
-Eval vm_compute in ("<<<M1646>>>" ++ check (runes_of_ascii "packet	_x
-{
-@lengthOf(
-    calculatedFrom ) string tag
-    ,
-i8 float`say ""hi""`
-    , @tag(1 ) f32
-/// triple
-// packet A { u8 x, }
-u
-    ,len o `u8 x,`
-    , @leftPad ( '0'
-) // packet A { u8 x, }
-repeat f32 packetx, @tag(65535 ) //
-zchar[ // @lengthOf(
-1 ] u8x , o pack
-`doc` , A @lengthOf( repeatCount ) , @calculatedFrom(
-""packet"" )  string_	, @calculatedFrom( """ ++ [233]%N ++ runes_of_ascii "t" ++ [233]%N ++ runes_of_ascii """ ) zchar[255
-]charz,
-    }
-
-")).
-Eval vm_compute in ("<<<M1678>>>" ++ check (runes_of_ascii "  options { Z9_ = '\x00'
-    ; } MetaData zchar {
-string crc
-    // " ++ [27880; 37322]%N ++ runes_of_ascii "
-    ,} root
-packet zchar{
-@rightPad ( )
-    // " ++ [128512]%N ++ runes_of_ascii " emoji
-    match float as
-    stringy{""packet"":
-    u8x }, uint64 calculatedFrom @calculatedFrom(
-    ""{,}"" ) ,  @lengthOf( zchar
-) @lengthOf(
-u ) float { // " ++ [27880; 37322]%N ++ runes_of_ascii "
-repeat int, msg_type
-{ uint16 msg_type @lengthOf( asx // packet A { u8 x, }
-)	,
-options1
-{u8 leftPad @lengthOf( falsey //x
-)  `u8 x,` , char[
-4294967296 ] string_, string Packet
-@calculatedFrom( """ ++ [128512]%N ++ runes_of_ascii """), } ,
-char[
-    0123456789 ]  Foo @lengthOf( _x ) `tab	here` , match charz as//	t
-chars { [
-255, 255
-,""a\\""
-,
-    // " ++ [27880; 37322]%N ++ runes_of_ascii "
-    65535 , """ ++ [128512]%N ++ runes_of_ascii """ ]
-    :	trueish , } ,	} ,  calculatedFrom @lengthOf( // `tick` ""quote"" 'q'
-options1
-) , u32 BodyLength	, } , tag //	t
-MetaDataX /// triple
-, }packet u128 { } 	 ")).
-Eval vm_compute in ("<<<M1710>>>" ++ check (runes_of_ascii "MetaData
-    leftPad
-    {
-zchar // packet A { u8 x, }
-uint8x
-    `it's`
-,	char[]
-roots // " ++ [128512]%N ++ runes_of_ascii " emoji
-,	u64 roots ,
-    // " ++ [128512]%N ++ runes_of_ascii " emoji
-    roots  Logon ,
-}
-")).
-Eval vm_compute in ("<<<M1742>>>" ++ check (runes_of_ascii "/// triple
-root	packet rootA{ x_y_z@calculatedFrom( ""{,}"" )
-    ,
-@lengthOf( charz
-) @leftPad	(	) o
-@calculatedFrom(
-    // `tick` ""quote"" 'q'
-    ""x y"" ) , @leftPad (
-'0' ) @calculatedFrom( ""a\""b"" ) string_ @calculatedFrom(
-""x y"" )	, @tag(
-    //	t
-    007
-)
-    repeat i64_
-{
-char leftPad ,
-// @lengthOf(
-// `tick` ""quote"" 'q'
-crc
-@calculatedFrom( """ ++ [28040; 24687]%N ++ runes_of_ascii """ ) ,match a1 as
-roots {//x
-[ ""\n"",7 ,""a\""b""
-, ""`tick`"" , ""x y"" , 10
-,	7 , // packet A { u8 x, }
-""" ++ [128512]%N ++ runes_of_ascii """ ]
-:
-    lengthOf , [
-42 ]	:	len
-    ,	[ 255
-    ]
-: Z9_ , [ """ ++ [28040; 24687]%N ++ runes_of_ascii """
-// @lengthOf(
-//
-, 00
-    , 65535
-    , 42  ,""a\""b""
-, 255, ""it's""]:
-Z9_ ""a\""b"" :  packetx
-,	}
-    // c
-    ,
-    float `// not a comment` , // @lengthOf(
-}, @rightPad ( ' '
-) @leftPad (  ' ') char[]string_
-`// not a comment` ,	calculatedFrom _x //	t
-`say ""hi""`	,
-@calculatedFrom( ""it's""
-// a // b
-//x
-)
-repeat f32 A `say ""hi""` , match As as u8x {
-[ 00 ] : uint8x, """ ++ [233]%N ++ runes_of_ascii "t" ++ [233]%N ++ runes_of_ascii """
-: packetx
-    , }, match pack as string_
-{	[// @lengthOf(
-""a	b"" , ""a	b""
-    , // packet A { u8 x, }
-1
-    ,
-1 ,""a	b"" ,10
-    ,
-//x
-//x
-42 , ""1"" // packet A { u8 x, }
-] : Logon	} ,
-    char[255
-] msg_type @calculatedFrom(	""""
-) ,
-    } packet  float
-{
-}")).
-Eval vm_compute in ("<<<T1742>>>" ++ terms [mkTok 44 "/// triple" 1 0 true; mkTok 34 "root" 2 0 false; mkTok 35 "packet" 2 5 false; mkTok 42 "rootA" 2 12 false; mkTok 2 "{" 2 17 false; mkTok 42 "x_y_z" 2 19 false; mkTok 5 "@calculatedFrom(" 2 24 false; mkTok 31 """{,}""" 2 41 false; mkTok 6 ")" 2 47 false; mkTok 40 "," 3 4 false; mkTok 7 "@lengthOf(" 4 0 false; mkTok 42 "charz" 4 11 false; mkTok 6 ")" 5 0 false; mkTok 32 "@leftPad" 5 2 false; mkTok 8 "(" 5 11 false; mkTok 6 ")" 5 13 false; mkTok 42 "o" 5 15 false; mkTok 5 "@calculatedFrom(" 6 0 false; mkTok 44 "// `tick` ""quote"" 'q'" 7 4 true; mkTok 31 """x y""" 8 4 false; mkTok 6 ")" 8 10 false; mkTok 40 "," 8 12 false; mkTok 32 "@leftPad" 8 14 false; mkTok 8 "(" 8 23 false; mkTok 33 "'0'" 9 0 false; mkTok 6 ")" 9 4 false; mkTok 5 "@calculatedFrom(" 9 6 false; mkTok 31 """a\""b""" 9 23 false; mkTok 6 ")" 9 30 false; mkTok 42 "string_" 9 32 false; mkTok 5 "@calculatedFrom(" 9 40 false; mkTok 31 """x y""" 10 0 false; mkTok 6 ")" 10 6 false; mkTok 40 "," 10 8 false; mkTok 9 "@tag(" 10 10 false; mkTok 44 (string_of_bytes [47; 47; 9; 116]%N) 11 4 true; mkTok 30 "007" 12 4 false; mkTok 6 ")" 13 0 false; mkTok 36 "repeat" 14 4 false; mkTok 42 "i64_" 14 11 false; mkTok 2 "{" 15 0 false; mkTok 19 "char" 16 0 false; mkTok 42 "leftPad" 16 5 false; mkTok 40 "," 16 13 false; mkTok 44 "// @lengthOf(" 17 0 true; mkTok 44 "// `tick` ""quote"" 'q'" 18 0 true; mkTok 42 "crc" 19 0 false; mkTok 5 "@calculatedFrom(" 20 0 false; mkTok 31 (string_of_bytes [34; 230; 182; 136; 230; 129; 175; 34]%N) 20 17 false; mkTok 6 ")" 20 22 false; mkTok 40 "," 20 24 false; mkTok 38 "match" 20 25 false; mkTok 42 "a1" 20 31 false; mkTok 17 "as" 20 34 false; mkTok 42 "roots" 21 0 false; mkTok 2 "{" 21 6 false; mkTok 44 "//x" 21 7 true; mkTok 18 "[" 22 0 false; mkTok 31 """\n""" 22 2 false; mkTok 40 "," 22 6 false; mkTok 30 "7" 22 7 false; mkTok 40 "," 22 9 false; mkTok 31 """a\""b""" 22 10 false; mkTok 40 "," 23 0 false; mkTok 31 """`tick`""" 23 2 false; mkTok 40 "," 23 11 false; mkTok 31 """x y""" 23 13 false; mkTok 40 "," 23 19 false; mkTok 30 "10" 23 21 false; mkTok 40 "," 24 0 false; mkTok 30 "7" 24 2 false; mkTok 40 "," 24 4 false; mkTok 44 "// packet A { u8 x, }" 24 6 true; mkTok 31 (string_of_bytes [34; 240; 159; 152; 128; 34]%N) 25 0 false; mkTok 13 "]" 25 4 false; mkTok 39 ":" 26 0 false; mkTok 42 "lengthOf" 27 4 false; mkTok 40 "," 27 13 false; mkTok 18 "[" 27 15 false; mkTok 30 "42" 28 0 false; mkTok 13 "]" 28 3 false; mkTok 39 ":" 28 5 false; mkTok 42 "len" 28 7 false; mkTok 40 "," 29 4 false; mkTok 18 "[" 29 6 false; mkTok 30 "255" 29 8 false; mkTok 13 "]" 30 4 false; mkTok 39 ":" 31 0 false; mkTok 42 "Z9_" 31 2 false; mkTok 40 "," 31 6 false; mkTok 18 "[" 31 8 false; mkTok 31 (string_of_bytes [34; 230; 182; 136; 230; 129; 175; 34]%N) 31 10 false; mkTok 44 "// @lengthOf(" 32 0 true; mkTok 44 "//" 33 0 true; mkTok 40 "," 34 0 false; mkTok 30 "00" 34 2 false; mkTok 40 "," 35 4 false; mkTok 30 "65535" 35 6 false; mkTok 40 "," 36 4 false; mkTok 30 "42" 36 6 false; mkTok 40 "," 36 10 false; mkTok 31 """a\""b""" 36 11 false; mkTok 40 "," 37 0 false; mkTok 30 "255" 37 2 false; mkTok 40 "," 37 5 false; mkTok 31 """it's""" 37 7 false; mkTok 13 "]" 37 13 false; mkTok 39 ":" 37 14 false; mkTok 42 "Z9_" 38 0 false; mkTok 31 """a\""b""" 38 4 false; mkTok 39 ":" 38 11 false; mkTok 42 "packetx" 38 14 false; mkTok 40 "," 39 0 false; mkTok 3 "}" 39 2 false; mkTok 44 "// c" 40 4 true; mkTok 40 "," 41 4 false; mkTok 42 "float" 42 4 false; mkTok 43 "`// not a comment`" 42 10 false; mkTok 40 "," 42 29 false; mkTok 44 "// @lengthOf(" 42 31 true; mkTok 3 "}" 43 0 false; mkTok 40 "," 43 1 false; mkTok 32 "@rightPad" 43 3 false; mkTok 8 "(" 43 13 false; mkTok 33 "' '" 43 15 false; mkTok 6 ")" 44 0 false; mkTok 32 "@leftPad" 44 2 false; mkTok 8 "(" 44 11 false; mkTok 33 "' '" 44 14 false; mkTok 6 ")" 44 17 false; mkTok 16 "char[]" 44 19 false; mkTok 42 "string_" 44 25 false; mkTok 43 "`// not a comment`" 45 0 false; mkTok 40 "," 45 19 false; mkTok 42 "calculatedFrom" 45 21 false; mkTok 42 "_x" 45 36 false; mkTok 44 (string_of_bytes [47; 47; 9; 116]%N) 45 39 true; mkTok 43 "`say ""hi""`" 46 0 false; mkTok 40 "," 46 11 false; mkTok 5 "@calculatedFrom(" 47 0 false; mkTok 31 """it's""" 47 17 false; mkTok 44 "// a // b" 48 0 true; mkTok 44 "//x" 49 0 true; mkTok 6 ")" 50 0 false; mkTok 36 "repeat" 51 0 false; mkTok 28 "f32" 51 7 false; mkTok 42 "A" 51 11 false; mkTok 43 "`say ""hi""`" 51 13 false; mkTok 40 "," 51 24 false; mkTok 38 "match" 51 26 false; mkTok 42 "As" 51 32 false; mkTok 17 "as" 51 35 false; mkTok 42 "u8x" 51 38 false; mkTok 2 "{" 51 42 false; mkTok 18 "[" 52 0 false; mkTok 30 "00" 52 2 false; mkTok 13 "]" 52 5 false; mkTok 39 ":" 52 7 false; mkTok 42 "uint8x" 52 9 false; mkTok 40 "," 52 15 false; mkTok 31 (string_of_bytes [34; 195; 169; 116; 195; 169; 34]%N) 52 17 false; mkTok 39 ":" 53 0 false; mkTok 42 "packetx" 53 2 false; mkTok 40 "," 54 4 false; mkTok 3 "}" 54 6 false; mkTok 40 "," 54 7 false; mkTok 38 "match" 54 9 false; mkTok 42 "pack" 54 15 false; mkTok 17 "as" 54 20 false; mkTok 42 "string_" 54 23 false; mkTok 2 "{" 55 0 false; mkTok 18 "[" 55 2 false; mkTok 44 "// @lengthOf(" 55 3 true; mkTok 31 (string_of_bytes [34; 97; 9; 98; 34]%N) 56 0 false; mkTok 40 "," 56 6 false; mkTok 31 (string_of_bytes [34; 97; 9; 98; 34]%N) 56 8 false; mkTok 40 "," 57 4 false; mkTok 44 "// packet A { u8 x, }" 57 6 true; mkTok 30 "1" 58 0 false; mkTok 40 "," 59 4 false; mkTok 30 "1" 60 0 false; mkTok 40 "," 60 2 false; mkTok 31 (string_of_bytes [34; 97; 9; 98; 34]%N) 60 3 false; mkTok 40 "," 60 9 false; mkTok 30 "10" 60 10 false; mkTok 40 "," 61 4 false; mkTok 44 "//x" 62 0 true; mkTok 44 "//x" 63 0 true; mkTok 30 "42" 64 0 false; mkTok 40 "," 64 3 false; mkTok 31 """1""" 64 5 false; mkTok 44 "// packet A { u8 x, }" 64 9 true; mkTok 13 "]" 65 0 false; mkTok 39 ":" 65 2 false; mkTok 42 "Logon" 65 4 false; mkTok 3 "}" 65 10 false; mkTok 40 "," 65 12 false; mkTok 12 "char[" 66 4 false; mkTok 30 "255" 66 9 false; mkTok 13 "]" 67 0 false; mkTok 42 "msg_type" 67 2 false; mkTok 5 "@calculatedFrom(" 67 11 false; mkTok 31 """""" 67 28 false; mkTok 6 ")" 68 0 false; mkTok 40 "," 68 2 false; mkTok 3 "}" 69 4 false; mkTok 35 "packet" 69 6 false; mkTok 42 "float" 69 14 false; mkTok 2 "{" 70 0 false; mkTok 3 "}" 71 0 false; mkTok 0 "<EOF>" 71 1 false] (mkPacket (mkPtok 34 "root" 2 0 1) (Some (mkPtok 3 "}" 71 0 209)) [(DPacket (mkPacketDef (mkSpan (mkPtok 34 "root" 2 0 1) (mkPtok 3 "}" 69 4 205)) (Some (mkPtok 34 "root" 2 0 1)) (mkPtok 35 "packet" 2 5 2) (mkPtok 42 "rootA" 2 12 3) (mkPtok 2 "{" 2 17 4) [(mkFieldWithAttr (mkSpan (mkPtok 42 "x_y_z" 2 19 5) (mkPtok 40 "," 3 4 9)) [] (CheckSumField (mkSpan (mkPtok 42 "x_y_z" 2 19 5) (mkPtok 40 "," 3 4 9)) (mkChecksumFieldDecl (mkSpan (mkPtok 42 "x_y_z" 2 19 5) (mkPtok 40 "," 3 4 9)) None (mkPtok 42 "x_y_z" 2 19 5) (mkCalculatedFrom (mkSpan (mkPtok 5 "@calculatedFrom(" 2 24 6) (mkPtok 6 ")" 2 47 8)) (mkPtok 5 "@calculatedFrom(" 2 24 6) (mkPtok 31 """{,}""" 2 41 7) (mkPtok 6 ")" 2 47 8)) None (mkPtok 40 "," 3 4 9)))); (mkFieldWithAttr (mkSpan (mkPtok 7 "@lengthOf(" 4 0 10) (mkPtok 40 "," 8 12 21)) [(FALengthOf (mkSpan (mkPtok 7 "@lengthOf(" 4 0 10) (mkPtok 6 ")" 5 0 12)) (mkLengthOf (mkSpan (mkPtok 7 "@lengthOf(" 4 0 10) (mkPtok 6 ")" 5 0 12)) (mkPtok 7 "@lengthOf(" 4 0 10) (mkPtok 42 "charz" 4 11 11) (mkPtok 6 ")" 5 0 12))); (FAPadding (mkSpan (mkPtok 32 "@leftPad" 5 2 13) (mkPtok 6 ")" 5 13 15)) (mkPaddingAttr (mkSpan (mkPtok 32 "@leftPad" 5 2 13) (mkPtok 6 ")" 5 13 15)) (mkPtok 32 "@leftPad" 5 2 13) (mkPtok 8 "(" 5 11 14) None (mkPtok 6 ")" 5 13 15)))] (CheckSumField (mkSpan (mkPtok 42 "o" 5 15 16) (mkPtok 40 "," 8 12 21)) (mkChecksumFieldDecl (mkSpan (mkPtok 42 "o" 5 15 16) (mkPtok 40 "," 8 12 21)) None (mkPtok 42 "o" 5 15 16) (mkCalculatedFrom (mkSpan (mkPtok 5 "@calculatedFrom(" 6 0 17) (mkPtok 6 ")" 8 10 20)) (mkPtok 5 "@calculatedFrom(" 6 0 17) (mkPtok 31 """x y""" 8 4 19) (mkPtok 6 ")" 8 10 20)) None (mkPtok 40 "," 8 12 21)))); (mkFieldWithAttr (mkSpan (mkPtok 32 "@leftPad" 8 14 22) (mkPtok 40 "," 10 8 33)) [(FAPadding (mkSpan (mkPtok 32 "@leftPad" 8 14 22) (mkPtok 6 ")" 9 4 25)) (mkPaddingAttr (mkSpan (mkPtok 32 "@leftPad" 8 14 22) (mkPtok 6 ")" 9 4 25)) (mkPtok 32 "@leftPad" 8 14 22) (mkPtok 8 "(" 8 23 23) (Some (mkPtok 33 "'0'" 9 0 24)) (mkPtok 6 ")" 9 4 25))); (FACalculatedFrom (mkSpan (mkPtok 5 "@calculatedFrom(" 9 6 26) (mkPtok 6 ")" 9 30 28)) (mkCalculatedFrom (mkSpan (mkPtok 5 "@calculatedFrom(" 9 6 26) (mkPtok 6 ")" 9 30 28)) (mkPtok 5 "@calculatedFrom(" 9 6 26) (mkPtok 31 """a\""b""" 9 23 27) (mkPtok 6 ")" 9 30 28)))] (CheckSumField (mkSpan (mkPtok 42 "string_" 9 32 29) (mkPtok 40 "," 10 8 33)) (mkChecksumFieldDecl (mkSpan (mkPtok 42 "string_" 9 32 29) (mkPtok 40 "," 10 8 33)) None (mkPtok 42 "string_" 9 32 29) (mkCalculatedFrom (mkSpan (mkPtok 5 "@calculatedFrom(" 9 40 30) (mkPtok 6 ")" 10 6 32)) (mkPtok 5 "@calculatedFrom(" 9 40 30) (mkPtok 31 """x y""" 10 0 31) (mkPtok 6 ")" 10 6 32)) None (mkPtok 40 "," 10 8 33)))); (mkFieldWithAttr (mkSpan (mkPtok 9 "@tag(" 10 10 34) (mkPtok 40 "," 43 1 121)) [(FATag (mkSpan (mkPtok 9 "@tag(" 10 10 34) (mkPtok 6 ")" 13 0 37)) (mkTagAttr (mkSpan (mkPtok 9 "@tag(" 10 10 34) (mkPtok 6 ")" 13 0 37)) (mkPtok 9 "@tag(" 10 10 34) (mkPtok 30 "007" 12 4 36) (mkPtok 6 ")" 13 0 37)))] (InerObjectField (mkSpan (mkPtok 36 "repeat" 14 4 38) (mkPtok 40 "," 43 1 121)) (Some (mkPtok 36 "repeat" 14 4 38)) (InerObjectDecl (mkSpan (mkPtok 42 "i64_" 14 11 39) (mkPtok 3 "}" 43 0 120)) (mkPtok 42 "i64_" 14 11 39) (mkPtok 2 "{" 15 0 40) [(MetaField (mkSpan (mkPtok 19 "char" 16 0 41) (mkPtok 40 "," 16 13 43)) None (mkMetaDecl (mkSpan (mkPtok 19 "char" 16 0 41) (mkPtok 40 "," 16 13 43)) (TyBasic (mkSpan (mkPtok 19 "char" 16 0 41) (mkPtok 19 "char" 16 0 41)) (mkBasicType (mkSpan (mkPtok 19 "char" 16 0 41) (mkPtok 19 "char" 16 0 41)) (mkPtok 19 "char" 16 0 41))) (mkPtok 42 "leftPad" 16 5 42) None (mkPtok 40 "," 16 13 43))); (CheckSumField (mkSpan (mkPtok 42 "crc" 19 0 46) (mkPtok 40 "," 20 24 50)) (mkChecksumFieldDecl (mkSpan (mkPtok 42 "crc" 19 0 46) (mkPtok 40 "," 20 24 50)) None (mkPtok 42 "crc" 19 0 46) (mkCalculatedFrom (mkSpan (mkPtok 5 "@calculatedFrom(" 20 0 47) (mkPtok 6 ")" 20 22 49)) (mkPtok 5 "@calculatedFrom(" 20 0 47) (mkPtok 31 (string_of_bytes [34; 230; 182; 136; 230; 129; 175; 34]%N) 20 17 48) (mkPtok 6 ")" 20 22 49)) None (mkPtok 40 "," 20 24 50))); (MatchField (mkSpan (mkPtok 38 "match" 20 25 51) (mkPtok 40 "," 41 4 115)) (mkMatchFieldDecl (mkSpan (mkPtok 38 "match" 20 25 51) (mkPtok 3 "}" 39 2 113)) (mkPtok 38 "match" 20 25 51) (mkPtok 42 "a1" 20 31 52) (mkPtok 17 "as" 20 34 53) (mkPtok 42 "roots" 21 0 54) (mkPtok 2 "{" 21 6 55) [(mkMatchPair (mkSpan (mkPtok 18 "[" 22 0 57) (mkPtok 40 "," 27 13 77)) (MKList (mkKeyList (mkSpan (mkPtok 18 "[" 22 0 57) (mkPtok 13 "]" 25 4 74)) (mkPtok 18 "[" 22 0 57) (mkPtok 31 """\n""" 22 2 58) [((mkPtok 40 "," 22 6 59), (mkPtok 30 "7" 22 7 60)); ((mkPtok 40 "," 22 9 61), (mkPtok 31 """a\""b""" 22 10 62)); ((mkPtok 40 "," 23 0 63), (mkPtok 31 """`tick`""" 23 2 64)); ((mkPtok 40 "," 23 11 65), (mkPtok 31 """x y""" 23 13 66)); ((mkPtok 40 "," 23 19 67), (mkPtok 30 "10" 23 21 68)); ((mkPtok 40 "," 24 0 69), (mkPtok 30 "7" 24 2 70)); ((mkPtok 40 "," 24 4 71), (mkPtok 31 (string_of_bytes [34; 240; 159; 152; 128; 34]%N) 25 0 73))] (mkPtok 13 "]" 25 4 74))) (mkPtok 39 ":" 26 0 75) (mkPtok 42 "lengthOf" 27 4 76) (Some (mkPtok 40 "," 27 13 77))); (mkMatchPair (mkSpan (mkPtok 18 "[" 27 15 78) (mkPtok 40 "," 29 4 83)) (MKList (mkKeyList (mkSpan (mkPtok 18 "[" 27 15 78) (mkPtok 13 "]" 28 3 80)) (mkPtok 18 "[" 27 15 78) (mkPtok 30 "42" 28 0 79) [] (mkPtok 13 "]" 28 3 80))) (mkPtok 39 ":" 28 5 81) (mkPtok 42 "len" 28 7 82) (Some (mkPtok 40 "," 29 4 83))); (mkMatchPair (mkSpan (mkPtok 18 "[" 29 6 84) (mkPtok 40 "," 31 6 89)) (MKList (mkKeyList (mkSpan (mkPtok 18 "[" 29 6 84) (mkPtok 13 "]" 30 4 86)) (mkPtok 18 "[" 29 6 84) (mkPtok 30 "255" 29 8 85) [] (mkPtok 13 "]" 30 4 86))) (mkPtok 39 ":" 31 0 87) (mkPtok 42 "Z9_" 31 2 88) (Some (mkPtok 40 "," 31 6 89))); (mkMatchPair (mkSpan (mkPtok 18 "[" 31 8 90) (mkPtok 42 "Z9_" 38 0 108)) (MKList (mkKeyList (mkSpan (mkPtok 18 "[" 31 8 90) (mkPtok 13 "]" 37 13 106)) (mkPtok 18 "[" 31 8 90) (mkPtok 31 (string_of_bytes [34; 230; 182; 136; 230; 129; 175; 34]%N) 31 10 91) [((mkPtok 40 "," 34 0 94), (mkPtok 30 "00" 34 2 95)); ((mkPtok 40 "," 35 4 96), (mkPtok 30 "65535" 35 6 97)); ((mkPtok 40 "," 36 4 98), (mkPtok 30 "42" 36 6 99)); ((mkPtok 40 "," 36 10 100), (mkPtok 31 """a\""b""" 36 11 101)); ((mkPtok 40 "," 37 0 102), (mkPtok 30 "255" 37 2 103)); ((mkPtok 40 "," 37 5 104), (mkPtok 31 """it's""" 37 7 105))] (mkPtok 13 "]" 37 13 106))) (mkPtok 39 ":" 37 14 107) (mkPtok 42 "Z9_" 38 0 108) None); (mkMatchPair (mkSpan (mkPtok 31 """a\""b""" 38 4 109) (mkPtok 40 "," 39 0 112)) (MKString (mkPtok 31 """a\""b""" 38 4 109)) (mkPtok 39 ":" 38 11 110) (mkPtok 42 "packetx" 38 14 111) (Some (mkPtok 40 "," 39 0 112)))] (mkPtok 3 "}" 39 2 113)) (mkPtok 40 "," 41 4 115)); (ObjectField (mkSpan (mkPtok 42 "float" 42 4 116) (mkPtok 40 "," 42 29 118)) None (mkPtok 42 "float" 42 4 116) None (Some (mkPtok 43 "`// not a comment`" 42 10 117)) (mkPtok 40 "," 42 29 118))] (mkPtok 3 "}" 43 0 120)) (mkPtok 40 "," 43 1 121))); (mkFieldWithAttr (mkSpan (mkPtok 32 "@rightPad" 43 3 122) (mkPtok 40 "," 45 19 133)) [(FAPadding (mkSpan (mkPtok 32 "@rightPad" 43 3 122) (mkPtok 6 ")" 44 0 125)) (mkPaddingAttr (mkSpan (mkPtok 32 "@rightPad" 43 3 122) (mkPtok 6 ")" 44 0 125)) (mkPtok 32 "@rightPad" 43 3 122) (mkPtok 8 "(" 43 13 123) (Some (mkPtok 33 "' '" 43 15 124)) (mkPtok 6 ")" 44 0 125))); (FAPadding (mkSpan (mkPtok 32 "@leftPad" 44 2 126) (mkPtok 6 ")" 44 17 129)) (mkPaddingAttr (mkSpan (mkPtok 32 "@leftPad" 44 2 126) (mkPtok 6 ")" 44 17 129)) (mkPtok 32 "@leftPad" 44 2 126) (mkPtok 8 "(" 44 11 127) (Some (mkPtok 33 "' '" 44 14 128)) (mkPtok 6 ")" 44 17 129)))] (MetaField (mkSpan (mkPtok 16 "char[]" 44 19 130) (mkPtok 40 "," 45 19 133)) None (mkMetaDecl (mkSpan (mkPtok 16 "char[]" 44 19 130) (mkPtok 40 "," 45 19 133)) (TyDynamic (mkSpan (mkPtok 16 "char[]" 44 19 130) (mkPtok 16 "char[]" 44 19 130)) (mkDynamicString (mkSpan (mkPtok 16 "char[]" 44 19 130) (mkPtok 16 "char[]" 44 19 130)) (mkPtok 16 "char[]" 44 19 130))) (mkPtok 42 "string_" 44 25 131) (Some (mkPtok 43 "`// not a comment`" 45 0 132)) (mkPtok 40 "," 45 19 133)))); (mkFieldWithAttr (mkSpan (mkPtok 42 "calculatedFrom" 45 21 134) (mkPtok 40 "," 46 11 138)) [] (ObjectField (mkSpan (mkPtok 42 "calculatedFrom" 45 21 134) (mkPtok 40 "," 46 11 138)) None (mkPtok 42 "calculatedFrom" 45 21 134) (Some (mkPtok 42 "_x" 45 36 135)) (Some (mkPtok 43 "`say ""hi""`" 46 0 137)) (mkPtok 40 "," 46 11 138))); (mkFieldWithAttr (mkSpan (mkPtok 5 "@calculatedFrom(" 47 0 139) (mkPtok 40 "," 51 24 148)) [(FACalculatedFrom (mkSpan (mkPtok 5 "@calculatedFrom(" 47 0 139) (mkPtok 6 ")" 50 0 143)) (mkCalculatedFrom (mkSpan (mkPtok 5 "@calculatedFrom(" 47 0 139) (mkPtok 6 ")" 50 0 143)) (mkPtok 5 "@calculatedFrom(" 47 0 139) (mkPtok 31 """it's""" 47 17 140) (mkPtok 6 ")" 50 0 143)))] (MetaField (mkSpan (mkPtok 36 "repeat" 51 0 144) (mkPtok 40 "," 51 24 148)) (Some (mkPtok 36 "repeat" 51 0 144)) (mkMetaDecl (mkSpan (mkPtok 28 "f32" 51 7 145) (mkPtok 40 "," 51 24 148)) (TyBasic (mkSpan (mkPtok 28 "f32" 51 7 145) (mkPtok 28 "f32" 51 7 145)) (mkBasicType (mkSpan (mkPtok 28 "f32" 51 7 145) (mkPtok 28 "f32" 51 7 145)) (mkPtok 28 "f32" 51 7 145))) (mkPtok 42 "A" 51 11 146) (Some (mkPtok 43 "`say ""hi""`" 51 13 147)) (mkPtok 40 "," 51 24 148)))); (mkFieldWithAttr (mkSpan (mkPtok 38 "match" 51 26 149) (mkPtok 40 "," 54 7 165)) [] (MatchField (mkSpan (mkPtok 38 "match" 51 26 149) (mkPtok 40 "," 54 7 165)) (mkMatchFieldDecl (mkSpan (mkPtok 38 "match" 51 26 149) (mkPtok 3 "}" 54 6 164)) (mkPtok 38 "match" 51 26 149) (mkPtok 42 "As" 51 32 150) (mkPtok 17 "as" 51 35 151) (mkPtok 42 "u8x" 51 38 152) (mkPtok 2 "{" 51 42 153) [(mkMatchPair (mkSpan (mkPtok 18 "[" 52 0 154) (mkPtok 40 "," 52 15 159)) (MKList (mkKeyList (mkSpan (mkPtok 18 "[" 52 0 154) (mkPtok 13 "]" 52 5 156)) (mkPtok 18 "[" 52 0 154) (mkPtok 30 "00" 52 2 155) [] (mkPtok 13 "]" 52 5 156))) (mkPtok 39 ":" 52 7 157) (mkPtok 42 "uint8x" 52 9 158) (Some (mkPtok 40 "," 52 15 159))); (mkMatchPair (mkSpan (mkPtok 31 (string_of_bytes [34; 195; 169; 116; 195; 169; 34]%N) 52 17 160) (mkPtok 40 "," 54 4 163)) (MKString (mkPtok 31 (string_of_bytes [34; 195; 169; 116; 195; 169; 34]%N) 52 17 160)) (mkPtok 39 ":" 53 0 161) (mkPtok 42 "packetx" 53 2 162) (Some (mkPtok 40 "," 54 4 163)))] (mkPtok 3 "}" 54 6 164)) (mkPtok 40 "," 54 7 165))); (mkFieldWithAttr (mkSpan (mkPtok 38 "match" 54 9 166) (mkPtok 40 "," 65 12 196)) [] (MatchField (mkSpan (mkPtok 38 "match" 54 9 166) (mkPtok 40 "," 65 12 196)) (mkMatchFieldDecl (mkSpan (mkPtok 38 "match" 54 9 166) (mkPtok 3 "}" 65 10 195)) (mkPtok 38 "match" 54 9 166) (mkPtok 42 "pack" 54 15 167) (mkPtok 17 "as" 54 20 168) (mkPtok 42 "string_" 54 23 169) (mkPtok 2 "{" 55 0 170) [(mkMatchPair (mkSpan (mkPtok 18 "[" 55 2 171) (mkPtok 42 "Logon" 65 4 194)) (MKList (mkKeyList (mkSpan (mkPtok 18 "[" 55 2 171) (mkPtok 13 "]" 65 0 192)) (mkPtok 18 "[" 55 2 171) (mkPtok 31 (string_of_bytes [34; 97; 9; 98; 34]%N) 56 0 173) [((mkPtok 40 "," 56 6 174), (mkPtok 31 (string_of_bytes [34; 97; 9; 98; 34]%N) 56 8 175)); ((mkPtok 40 "," 57 4 176), (mkPtok 30 "1" 58 0 178)); ((mkPtok 40 "," 59 4 179), (mkPtok 30 "1" 60 0 180)); ((mkPtok 40 "," 60 2 181), (mkPtok 31 (string_of_bytes [34; 97; 9; 98; 34]%N) 60 3 182)); ((mkPtok 40 "," 60 9 183), (mkPtok 30 "10" 60 10 184)); ((mkPtok 40 "," 61 4 185), (mkPtok 30 "42" 64 0 188)); ((mkPtok 40 "," 64 3 189), (mkPtok 31 """1""" 64 5 190))] (mkPtok 13 "]" 65 0 192))) (mkPtok 39 ":" 65 2 193) (mkPtok 42 "Logon" 65 4 194) None)] (mkPtok 3 "}" 65 10 195)) (mkPtok 40 "," 65 12 196))); (mkFieldWithAttr (mkSpan (mkPtok 12 "char[" 66 4 197) (mkPtok 40 "," 68 2 204)) [] (CheckSumField (mkSpan (mkPtok 12 "char[" 66 4 197) (mkPtok 40 "," 68 2 204)) (mkChecksumFieldDecl (mkSpan (mkPtok 12 "char[" 66 4 197) (mkPtok 40 "," 68 2 204)) (Some (TyFixed (mkSpan (mkPtok 12 "char[" 66 4 197) (mkPtok 13 "]" 67 0 199)) (mkFixedString (mkSpan (mkPtok 12 "char[" 66 4 197) (mkPtok 13 "]" 67 0 199)) (mkPtok 12 "char[" 66 4 197) (mkPtok 30 "255" 66 9 198) (mkPtok 13 "]" 67 0 199)))) (mkPtok 42 "msg_type" 67 2 200) (mkCalculatedFrom (mkSpan (mkPtok 5 "@calculatedFrom(" 67 11 201) (mkPtok 6 ")" 68 0 203)) (mkPtok 5 "@calculatedFrom(" 67 11 201) (mkPtok 31 """""" 67 28 202) (mkPtok 6 ")" 68 0 203)) None (mkPtok 40 "," 68 2 204))))] (mkPtok 3 "}" 69 4 205))); (DPacket (mkPacketDef (mkSpan (mkPtok 35 "packet" 69 6 206) (mkPtok 3 "}" 71 0 209)) None (mkPtok 35 "packet" 69 6 206) (mkPtok 42 "float" 69 14 207) (mkPtok 2 "{" 70 0 208) [] (mkPtok 3 "}" 71 0 209)))])).
-Eval vm_compute in ("<<<M1774>>>" ++ check (runes_of_ascii "root packet
-rootA {	int64	uint8x ,
-char[ 1 ]u `crlf
-line`
-    //x
-    , //
-u16
-// trailing space 
-//x
-asx@calculatedFrom( ""\n"" ) //
-, @leftPad (
-// trailing space 
-//x
-)
-    // packet A { u8 x, }
-    repeat int32  Z9_`a\` ,
-//	t
-// packet A { u8 x, }
-match f32a //
-as// c
-Logon {""abc""
-    : Pad""`tick`""
-:
-_x , // @lengthOf(
-7 :
-    matchKey ,//	t
-""x y"" :options1
-    , 65535 : Foo 3 : Pad}
-    ,
-@tag(0
-) repeat
-f32
-    u8x // trailing space 
-`a\` , @calculatedFrom(  ""a\""b""
-    /// triple
-    )
-    string crc@calculatedFrom(
-    // " ++ [128512]%N ++ runes_of_ascii " emoji
-    """ ++ [28040; 24687]%N ++ runes_of_ascii """
-    )
-// " ++ [128512]%N ++ runes_of_ascii " emoji
-// trailing space 
-`a\` , @tag(  255) i8 float `u8 x,`,
-    // packet A { u8 x, }
-    repeat
-//	t
-/// triple
-char int `a\`,}root packet msg_type {repeat uint16 chars , @calculatedFrom( """ ++ [128512]%N ++ runes_of_ascii """ ) match metadata as
-// trailing space 
-// packet A { u8 x, }
-body{ [ 3 , ""abc""]: rootA,
-4294967296
-    // " ++ [128512]%N ++ runes_of_ascii " emoji
-    : calculatedFrom , 1:
-roots , // " ++ [27880; 37322]%N ++ runes_of_ascii "
-255: Header ,
-    [ 0
-// @lengthOf(
-// `tick` ""quote"" 'q'
-] : chars , } , match	packetx as a1 {
-[ // " ++ [128512]%N ++ runes_of_ascii " emoji
-""\" ++ [233]%N ++ runes_of_ascii """ , ""CRC32""]:  leftPad, ""it's""  :	body 255 : x } ,@lengthOf(  int ) repeat
-    i16	Packet
-,
-//	t
-//x
-@tag(
-    // " ++ [27880; 37322]%N ++ runes_of_ascii "
-    00)
-repeat x
-    {u128@lengthOf(
-crc ) // trailing space 
-,
-//
-// " ++ [27880; 37322]%N ++ runes_of_ascii "
-repeat matchKey, //
-} ,
-repeat string stringy , } packet msg_type {match matchKey as// a // b
-crc  { [ ""it's"" , ""abc"" ,
-3 , 0,// a // b
-""a	b"" ,
-1 , 10	]	:
-Packet ""packet""  : Header ,0123456789 //	t
-: len ,
-    [
-    7	] :lengthOf ,
-""" ++ [233]%N ++ runes_of_ascii "t" ++ [233]%N ++ runes_of_ascii """
-    :  trueish, } , //	t
-@lengthOf(u128
-    // a // b
-    ) @leftPad // trailing space 
-( '\x00' ) leftPad
-    // " ++ [27880; 37322]%N ++ runes_of_ascii "
-    @calculatedFrom( """"  )`// not a comment` , int16 leftPad@lengthOf( body) ,
-    repeat float64	MetaDataX ,
-} packet u8x
-    {	}
-packet	Z9_
-{ repeat int { i8 matchKey , }
-    , @tag( 65535 )
-char Header , }")).
-Eval vm_compute in ("<<<M1806>>>" ++ check (runes_of_ascii "root packet i64_
-// trailing space 
-// trailing space 
-{ i16
-//	t
-//	t
-BodyLength,
-@rightPad (
-    )
-    repeat int16 matchKey `two words` , stringy @lengthOf( options1 )`say ""hi""` , } options
-    { int= ""CRC32"" int = 007 }
-root //
-packet o{  @tag(
-65535 )
-    repeat
-o , @rightPad// a // b
-( '0' ) zchar[ 1
-]
-i64_
-    `two words` , }
-")).
-Eval vm_compute in ("<<<M1838>>>" ++ check (runes_of_ascii "
-root
-packet matchKey {  } packet options1{ @calculatedFrom( //
-""x y"" ) repeat uint8 pack , @lengthOf( _x )@rightPad
-    ( )	@tag( // @lengthOf(
-42 ) Header
-    @calculatedFrom(  ""// no comment"" ) `a\`,char[	4294967296
-]i64_`u8 x,` ,
-    MetaDataX BodyLength,
-    //
-    match As
-    as o {
-[ ""{,}"" ] : charz
-,
-// a // b
-// trailing space 
-""packet"" // packet A { u8 x, }
-: a1
-    , 7 :// trailing space 
-len ,
-[// trailing space 
-7	]: crc ,  3
-    :u // a // b
-,
-} , @calculatedFrom(
-    """ ++ [28040; 24687]%N ++ runes_of_ascii """ )	@calculatedFrom(""CRC32"" ) // @lengthOf(
-@lengthOf(
-    u128 ) match /// triple
-len as zchar  { [""a\\""
-    , """ ++ [28040; 24687]%N ++ runes_of_ascii """ , 10
-    //x
-    , ""CRC32"" ,""" ++ [128512]%N ++ runes_of_ascii """  , 0 ] :i64_ ,
-    3
-// `tick` ""quote"" 'q'
-// trailing space 
-:
-    Pad 00	: u128 ,
-    007
-: trueish , 00:// `tick` ""quote"" 'q'
-matchKey , // " ++ [128512]%N ++ runes_of_ascii " emoji
-}
-    ,match BodyLength as Header { 0123456789
-:
-matchKey,
-    }, } MetaData u8x
-    {}
-")).
-Eval vm_compute in ("<<<M1870>>>" ++ check (runes_of_ascii "
-// a // b
-")).
-Eval vm_compute in ("<<<M1902>>>" ++ check (runes_of_ascii "
-root packet Foo { @calculatedFrom(
-""a\""b"" ) string u8x // " ++ [27880; 37322]%N ++ runes_of_ascii "
-,	repeat calculatedFrom
-// c
-//	t
-{
-trueish { i8i8 {// `tick` ""quote"" 'q'
-zchar[ 7]uint8x @lengthOf( charz )  `u8 x,`
-    , MetaDataX @lengthOf( asx) , tag @lengthOf( calculatedFrom
-    ) ,}// c
-,
-    packetx
-@lengthOf( x ),
-} // c
-, }
-    ,
-@tag(007)
-repeat	_x f32a
-// " ++ [27880; 37322]%N ++ runes_of_ascii "
-// `tick` ""quote"" 'q'
-`two words`
-    , @tag( 00) @lengthOf(  BodyLength
-    ) string
-calculatedFrom
-`a\`	, }
-    options { zchar
-=
-    // c
-    zchar[
-    //
-    7	]
-    ; u128 =char[]
-// a // b
-// " ++ [128512]%N ++ runes_of_ascii " emoji
-}")).
-Eval vm_compute in ("<<<M1934>>>" ++ check (runes_of_ascii "
-MetaData
-A {
-Logon Foo  , } packet len	{ @calculatedFrom(
-""abc"") @tag( 0 ) float32
-falsey,
-    chars Packet `crlf
-line` ,
-@leftPad ( '0'
-) string x_y_z@calculatedFrom(
-""" ++ [233]%N ++ runes_of_ascii "t" ++ [233]%N ++ runes_of_ascii """	)
-`a\`, // @lengthOf(
-@calculatedFrom( ""a\""b"" )repeat char[
-00 ] x
-    //
-    ,repeat Foo msg_type , @lengthOf(
-    _x // " ++ [27880; 37322]%N ++ runes_of_ascii "
-) char[]
-// @lengthOf(
-//x
-body @calculatedFrom( ""a	b"" ) , } options {}
-MetaData
-int{ metadata /// triple
-float , // c
-stringy	zchar, i32
-leftPad //x
+Eval vm_compute in ("<<<M14>>>" ++ check (runes_of_ascii "packet
+x_y_z{ @calculatedFrom( // `tick` ""quote"" 'q'
+""" ++ [128512]%N ++ runes_of_ascii """ ) uint16 a1 , string
+    crc //
+, char[0123456789 ]charz
 `doc`
     //x
-    ,
-float64 packetx	, uint16 o , }
+    ,//x
+match As	as packetx { ""a\""b"":
+MetaDataX , ""{,}""  : f32a
+,42 : metadata // " ++ [27880; 37322]%N ++ runes_of_ascii "
+[""1"" , 7 ]:
+chars ,  } , }  MetaData
+T
+    { //x
+uint8 f32a`
+`
+    , string MetaDataX, char[ // 50% %s
+0123456789 // @lengthOf(
+]MetaDataX `tab	here`
+    , } packet //
+uint8x	{ }	packet
+    matchKey{ @tag( 00 // c
+) @tag(
+    255
+    // `tick` ""quote"" 'q'
+    ) @calculatedFrom(
+    //	t
+    ""a	b""
+    )body @calculatedFrom( ""`tick`"" ) , // trailing space 
+@lengthOf( matchKey ) match i8i8
+as msg_type  { 00: float
+, ""{,}"" :T	} ,@rightPad
+    ( '\x00') f64 trueish,  @lengthOf(
+chars )repeat string	A ,match Z9_ // trailing space 
+as /// triple
+metadata {	[ 42
+    , ""packet""]	: charz
+7 : body// 50% %s
+7 :	Z9_ , } ,	zchar[ 00 ]  float
+`
+` , @lengthOf(
+    leftPad
+    // c
+    ) repeat x_y_z
+    metadata ,// 50% %s
+@calculatedFrom( ""a\\"")
+@calculatedFrom(
+    """ ++ [28040; 24687]%N ++ runes_of_ascii """ )match MetaDataX as Pad { ""// no comment"": pack , }, @tag(007
+)
+    /// triple
+    crc { // @lengthOf(
+Z9_ {
+u128 { repeat repeatCount trueish ,As `crlf
+line` ,repeat
+    char[ 0123456789
+    // " ++ [128512]%N ++ runes_of_ascii " emoji
+    ]uint8x ,
+string
+repeatCount,
+    } , repeat int16 i64_ , repeat
+f32a Packet ``
+,
+    }, }	,
+    }
 ")).
-Eval vm_compute in ("<<<M1966>>>" ++ check (runes_of_ascii "
-packet// trailing space 
-options1 { char[
-1
-] calculatedFrom , o
-{
-falsey	@calculatedFrom(  ""1"" ) // `tick` ""quote"" 'q'
-,} /// triple
-,@calculatedFrom(""x y"") char[] repeatCount , u32// packet A { u8 x, }
-As @lengthOf(	float ) `doc` , charz
-@lengthOf( /// triple
-body) , i8
-repeatCount @lengthOf( // a // b
-repeatCount ) `
-` , int8 u8x
-@calculatedFrom(""a	b"" ) , //
-@lengthOf( string_
-    ) uint64 T`say ""hi""` ,} MetaData  matchKey {uint8x leftPad,	} 	 ")).
-Eval vm_compute in ("<<<T1966>>>" ++ terms [mkTok 35 "packet" 2 0 false; mkTok 44 "// trailing space " 2 6 true; mkTok 42 "options1" 3 0 false; mkTok 2 "{" 3 9 false; mkTok 12 "char[" 3 11 false; mkTok 30 "1" 4 0 false; mkTok 13 "]" 5 0 false; mkTok 42 "calculatedFrom" 5 2 false; mkTok 40 "," 5 17 false; mkTok 42 "o" 5 19 false; mkTok 2 "{" 6 0 false; mkTok 42 "falsey" 7 0 false; mkTok 5 "@calculatedFrom(" 7 7 false; mkTok 31 """1""" 7 25 false; mkTok 6 ")" 7 29 false; mkTok 44 "// `tick` ""quote"" 'q'" 7 31 true; mkTok 40 "," 8 0 false; mkTok 3 "}" 8 1 false; mkTok 44 "/// triple" 8 3 true; mkTok 40 "," 9 0 false; mkTok 5 "@calculatedFrom(" 9 1 false; mkTok 31 """x y""" 9 17 false; mkTok 6 ")" 9 22 false; mkTok 16 "char[]" 9 24 false; mkTok 42 "repeatCount" 9 31 false; mkTok 40 "," 9 43 false; mkTok 22 "u32" 9 45 false; mkTok 44 "// packet A { u8 x, }" 9 48 true; mkTok 42 "As" 10 0 false; mkTok 7 "@lengthOf(" 10 3 false; mkTok 42 "float" 10 14 false; mkTok 6 ")" 10 20 false; mkTok 43 "`doc`" 10 22 false; mkTok 40 "," 10 28 false; mkTok 42 "charz" 10 30 false; mkTok 7 "@lengthOf(" 11 0 false; mkTok 44 "/// triple" 11 11 true; mkTok 42 "body" 12 0 false; mkTok 6 ")" 12 4 false; mkTok 40 "," 12 6 false; mkTok 24 "i8" 12 8 false; mkTok 42 "repeatCount" 13 0 false; mkTok 7 "@lengthOf(" 13 12 false; mkTok 44 "// a // b" 13 23 true; mkTok 42 "repeatCount" 14 0 false; mkTok 6 ")" 14 12 false; mkTok 43 (string_of_bytes [96; 10; 96]%N) 14 14 false; mkTok 40 "," 15 2 false; mkTok 24 "int8" 15 4 false; mkTok 42 "u8x" 15 9 false; mkTok 5 "@calculatedFrom(" 16 0 false; mkTok 31 (string_of_bytes [34; 97; 9; 98; 34]%N) 16 16 false; mkTok 6 ")" 16 22 false; mkTok 40 "," 16 24 false; mkTok 44 "//" 16 26 true; mkTok 7 "@lengthOf(" 17 0 false; mkTok 42 "string_" 17 11 false; mkTok 6 ")" 18 4 false; mkTok 23 "uint64" 18 6 false; mkTok 42 "T" 18 13 false; mkTok 43 "`say ""hi""`" 18 14 false; mkTok 40 "," 18 25 false; mkTok 3 "}" 18 26 false; mkTok 37 "MetaData" 18 28 false; mkTok 42 "matchKey" 18 38 false; mkTok 2 "{" 18 47 false; mkTok 42 "uint8x" 18 48 false; mkTok 42 "leftPad" 18 55 false; mkTok 40 "," 18 62 false; mkTok 3 "}" 18 64 false; mkTok 0 "<EOF>" 18 68 false] (mkPacket (mkPtok 35 "packet" 2 0 0) (Some (mkPtok 3 "}" 18 64 69)) [(DPacket (mkPacketDef (mkSpan (mkPtok 35 "packet" 2 0 0) (mkPtok 3 "}" 18 26 62)) None (mkPtok 35 "packet" 2 0 0) (mkPtok 42 "options1" 3 0 2) (mkPtok 2 "{" 3 9 3) [(mkFieldWithAttr (mkSpan (mkPtok 12 "char[" 3 11 4) (mkPtok 40 "," 5 17 8)) [] (MetaField (mkSpan (mkPtok 12 "char[" 3 11 4) (mkPtok 40 "," 5 17 8)) None (mkMetaDecl (mkSpan (mkPtok 12 "char[" 3 11 4) (mkPtok 40 "," 5 17 8)) (TyFixed (mkSpan (mkPtok 12 "char[" 3 11 4) (mkPtok 13 "]" 5 0 6)) (mkFixedString (mkSpan (mkPtok 12 "char[" 3 11 4) (mkPtok 13 "]" 5 0 6)) (mkPtok 12 "char[" 3 11 4) (mkPtok 30 "1" 4 0 5) (mkPtok 13 "]" 5 0 6))) (mkPtok 42 "calculatedFrom" 5 2 7) None (mkPtok 40 "," 5 17 8)))); (mkFieldWithAttr (mkSpan (mkPtok 42 "o" 5 19 9) (mkPtok 40 "," 9 0 19)) [] (InerObjectField (mkSpan (mkPtok 42 "o" 5 19 9) (mkPtok 40 "," 9 0 19)) None (InerObjectDecl (mkSpan (mkPtok 42 "o" 5 19 9) (mkPtok 3 "}" 8 1 17)) (mkPtok 42 "o" 5 19 9) (mkPtok 2 "{" 6 0 10) [(CheckSumField (mkSpan (mkPtok 42 "falsey" 7 0 11) (mkPtok 40 "," 8 0 16)) (mkChecksumFieldDecl (mkSpan (mkPtok 42 "falsey" 7 0 11) (mkPtok 40 "," 8 0 16)) None (mkPtok 42 "falsey" 7 0 11) (mkCalculatedFrom (mkSpan (mkPtok 5 "@calculatedFrom(" 7 7 12) (mkPtok 6 ")" 7 29 14)) (mkPtok 5 "@calculatedFrom(" 7 7 12) (mkPtok 31 """1""" 7 25 13) (mkPtok 6 ")" 7 29 14)) None (mkPtok 40 "," 8 0 16)))] (mkPtok 3 "}" 8 1 17)) (mkPtok 40 "," 9 0 19))); (mkFieldWithAttr (mkSpan (mkPtok 5 "@calculatedFrom(" 9 1 20) (mkPtok 40 "," 9 43 25)) [(FACalculatedFrom (mkSpan (mkPtok 5 "@calculatedFrom(" 9 1 20) (mkPtok 6 ")" 9 22 22)) (mkCalculatedFrom (mkSpan (mkPtok 5 "@calculatedFrom(" 9 1 20) (mkPtok 6 ")" 9 22 22)) (mkPtok 5 "@calculatedFrom(" 9 1 20) (mkPtok 31 """x y""" 9 17 21) (mkPtok 6 ")" 9 22 22)))] (MetaField (mkSpan (mkPtok 16 "char[]" 9 24 23) (mkPtok 40 "," 9 43 25)) None (mkMetaDecl (mkSpan (mkPtok 16 "char[]" 9 24 23) (mkPtok 40 "," 9 43 25)) (TyDynamic (mkSpan (mkPtok 16 "char[]" 9 24 23) (mkPtok 16 "char[]" 9 24 23)) (mkDynamicString (mkSpan (mkPtok 16 "char[]" 9 24 23) (mkPtok 16 "char[]" 9 24 23)) (mkPtok 16 "char[]" 9 24 23))) (mkPtok 42 "repeatCount" 9 31 24) None (mkPtok 40 "," 9 43 25)))); (mkFieldWithAttr (mkSpan (mkPtok 22 "u32" 9 45 26) (mkPtok 40 "," 10 28 33)) [] (LengthField (mkSpan (mkPtok 22 "u32" 9 45 26) (mkPtok 40 "," 10 28 33)) (mkLengthFieldDecl (mkSpan (mkPtok 22 "u32" 9 45 26) (mkPtok 40 "," 10 28 33)) (Some (TyBasic (mkSpan (mkPtok 22 "u32" 9 45 26) (mkPtok 22 "u32" 9 45 26)) (mkBasicType (mkSpan (mkPtok 22 "u32" 9 45 26) (mkPtok 22 "u32" 9 45 26)) (mkPtok 22 "u32" 9 45 26)))) (mkPtok 42 "As" 10 0 28) (mkLengthOf (mkSpan (mkPtok 7 "@lengthOf(" 10 3 29) (mkPtok 6 ")" 10 20 31)) (mkPtok 7 "@lengthOf(" 10 3 29) (mkPtok 42 "float" 10 14 30) (mkPtok 6 ")" 10 20 31)) (Some (mkPtok 43 "`doc`" 10 22 32)) (mkPtok 40 "," 10 28 33)))); (mkFieldWithAttr (mkSpan (mkPtok 42 "charz" 10 30 34) (mkPtok 40 "," 12 6 39)) [] (LengthField (mkSpan (mkPtok 42 "charz" 10 30 34) (mkPtok 40 "," 12 6 39)) (mkLengthFieldDecl (mkSpan (mkPtok 42 "charz" 10 30 34) (mkPtok 40 "," 12 6 39)) None (mkPtok 42 "charz" 10 30 34) (mkLengthOf (mkSpan (mkPtok 7 "@lengthOf(" 11 0 35) (mkPtok 6 ")" 12 4 38)) (mkPtok 7 "@lengthOf(" 11 0 35) (mkPtok 42 "body" 12 0 37) (mkPtok 6 ")" 12 4 38)) None (mkPtok 40 "," 12 6 39)))); (mkFieldWithAttr (mkSpan (mkPtok 24 "i8" 12 8 40) (mkPtok 40 "," 15 2 47)) [] (LengthField (mkSpan (mkPtok 24 "i8" 12 8 40) (mkPtok 40 "," 15 2 47)) (mkLengthFieldDecl (mkSpan (mkPtok 24 "i8" 12 8 40) (mkPtok 40 "," 15 2 47)) (Some (TyBasic (mkSpan (mkPtok 24 "i8" 12 8 40) (mkPtok 24 "i8" 12 8 40)) (mkBasicType (mkSpan (mkPtok 24 "i8" 12 8 40) (mkPtok 24 "i8" 12 8 40)) (mkPtok 24 "i8" 12 8 40)))) (mkPtok 42 "repeatCount" 13 0 41) (mkLengthOf (mkSpan (mkPtok 7 "@lengthOf(" 13 12 42) (mkPtok 6 ")" 14 12 45)) (mkPtok 7 "@lengthOf(" 13 12 42) (mkPtok 42 "repeatCount" 14 0 44) (mkPtok 6 ")" 14 12 45)) (Some (mkPtok 43 (string_of_bytes [96; 10; 96]%N) 14 14 46)) (mkPtok 40 "," 15 2 47)))); (mkFieldWithAttr (mkSpan (mkPtok 24 "int8" 15 4 48) (mkPtok 40 "," 16 24 53)) [] (CheckSumField (mkSpan (mkPtok 24 "int8" 15 4 48) (mkPtok 40 "," 16 24 53)) (mkChecksumFieldDecl (mkSpan (mkPtok 24 "int8" 15 4 48) (mkPtok 40 "," 16 24 53)) (Some (TyBasic (mkSpan (mkPtok 24 "int8" 15 4 48) (mkPtok 24 "int8" 15 4 48)) (mkBasicType (mkSpan (mkPtok 24 "int8" 15 4 48) (mkPtok 24 "int8" 15 4 48)) (mkPtok 24 "int8" 15 4 48)))) (mkPtok 42 "u8x" 15 9 49) (mkCalculatedFrom (mkSpan (mkPtok 5 "@calculatedFrom(" 16 0 50) (mkPtok 6 ")" 16 22 52)) (mkPtok 5 "@calculatedFrom(" 16 0 50) (mkPtok 31 (string_of_bytes [34; 97; 9; 98; 34]%N) 16 16 51) (mkPtok 6 ")" 16 22 52)) None (mkPtok 40 "," 16 24 53)))); (mkFieldWithAttr (mkSpan (mkPtok 7 "@lengthOf(" 17 0 55) (mkPtok 40 "," 18 25 61)) [(FALengthOf (mkSpan (mkPtok 7 "@lengthOf(" 17 0 55) (mkPtok 6 ")" 18 4 57)) (mkLengthOf (mkSpan (mkPtok 7 "@lengthOf(" 17 0 55) (mkPtok 6 ")" 18 4 57)) (mkPtok 7 "@lengthOf(" 17 0 55) (mkPtok 42 "string_" 17 11 56) (mkPtok 6 ")" 18 4 57)))] (MetaField (mkSpan (mkPtok 23 "uint64" 18 6 58) (mkPtok 40 "," 18 25 61)) None (mkMetaDecl (mkSpan (mkPtok 23 "uint64" 18 6 58) (mkPtok 40 "," 18 25 61)) (TyBasic (mkSpan (mkPtok 23 "uint64" 18 6 58) (mkPtok 23 "uint64" 18 6 58)) (mkBasicType (mkSpan (mkPtok 23 "uint64" 18 6 58) (mkPtok 23 "uint64" 18 6 58)) (mkPtok 23 "uint64" 18 6 58))) (mkPtok 42 "T" 18 13 59) (Some (mkPtok 43 "`say ""hi""`" 18 14 60)) (mkPtok 40 "," 18 25 61))))] (mkPtok 3 "}" 18 26 62))); (DMeta (mkMetaDef (mkSpan (mkPtok 37 "MetaData" 18 28 63) (mkPtok 3 "}" 18 64 69)) (mkPtok 37 "MetaData" 18 28 63) (mkPtok 42 "matchKey" 18 38 64) (mkPtok 2 "{" 18 47 65) [(MIRef (mkRefMetaDecl (mkSpan (mkPtok 42 "uint8x" 18 48 66) (mkPtok 40 "," 18 62 68)) (mkPtok 42 "uint8x" 18 48 66) (mkPtok 42 "leftPad" 18 55 67) None (mkPtok 40 "," 18 62 68)))] (mkPtok 3 "}" 18 64 69)))])).
-Eval vm_compute in ("<<<M1998>>>" ++ check (runes_of_ascii "packet
-i64_	{ @rightPad ( '0')
-zchar[ 0123456789 ] o
-`// not a comment`,	repeat u64
-// @lengthOf(
-// " ++ [27880; 37322]%N ++ runes_of_ascii "
-body ,
-} MetaData falsey{
-zchar[ 42
-    ]
-    calculatedFrom , Pad len `doc`, int32 a1 `doc` ,
+Eval vm_compute in ("<<<M46>>>" ++ check (runes_of_ascii "MetaData metadata {u8
+tag
+    ,
+}")).
+Eval vm_compute in ("<<<M78>>>" ++ check (runes_of_ascii "packet
+Foo
+{repeat int16 u8x,
+//
+// packet A { u8 x, }
+}	options {
 // `tick` ""quote"" 'q'
+//
+x =// packet A { u8 x, }
+0123456789 ; BodyLength
+    = zchar[	00 ] f32a =false
+    ;
+    // 50% %s
+    stringy = int32}
+    packet
+zchar {}
+")).
+Eval vm_compute in ("<<<M110>>>" ++ check (runes_of_ascii "packet
+calculatedFrom { Header @lengthOf( T
+    )
+    `" ++ [233]%N ++ runes_of_ascii "`
+,}
+root
+packet T
+{
+    @tag( 4294967296) // a // b
+string
+    string_
+// packet A { u8 x, }
+// `tick` ""quote"" 'q'
+@calculatedFrom(
+// trailing space 
+/// triple
+""""), zchar[
+007 ]  i64_, // " ++ [27880; 37322]%N ++ runes_of_ascii "
+@tag( 4294967296) msg_type	@calculatedFrom( ""1""	) ,
+x
+{
+    // c
+    Packet, }, repeat u8 T
 // c
-} packet BodyLength { match
+/// triple
+`a\` ,f32a
+// trailing space 
+//	t
+@lengthOf( float
+    // packet A { u8 x, }
+    ) , @calculatedFrom( """ ++ [233]%N ++ runes_of_ascii "t" ++ [233]%N ++ runes_of_ascii """ )match crc
+as
+repeatCount{ ""a	b"": pack, } , @calculatedFrom(
+    ""it's""
+)f64
+uint8x @lengthOf(crc ) `two words` ,
+char[] tag ,}
+")).
+Eval vm_compute in ("<<<M142>>>" ++ check (runes_of_ascii "packet
+//
+// " ++ [128512]%N ++ runes_of_ascii " emoji
+asx{ @leftPad ('\x00' )@calculatedFrom( ""{,}"" ) //
+pack
+// " ++ [128512]%N ++ runes_of_ascii " emoji
+// " ++ [128512]%N ++ runes_of_ascii " emoji
+x_y_z , Pad f32a//x
+,  repeat	zchar[/// triple
+42 /// triple
+]
+// packet A { u8 x, }
+// " ++ [128512]%N ++ runes_of_ascii " emoji
+chars `{ , }`
+, string packetx `
+`	,
+@tag( 10
+) metadata@calculatedFrom( ""x y"" )
+, uint8x //	t
+,repeat int16
+    // `tick` ""quote"" 'q'
+    pack `a\`
+    , float64 rootA// c
+,
+    /// triple
+    } packet
+// trailing space 
+// a // b
+asx//	t
+{ string_,	}root
+packet Header {
+float64 x_y_z
+    // packet A { u8 x, }
+    @calculatedFrom( ""x y""
+),
+//
+//x
+@calculatedFrom(
+""a\""b""
+) @calculatedFrom( // a // b
+""a\""b"" )
+int { zchar[ 255 ]
+    msg_type, i64_	{ stringy @lengthOf( x_y_z ) // " ++ [27880; 37322]%N ++ runes_of_ascii "
+, u
+options1`" ++ [233]%N ++ runes_of_ascii "`, repeat	f32 msg_type , float32 // trailing space 
+Foo  `two words`
+,	} , }// 50% %s
+,	uint8 asx `line1
+line2` , } MetaData
+lengthOf { char[] o `line1
+line2`
+,
+}
+")).
+Eval vm_compute in ("<<<M174>>>" ++ check (runes_of_ascii "packet
+    // `tick` ""quote"" 'q'
+    asx {
+    zchar[
+007] Pad
+`100% of %d` //x
+,
+}
+root packet u128 { char[ 65535] crc , }")).
+Eval vm_compute in ("<<<T174>>>" ++ terms [mkTok 35 "packet" 1 0 false; mkTok 44 "// `tick` ""quote"" 'q'" 2 4 true; mkTok 42 "asx" 3 4 false; mkTok 2 "{" 3 8 false; mkTok 14 "zchar[" 4 4 false; mkTok 30 "007" 5 0 false; mkTok 13 "]" 5 3 false; mkTok 42 "Pad" 5 5 false; mkTok 43 "`100% of %d`" 6 0 false; mkTok 44 "//x" 6 13 true; mkTok 40 "," 7 0 false; mkTok 3 "}" 8 0 false; mkTok 34 "root" 9 0 false; mkTok 35 "packet" 9 5 false; mkTok 42 "u128" 9 12 false; mkTok 2 "{" 9 17 false; mkTok 12 "char[" 9 19 false; mkTok 30 "65535" 9 25 false; mkTok 13 "]" 9 30 false; mkTok 42 "crc" 9 32 false; mkTok 40 "," 9 36 false; mkTok 3 "}" 9 38 false; mkTok 0 "<EOF>" 9 39 false] (mkPacket (mkPtok 35 "packet" 1 0 0) (Some (mkPtok 3 "}" 9 38 21)) [(DPacket (mkPacketDef (mkSpan (mkPtok 35 "packet" 1 0 0) (mkPtok 3 "}" 8 0 11)) None (mkPtok 35 "packet" 1 0 0) (mkPtok 42 "asx" 3 4 2) (mkPtok 2 "{" 3 8 3) [(mkFieldWithAttr (mkSpan (mkPtok 14 "zchar[" 4 4 4) (mkPtok 40 "," 7 0 10)) [] (MetaField (mkSpan (mkPtok 14 "zchar[" 4 4 4) (mkPtok 40 "," 7 0 10)) None (mkMetaDecl (mkSpan (mkPtok 14 "zchar[" 4 4 4) (mkPtok 40 "," 7 0 10)) (TyFixed (mkSpan (mkPtok 14 "zchar[" 4 4 4) (mkPtok 13 "]" 5 3 6)) (mkFixedString (mkSpan (mkPtok 14 "zchar[" 4 4 4) (mkPtok 13 "]" 5 3 6)) (mkPtok 14 "zchar[" 4 4 4) (mkPtok 30 "007" 5 0 5) (mkPtok 13 "]" 5 3 6))) (mkPtok 42 "Pad" 5 5 7) (Some (mkPtok 43 "`100% of %d`" 6 0 8)) (mkPtok 40 "," 7 0 10))))] (mkPtok 3 "}" 8 0 11))); (DPacket (mkPacketDef (mkSpan (mkPtok 34 "root" 9 0 12) (mkPtok 3 "}" 9 38 21)) (Some (mkPtok 34 "root" 9 0 12)) (mkPtok 35 "packet" 9 5 13) (mkPtok 42 "u128" 9 12 14) (mkPtok 2 "{" 9 17 15) [(mkFieldWithAttr (mkSpan (mkPtok 12 "char[" 9 19 16) (mkPtok 40 "," 9 36 20)) [] (MetaField (mkSpan (mkPtok 12 "char[" 9 19 16) (mkPtok 40 "," 9 36 20)) None (mkMetaDecl (mkSpan (mkPtok 12 "char[" 9 19 16) (mkPtok 40 "," 9 36 20)) (TyFixed (mkSpan (mkPtok 12 "char[" 9 19 16) (mkPtok 13 "]" 9 30 18)) (mkFixedString (mkSpan (mkPtok 12 "char[" 9 19 16) (mkPtok 13 "]" 9 30 18)) (mkPtok 12 "char[" 9 19 16) (mkPtok 30 "65535" 9 25 17) (mkPtok 13 "]" 9 30 18))) (mkPtok 42 "crc" 9 32 19) None (mkPtok 40 "," 9 36 20))))] (mkPtok 3 "}" 9 38 21)))])).
+Eval vm_compute in ("<<<M206>>>" ++ check (runes_of_ascii "MetaData
+x {
+_x Z9_
+`u8 x,` ,
+Z9_ matchKey,
+    u128
+    // packet A { u8 x, }
+    roots, lengthOf matchKey
+    , char[3 // @lengthOf(
+] packetx `100% of %d`
+, char[
+    7 ]
+    // c
+    options1 `doc`  ,// 50% %s
+}
+options
+{ leftPad=' '} packet roots {float32 T
+    @lengthOf( int  )
+    `" ++ [233]%N ++ runes_of_ascii "` ,
+}packet
+rootA { }")).
+Eval vm_compute in ("<<<M238>>>" ++ check (runes_of_ascii "root packet Header { @calculatedFrom( //
+""abc""
+) uint8 metadata ,
+@tag(
+65535
+    ) @tag( 3 )
+i8 charz , @calculatedFrom( """"
+) @lengthOf( A ) @leftPad( ) uint16 Z9_ ,
+repeat zchar[ // " ++ [27880; 37322]%N ++ runes_of_ascii "
+1 ] metadata
+``,u8x @calculatedFrom(	""" ++ [128512]%N ++ runes_of_ascii """ )
     //x
-    u as
-repeatCount {
-    3 :
-    Z9_ ,
-""CRC32"" : Foo ,	42//	t
-: leftPad
-, }  , Z9_
-leftPad `a\` , }
+    `{ , }` //x
+, repeat f32
+    Foo , len
+// " ++ [128512]%N ++ runes_of_ascii " emoji
+// `tick` ""quote"" 'q'
+@calculatedFrom( ""// no comment"" )
+,repeat char[ 3  ]tag, repeat zchar[ 0123456789 ]
+    asx
+,
+    u128, } options {	asx =007 ; calculatedFrom
+    = false ; uint8x= zchar[ 65535
+]
+; A=
+' '
+    } packet len
+    // `tick` ""quote"" 'q'
+    { @leftPad
+    ( ' ' )	string Pad
+    // packet A { u8 x, }
+    @calculatedFrom(""a\""b""  )	,
+    }packet stringy  {@leftPad(
+' ' ) repeat i64_ ,
+    }
+")).
+Eval vm_compute in ("<<<M270>>>" ++ check (runes_of_ascii "
+packet Header {
+As `" ++ [233]%N ++ runes_of_ascii "` , }
+")).
+Eval vm_compute in ("<<<M302>>>" ++ check (runes_of_ascii "options {
+    repeatCount = false // trailing space 
+;Packet=""{,}""
+    //
+    ; float
+    //
+    = ""`tick`"" T=char[ 007 ]  ; calculatedFrom = uint8 }
+    packet x
+{int32 options1
+@calculatedFrom(""{,}"")
+// a // b
+// c
+`tab	here` ,	match lengthOf  as  u128 { /// triple
+10 :rootA ,
+    // c
+    [
+    7//	t
+, 0	] :Header
+    ,
+// @lengthOf(
+// a // b
+3 :  i8i8 , ""1"" :falsey""`tick`"": matchKey , ""a\\"": tag , }, }")).
+Eval vm_compute in ("<<<M334>>>" ++ check (@nil rune)).
+Eval vm_compute in ("<<<M366>>>" ++ check (runes_of_ascii "/// triple
+root packet	x
+// " ++ [128512]%N ++ runes_of_ascii " emoji
+// c
+{ @lengthOf(
+calculatedFrom ) string_ @lengthOf(i8i8
+) ,
+} // @lengthOf(")).
+Eval vm_compute in ("<<<M398>>>" ++ check (runes_of_ascii "
+root packet _x{  f32a @calculatedFrom(	""{,}""
+    ) `line1
+line2` , }
+")).
+Eval vm_compute in ("<<<T398>>>" ++ terms [mkTok 34 "root" 2 0 false; mkTok 35 "packet" 2 5 false; mkTok 42 "_x" 2 12 false; mkTok 2 "{" 2 14 false; mkTok 42 "f32a" 2 17 false; mkTok 5 "@calculatedFrom(" 2 22 false; mkTok 31 """{,}""" 2 39 false; mkTok 6 ")" 3 4 false; mkTok 43 (string_of_bytes [96; 108; 105; 110; 101; 49; 10; 108; 105; 110; 101; 50; 96]%N) 3 6 false; mkTok 40 "," 4 7 false; mkTok 3 "}" 4 9 false; mkTok 0 "<EOF>" 5 0 false] (mkPacket (mkPtok 34 "root" 2 0 0) (Some (mkPtok 3 "}" 4 9 10)) [(DPacket (mkPacketDef (mkSpan (mkPtok 34 "root" 2 0 0) (mkPtok 3 "}" 4 9 10)) (Some (mkPtok 34 "root" 2 0 0)) (mkPtok 35 "packet" 2 5 1) (mkPtok 42 "_x" 2 12 2) (mkPtok 2 "{" 2 14 3) [(mkFieldWithAttr (mkSpan (mkPtok 42 "f32a" 2 17 4) (mkPtok 40 "," 4 7 9)) [] (CheckSumField (mkSpan (mkPtok 42 "f32a" 2 17 4) (mkPtok 40 "," 4 7 9)) (mkChecksumFieldDecl (mkSpan (mkPtok 42 "f32a" 2 17 4) (mkPtok 40 "," 4 7 9)) None (mkPtok 42 "f32a" 2 17 4) (mkCalculatedFrom (mkSpan (mkPtok 5 "@calculatedFrom(" 2 22 5) (mkPtok 6 ")" 3 4 7)) (mkPtok 5 "@calculatedFrom(" 2 22 5) (mkPtok 31 """{,}""" 2 39 6) (mkPtok 6 ")" 3 4 7)) (Some (mkPtok 43 (string_of_bytes [96; 108; 105; 110; 101; 49; 10; 108; 105; 110; 101; 50; 96]%N) 3 6 8)) (mkPtok 40 "," 4 7 9))))] (mkPtok 3 "}" 4 9 10)))])).
+Eval vm_compute in ("<<<M430>>>" ++ check (runes_of_ascii "// c
+root
+// c
+//x
+packet As { trueish
+    @lengthOf( A )  , @tag(42)repeat  u16
+trueish
+,
+@rightPad  (  ' '
+) i8 stringy@calculatedFrom( """ ++ [128512]%N ++ runes_of_ascii """
+    )	`crlf
+line`
+    // 50% %s
+    , calculatedFrom`tab	here`
+,
+    // " ++ [128512]%N ++ runes_of_ascii " emoji
+    i32 Logon @calculatedFrom(
+    ""CRC32""
+    ) // a // b
+, roots { matchKey @lengthOf( len  )
+    ,
+    matchKey@calculatedFrom( ""\" ++ [233]%N ++ runes_of_ascii """ ), u8x
+    @calculatedFrom(""1"" )
+    , falsey
+    // 50% %s
+    {
+    // a // b
+    repeat stringy u`" ++ [233]%N ++ runes_of_ascii "`	, repeat char[ 65535
+    ] a1
+,
+}
+// " ++ [128512]%N ++ runes_of_ascii " emoji
+//
+, }
+, @tag( /// triple
+3 )  int8 T
+    `say ""hi""`
+    , }
+")).
+Eval vm_compute in ("<<<M462>>>" ++ check (runes_of_ascii "root packet	u8x{ pack @calculatedFrom( ""it's"" )
+, }
+options	{
+    } packet// a // b
+trueish { repeat f32
+charz
+,
+//x
+// " ++ [128512]%N ++ runes_of_ascii " emoji
+@rightPad // packet A { u8 x, }
+(  '\x00' )A { uint8x@lengthOf( lengthOf ) , } ,int{ uint8
+falsey	, } ,
+@lengthOf( Z9_
+) repeat	uint8 u
+    , }
+// 50% %s
+")).
+Eval vm_compute in ("<<<M494>>>" ++ check (runes_of_ascii "
+options { leftPad= '\x00' } options
+{} packet i64_  {char[ 255 ] matchKey @lengthOf( trueish )`tab	here` ,Pad`line1
+line2`	, repeat string_,trueish @calculatedFrom(""1""//
+) `` ,
+    @leftPad
+    ( '\x00' ) zchar[ 0 ] string_ `two words`
+    // packet A { u8 x, }
+    , @tag(3 ) // packet A { u8 x, }
+x
+,}
+")).
+Eval vm_compute in ("<<<M526>>>" ++ check (runes_of_ascii "packet lengthOf{
+    }")).
+Eval vm_compute in ("<<<M558>>>" ++ check (runes_of_ascii "options { }
+    packet roots { leftPad
+    falsey , char[
+1// c
+]
+u8x ,
+crc{charz
+asx, }
+    , }
+")).
+Eval vm_compute in ("<<<M590>>>" ++ check (runes_of_ascii "packet chars{}
+    //x
+    packet u8x {
+} packet	f32a //	t
+{ zchar[ 007 ]
+falsey , @calculatedFrom( ""x y"" )repeat calculatedFrom
+    {string_ @lengthOf(float)
+,
+},
+    @calculatedFrom(	""x y"")  @calculatedFrom( """ ++ [28040; 24687]%N ++ runes_of_ascii """)
+    @rightPad
+( ' ' ) float @lengthOf(
+    pack
+)
+`it's` // " ++ [128512]%N ++ runes_of_ascii " emoji
+, uint8x roots // packet A { u8 x, }
+, @calculatedFrom( ""\n"" ) @lengthOf(	chars  )
+@lengthOf( zchar )repeat As charz
+, u64 BodyLength@lengthOf( BodyLength)//
+, zchar[
+7 ]f32a `100% of %d` ,
+repeat
+Pad { repeat
+Foo{
+    repeat
+u64
+len ``, char
+repeatCount
+    // @lengthOf(
+    `" ++ [28040; 24687; 31867; 22411]%N ++ runes_of_ascii "`
+, // `tick` ""quote"" 'q'
+i32 Packet @lengthOf( string_ ) , } , f32 // `tick` ""quote"" 'q'
+int @calculatedFrom( """ ++ [128512]%N ++ runes_of_ascii """  ) , zchar[10
+    ]i8i8 ,  }//
+,}packet stringy	{ @tag(
+    3 )
+    @lengthOf(Header)
+    //	t
+    @lengthOf( repeatCount
+    )As A , @lengthOf( i8i8
+) zchar[ 0]
+    MetaDataX
+`` ,}
+")).
+Eval vm_compute in ("<<<M622>>>" ++ check (runes_of_ascii "packet repeatCount
+{ char[
+    00 ] uint8x ,
+    // a // b
+    @calculatedFrom(
+""a\\"" ) asx
+    @lengthOf( charz ) ,} packet string_
+{ @calculatedFrom( ""it's"" )repeat
+// 50% %s
+//
+char[]BodyLength , @calculatedFrom(
+""abc"") int32	x,@tag( 255 ) @calculatedFrom( """ ++ [28040; 24687]%N ++ runes_of_ascii """ ) @tag(
+0123456789	) char[ 65535 // `tick` ""quote"" 'q'
+] len	, @tag( 0123456789	) @lengthOf( stringy ) int
+/// triple
+/// triple
+, @tag(
+// `tick` ""quote"" 'q'
+//	t
+65535) MetaDataX { A `it's`,
+float64 options1
+@calculatedFrom(
+""// no comment"" )
+    , } , @rightPad ( '\x00'
+    ) zchar[ 007
+    ] rootA @lengthOf( lengthOf )
+`" ++ [28040; 24687; 31867; 22411]%N ++ runes_of_ascii "`
+/// triple
+// @lengthOf(
+,	@lengthOf( crc ) repeat	string charz,
+    @tag(1 ) repeat a1 ,
+    }")).
+Eval vm_compute in ("<<<T622>>>" ++ terms [mkTok 35 "packet" 1 0 false; mkTok 42 "repeatCount" 1 7 false; mkTok 2 "{" 2 0 false; mkTok 12 "char[" 2 2 false; mkTok 30 "00" 3 4 false; mkTok 13 "]" 3 7 false; mkTok 42 "uint8x" 3 9 false; mkTok 40 "," 3 16 false; mkTok 44 "// a // b" 4 4 true; mkTok 5 "@calculatedFrom(" 5 4 false; mkTok 31 """a\\""" 6 0 false; mkTok 6 ")" 6 6 false; mkTok 42 "asx" 6 8 false; mkTok 7 "@lengthOf(" 7 4 false; mkTok 42 "charz" 7 15 false; mkTok 6 ")" 7 21 false; mkTok 40 "," 7 23 false; mkTok 3 "}" 7 24 false; mkTok 35 "packet" 7 26 false; mkTok 42 "string_" 7 33 false; mkTok 2 "{" 8 0 false; mkTok 5 "@calculatedFrom(" 8 2 false; mkTok 31 """it's""" 8 19 false; mkTok 6 ")" 8 26 false; mkTok 36 "repeat" 8 27 false; mkTok 44 "// 50% %s" 9 0 true; mkTok 44 "//" 10 0 true; mkTok 16 "char[]" 11 0 false; mkTok 42 "BodyLength" 11 6 false; mkTok 40 "," 11 17 false; mkTok 5 "@calculatedFrom(" 11 19 false; mkTok 31 """abc""" 12 0 false; mkTok 6 ")" 12 5 false; mkTok 26 "int32" 12 7 false; mkTok 42 "x" 12 13 false; mkTok 40 "," 12 14 false; mkTok 9 "@tag(" 12 15 false; mkTok 30 "255" 12 21 false; mkTok 6 ")" 12 25 false; mkTok 5 "@calculatedFrom(" 12 27 false; mkTok 31 (string_of_bytes [34; 230; 182; 136; 230; 129; 175; 34]%N) 12 44 false; mkTok 6 ")" 12 49 false; mkTok 9 "@tag(" 12 51 false; mkTok 30 "0123456789" 13 0 false; mkTok 6 ")" 13 11 false; mkTok 12 "char[" 13 13 false; mkTok 30 "65535" 13 19 false; mkTok 44 "// `tick` ""quote"" 'q'" 13 25 true; mkTok 13 "]" 14 0 false; mkTok 42 "len" 14 2 false; mkTok 40 "," 14 6 false; mkTok 9 "@tag(" 14 8 false; mkTok 30 "0123456789" 14 14 false; mkTok 6 ")" 14 25 false; mkTok 7 "@lengthOf(" 14 27 false; mkTok 42 "stringy" 14 38 false; mkTok 6 ")" 14 46 false; mkTok 42 "int" 14 48 false; mkTok 44 "/// triple" 15 0 true; mkTok 44 "/// triple" 16 0 true; mkTok 40 "," 17 0 false; mkTok 9 "@tag(" 17 2 false; mkTok 44 "// `tick` ""quote"" 'q'" 18 0 true; mkTok 44 (string_of_bytes [47; 47; 9; 116]%N) 19 0 true; mkTok 30 "65535" 20 0 false; mkTok 6 ")" 20 5 false; mkTok 42 "MetaDataX" 20 7 false; mkTok 2 "{" 20 17 false; mkTok 42 "A" 20 19 false; mkTok 43 "`it's`" 20 21 false; mkTok 40 "," 20 27 false; mkTok 29 "float64" 21 0 false; mkTok 42 "options1" 21 8 false; mkTok 5 "@calculatedFrom(" 22 0 false; mkTok 31 """// no comment""" 23 0 false; mkTok 6 ")" 23 16 false; mkTok 40 "," 24 4 false; mkTok 3 "}" 24 6 false; mkTok 40 "," 24 8 false; mkTok 32 "@rightPad" 24 10 false; mkTok 8 "(" 24 20 false; mkTok 33 "'\x00'" 24 22 false; mkTok 6 ")" 25 4 false; mkTok 14 "zchar[" 25 6 false; mkTok 30 "007" 25 13 false; mkTok 13 "]" 26 4 false; mkTok 42 "rootA" 26 6 false; mkTok 7 "@lengthOf(" 26 12 false; mkTok 42 "lengthOf" 26 23 false; mkTok 6 ")" 26 32 false; mkTok 43 (string_of_bytes [96; 230; 182; 136; 230; 129; 175; 231; 177; 187; 229; 158; 139; 96]%N) 27 0 false; mkTok 44 "/// triple" 28 0 true; mkTok 44 "// @lengthOf(" 29 0 true; mkTok 40 "," 30 0 false; mkTok 7 "@lengthOf(" 30 2 false; mkTok 42 "crc" 30 13 false; mkTok 6 ")" 30 17 false; mkTok 36 "repeat" 30 19 false; mkTok 15 "string" 30 26 false; mkTok 42 "charz" 30 33 false; mkTok 40 "," 30 38 false; mkTok 9 "@tag(" 31 4 false; mkTok 30 "1" 31 9 false; mkTok 6 ")" 31 11 false; mkTok 36 "repeat" 31 13 false; mkTok 42 "a1" 31 20 false; mkTok 40 "," 31 23 false; mkTok 3 "}" 32 4 false; mkTok 0 "<EOF>" 32 5 false] (mkPacket (mkPtok 35 "packet" 1 0 0) (Some (mkPtok 3 "}" 32 4 107)) [(DPacket (mkPacketDef (mkSpan (mkPtok 35 "packet" 1 0 0) (mkPtok 3 "}" 7 24 17)) None (mkPtok 35 "packet" 1 0 0) (mkPtok 42 "repeatCount" 1 7 1) (mkPtok 2 "{" 2 0 2) [(mkFieldWithAttr (mkSpan (mkPtok 12 "char[" 2 2 3) (mkPtok 40 "," 3 16 7)) [] (MetaField (mkSpan (mkPtok 12 "char[" 2 2 3) (mkPtok 40 "," 3 16 7)) None (mkMetaDecl (mkSpan (mkPtok 12 "char[" 2 2 3) (mkPtok 40 "," 3 16 7)) (TyFixed (mkSpan (mkPtok 12 "char[" 2 2 3) (mkPtok 13 "]" 3 7 5)) (mkFixedString (mkSpan (mkPtok 12 "char[" 2 2 3) (mkPtok 13 "]" 3 7 5)) (mkPtok 12 "char[" 2 2 3) (mkPtok 30 "00" 3 4 4) (mkPtok 13 "]" 3 7 5))) (mkPtok 42 "uint8x" 3 9 6) None (mkPtok 40 "," 3 16 7)))); (mkFieldWithAttr (mkSpan (mkPtok 5 "@calculatedFrom(" 5 4 9) (mkPtok 40 "," 7 23 16)) [(FACalculatedFrom (mkSpan (mkPtok 5 "@calculatedFrom(" 5 4 9) (mkPtok 6 ")" 6 6 11)) (mkCalculatedFrom (mkSpan (mkPtok 5 "@calculatedFrom(" 5 4 9) (mkPtok 6 ")" 6 6 11)) (mkPtok 5 "@calculatedFrom(" 5 4 9) (mkPtok 31 """a\\""" 6 0 10) (mkPtok 6 ")" 6 6 11)))] (LengthField (mkSpan (mkPtok 42 "asx" 6 8 12) (mkPtok 40 "," 7 23 16)) (mkLengthFieldDecl (mkSpan (mkPtok 42 "asx" 6 8 12) (mkPtok 40 "," 7 23 16)) None (mkPtok 42 "asx" 6 8 12) (mkLengthOf (mkSpan (mkPtok 7 "@lengthOf(" 7 4 13) (mkPtok 6 ")" 7 21 15)) (mkPtok 7 "@lengthOf(" 7 4 13) (mkPtok 42 "charz" 7 15 14) (mkPtok 6 ")" 7 21 15)) None (mkPtok 40 "," 7 23 16))))] (mkPtok 3 "}" 7 24 17))); (DPacket (mkPacketDef (mkSpan (mkPtok 35 "packet" 7 26 18) (mkPtok 3 "}" 32 4 107)) None (mkPtok 35 "packet" 7 26 18) (mkPtok 42 "string_" 7 33 19) (mkPtok 2 "{" 8 0 20) [(mkFieldWithAttr (mkSpan (mkPtok 5 "@calculatedFrom(" 8 2 21) (mkPtok 40 "," 11 17 29)) [(FACalculatedFrom (mkSpan (mkPtok 5 "@calculatedFrom(" 8 2 21) (mkPtok 6 ")" 8 26 23)) (mkCalculatedFrom (mkSpan (mkPtok 5 "@calculatedFrom(" 8 2 21) (mkPtok 6 ")" 8 26 23)) (mkPtok 5 "@calculatedFrom(" 8 2 21) (mkPtok 31 """it's""" 8 19 22) (mkPtok 6 ")" 8 26 23)))] (MetaField (mkSpan (mkPtok 36 "repeat" 8 27 24) (mkPtok 40 "," 11 17 29)) (Some (mkPtok 36 "repeat" 8 27 24)) (mkMetaDecl (mkSpan (mkPtok 16 "char[]" 11 0 27) (mkPtok 40 "," 11 17 29)) (TyDynamic (mkSpan (mkPtok 16 "char[]" 11 0 27) (mkPtok 16 "char[]" 11 0 27)) (mkDynamicString (mkSpan (mkPtok 16 "char[]" 11 0 27) (mkPtok 16 "char[]" 11 0 27)) (mkPtok 16 "char[]" 11 0 27))) (mkPtok 42 "BodyLength" 11 6 28) None (mkPtok 40 "," 11 17 29)))); (mkFieldWithAttr (mkSpan (mkPtok 5 "@calculatedFrom(" 11 19 30) (mkPtok 40 "," 12 14 35)) [(FACalculatedFrom (mkSpan (mkPtok 5 "@calculatedFrom(" 11 19 30) (mkPtok 6 ")" 12 5 32)) (mkCalculatedFrom (mkSpan (mkPtok 5 "@calculatedFrom(" 11 19 30) (mkPtok 6 ")" 12 5 32)) (mkPtok 5 "@calculatedFrom(" 11 19 30) (mkPtok 31 """abc""" 12 0 31) (mkPtok 6 ")" 12 5 32)))] (MetaField (mkSpan (mkPtok 26 "int32" 12 7 33) (mkPtok 40 "," 12 14 35)) None (mkMetaDecl (mkSpan (mkPtok 26 "int32" 12 7 33) (mkPtok 40 "," 12 14 35)) (TyBasic (mkSpan (mkPtok 26 "int32" 12 7 33) (mkPtok 26 "int32" 12 7 33)) (mkBasicType (mkSpan (mkPtok 26 "int32" 12 7 33) (mkPtok 26 "int32" 12 7 33)) (mkPtok 26 "int32" 12 7 33))) (mkPtok 42 "x" 12 13 34) None (mkPtok 40 "," 12 14 35)))); (mkFieldWithAttr (mkSpan (mkPtok 9 "@tag(" 12 15 36) (mkPtok 40 "," 14 6 50)) [(FATag (mkSpan (mkPtok 9 "@tag(" 12 15 36) (mkPtok 6 ")" 12 25 38)) (mkTagAttr (mkSpan (mkPtok 9 "@tag(" 12 15 36) (mkPtok 6 ")" 12 25 38)) (mkPtok 9 "@tag(" 12 15 36) (mkPtok 30 "255" 12 21 37) (mkPtok 6 ")" 12 25 38))); (FACalculatedFrom (mkSpan (mkPtok 5 "@calculatedFrom(" 12 27 39) (mkPtok 6 ")" 12 49 41)) (mkCalculatedFrom (mkSpan (mkPtok 5 "@calculatedFrom(" 12 27 39) (mkPtok 6 ")" 12 49 41)) (mkPtok 5 "@calculatedFrom(" 12 27 39) (mkPtok 31 (string_of_bytes [34; 230; 182; 136; 230; 129; 175; 34]%N) 12 44 40) (mkPtok 6 ")" 12 49 41))); (FATag (mkSpan (mkPtok 9 "@tag(" 12 51 42) (mkPtok 6 ")" 13 11 44)) (mkTagAttr (mkSpan (mkPtok 9 "@tag(" 12 51 42) (mkPtok 6 ")" 13 11 44)) (mkPtok 9 "@tag(" 12 51 42) (mkPtok 30 "0123456789" 13 0 43) (mkPtok 6 ")" 13 11 44)))] (MetaField (mkSpan (mkPtok 12 "char[" 13 13 45) (mkPtok 40 "," 14 6 50)) None (mkMetaDecl (mkSpan (mkPtok 12 "char[" 13 13 45) (mkPtok 40 "," 14 6 50)) (TyFixed (mkSpan (mkPtok 12 "char[" 13 13 45) (mkPtok 13 "]" 14 0 48)) (mkFixedString (mkSpan (mkPtok 12 "char[" 13 13 45) (mkPtok 13 "]" 14 0 48)) (mkPtok 12 "char[" 13 13 45) (mkPtok 30 "65535" 13 19 46) (mkPtok 13 "]" 14 0 48))) (mkPtok 42 "len" 14 2 49) None (mkPtok 40 "," 14 6 50)))); (mkFieldWithAttr (mkSpan (mkPtok 9 "@tag(" 14 8 51) (mkPtok 40 "," 17 0 60)) [(FATag (mkSpan (mkPtok 9 "@tag(" 14 8 51) (mkPtok 6 ")" 14 25 53)) (mkTagAttr (mkSpan (mkPtok 9 "@tag(" 14 8 51) (mkPtok 6 ")" 14 25 53)) (mkPtok 9 "@tag(" 14 8 51) (mkPtok 30 "0123456789" 14 14 52) (mkPtok 6 ")" 14 25 53))); (FALengthOf (mkSpan (mkPtok 7 "@lengthOf(" 14 27 54) (mkPtok 6 ")" 14 46 56)) (mkLengthOf (mkSpan (mkPtok 7 "@lengthOf(" 14 27 54) (mkPtok 6 ")" 14 46 56)) (mkPtok 7 "@lengthOf(" 14 27 54) (mkPtok 42 "stringy" 14 38 55) (mkPtok 6 ")" 14 46 56)))] (ObjectField (mkSpan (mkPtok 42 "int" 14 48 57) (mkPtok 40 "," 17 0 60)) None (mkPtok 42 "int" 14 48 57) None None (mkPtok 40 "," 17 0 60))); (mkFieldWithAttr (mkSpan (mkPtok 9 "@tag(" 17 2 61) (mkPtok 40 "," 24 8 78)) [(FATag (mkSpan (mkPtok 9 "@tag(" 17 2 61) (mkPtok 6 ")" 20 5 65)) (mkTagAttr (mkSpan (mkPtok 9 "@tag(" 17 2 61) (mkPtok 6 ")" 20 5 65)) (mkPtok 9 "@tag(" 17 2 61) (mkPtok 30 "65535" 20 0 64) (mkPtok 6 ")" 20 5 65)))] (InerObjectField (mkSpan (mkPtok 42 "MetaDataX" 20 7 66) (mkPtok 40 "," 24 8 78)) None (InerObjectDecl (mkSpan (mkPtok 42 "MetaDataX" 20 7 66) (mkPtok 3 "}" 24 6 77)) (mkPtok 42 "MetaDataX" 20 7 66) (mkPtok 2 "{" 20 17 67) [(ObjectField (mkSpan (mkPtok 42 "A" 20 19 68) (mkPtok 40 "," 20 27 70)) None (mkPtok 42 "A" 20 19 68) None (Some (mkPtok 43 "`it's`" 20 21 69)) (mkPtok 40 "," 20 27 70)); (CheckSumField (mkSpan (mkPtok 29 "float64" 21 0 71) (mkPtok 40 "," 24 4 76)) (mkChecksumFieldDecl (mkSpan (mkPtok 29 "float64" 21 0 71) (mkPtok 40 "," 24 4 76)) (Some (TyBasic (mkSpan (mkPtok 29 "float64" 21 0 71) (mkPtok 29 "float64" 21 0 71)) (mkBasicType (mkSpan (mkPtok 29 "float64" 21 0 71) (mkPtok 29 "float64" 21 0 71)) (mkPtok 29 "float64" 21 0 71)))) (mkPtok 42 "options1" 21 8 72) (mkCalculatedFrom (mkSpan (mkPtok 5 "@calculatedFrom(" 22 0 73) (mkPtok 6 ")" 23 16 75)) (mkPtok 5 "@calculatedFrom(" 22 0 73) (mkPtok 31 """// no comment""" 23 0 74) (mkPtok 6 ")" 23 16 75)) None (mkPtok 40 "," 24 4 76)))] (mkPtok 3 "}" 24 6 77)) (mkPtok 40 "," 24 8 78))); (mkFieldWithAttr (mkSpan (mkPtok 32 "@rightPad" 24 10 79) (mkPtok 40 "," 30 0 93)) [(FAPadding (mkSpan (mkPtok 32 "@rightPad" 24 10 79) (mkPtok 6 ")" 25 4 82)) (mkPaddingAttr (mkSpan (mkPtok 32 "@rightPad" 24 10 79) (mkPtok 6 ")" 25 4 82)) (mkPtok 32 "@rightPad" 24 10 79) (mkPtok 8 "(" 24 20 80) (Some (mkPtok 33 "'\x00'" 24 22 81)) (mkPtok 6 ")" 25 4 82)))] (LengthField (mkSpan (mkPtok 14 "zchar[" 25 6 83) (mkPtok 40 "," 30 0 93)) (mkLengthFieldDecl (mkSpan (mkPtok 14 "zchar[" 25 6 83) (mkPtok 40 "," 30 0 93)) (Some (TyFixed (mkSpan (mkPtok 14 "zchar[" 25 6 83) (mkPtok 13 "]" 26 4 85)) (mkFixedString (mkSpan (mkPtok 14 "zchar[" 25 6 83) (mkPtok 13 "]" 26 4 85)) (mkPtok 14 "zchar[" 25 6 83) (mkPtok 30 "007" 25 13 84) (mkPtok 13 "]" 26 4 85)))) (mkPtok 42 "rootA" 26 6 86) (mkLengthOf (mkSpan (mkPtok 7 "@lengthOf(" 26 12 87) (mkPtok 6 ")" 26 32 89)) (mkPtok 7 "@lengthOf(" 26 12 87) (mkPtok 42 "lengthOf" 26 23 88) (mkPtok 6 ")" 26 32 89)) (Some (mkPtok 43 (string_of_bytes [96; 230; 182; 136; 230; 129; 175; 231; 177; 187; 229; 158; 139; 96]%N) 27 0 90)) (mkPtok 40 "," 30 0 93)))); (mkFieldWithAttr (mkSpan (mkPtok 7 "@lengthOf(" 30 2 94) (mkPtok 40 "," 30 38 100)) [(FALengthOf (mkSpan (mkPtok 7 "@lengthOf(" 30 2 94) (mkPtok 6 ")" 30 17 96)) (mkLengthOf (mkSpan (mkPtok 7 "@lengthOf(" 30 2 94) (mkPtok 6 ")" 30 17 96)) (mkPtok 7 "@lengthOf(" 30 2 94) (mkPtok 42 "crc" 30 13 95) (mkPtok 6 ")" 30 17 96)))] (MetaField (mkSpan (mkPtok 36 "repeat" 30 19 97) (mkPtok 40 "," 30 38 100)) (Some (mkPtok 36 "repeat" 30 19 97)) (mkMetaDecl (mkSpan (mkPtok 15 "string" 30 26 98) (mkPtok 40 "," 30 38 100)) (TyDynamic (mkSpan (mkPtok 15 "string" 30 26 98) (mkPtok 15 "string" 30 26 98)) (mkDynamicString (mkSpan (mkPtok 15 "string" 30 26 98) (mkPtok 15 "string" 30 26 98)) (mkPtok 15 "string" 30 26 98))) (mkPtok 42 "charz" 30 33 99) None (mkPtok 40 "," 30 38 100)))); (mkFieldWithAttr (mkSpan (mkPtok 9 "@tag(" 31 4 101) (mkPtok 40 "," 31 23 106)) [(FATag (mkSpan (mkPtok 9 "@tag(" 31 4 101) (mkPtok 6 ")" 31 11 103)) (mkTagAttr (mkSpan (mkPtok 9 "@tag(" 31 4 101) (mkPtok 6 ")" 31 11 103)) (mkPtok 9 "@tag(" 31 4 101) (mkPtok 30 "1" 31 9 102) (mkPtok 6 ")" 31 11 103)))] (ObjectField (mkSpan (mkPtok 36 "repeat" 31 13 104) (mkPtok 40 "," 31 23 106)) (Some (mkPtok 36 "repeat" 31 13 104)) (mkPtok 42 "a1" 31 20 105) None None (mkPtok 40 "," 31 23 106)))] (mkPtok 3 "}" 32 4 107)))])).
+Eval vm_compute in ("<<<M654>>>" ++ check (runes_of_ascii "options
+// " ++ [27880; 37322]%N ++ runes_of_ascii "
+// 50% %s
+{  a1	=""\n""
+Z9_ = char[ 4294967296 ] metadata=	char[] ; As = u32  ; } //")).
+Eval vm_compute in ("<<<M686>>>" ++ check (runes_of_ascii "MetaData Packet // @lengthOf(
+{
+calculatedFrom
+    msg_type ,
+    char[ 42
+]
+    u8x , //x
+} packet body{
+    } packet i64_	{ @calculatedFrom(
+    ""// no comment"" ) a1
+`" ++ [233]%N ++ runes_of_ascii "`,
+}packet BodyLength{charz @lengthOf( chars ) , @calculatedFrom(
+""abc"" ) repeat  u32 falsey ,
+    @calculatedFrom( ""a	b"" )	@lengthOf( T
+    // " ++ [27880; 37322]%N ++ runes_of_ascii "
+    )
+f32 A@lengthOf( /// triple
+packetx)
+`// not a comment`
+// " ++ [128512]%N ++ runes_of_ascii " emoji
+//x
+, @rightPad
+    // packet A { u8 x, }
+    ( )metadata `// not a comment` , repeat repeatCount f32a	,@tag(007
+)
+@calculatedFrom(
+    ""{,}"" )
+    //
+    string
+    // `tick` ""quote"" 'q'
+    options1, int16 zchar	, }
+")).
+Eval vm_compute in ("<<<M718>>>" ++ check (runes_of_ascii "packet charz{ @tag( 7
+)@tag( //	t
+4294967296)
+    @lengthOf( trueish )
+    repeat uint64 metadata `line1
+line2` , } options{ T=true;
+    } packet tag {}")).
+Eval vm_compute in ("<<<M750>>>" ++ check (runes_of_ascii "packet f32a {// trailing space 
+} packet // trailing space 
+As
+{ string // @lengthOf(
+roots @calculatedFrom( // 50% %s
+""a\""b""
+    )
+    , repeat leftPad
+    { int32	As ,// " ++ [27880; 37322]%N ++ runes_of_ascii "
+} ,  Logon
+int
+`crlf
+line` , @leftPad ( '\x00' ) @tag(
+    65535 )
+@calculatedFrom( ""a	b"" )
+    u32 f32a @calculatedFrom(
+""packet""
+) `u8 x,` // a // b
+,
+    } /// triple")).
+Eval vm_compute in ("<<<M782>>>" ++ check (runes_of_ascii "options	{ }
+packet tag{ repeat
+string msg_type , i64	float `it's` , @rightPad ('0'	)@lengthOf(
+    MetaDataX  ) body , match Header as leftPad {	42: Header ,} , @calculatedFrom(	""" ++ [233]%N ++ runes_of_ascii "t" ++ [233]%N ++ runes_of_ascii """) string
+matchKey
+, @rightPad (	'\x00')
+char[] matchKey
+    @lengthOf(	crc )
+`tab	here` , uint64
+    charz
+``
+    ,	}
+packet u128
+{ u64 A
+    `tab	here` ,
+    } root packet i8i8
+    { } // `tick` ""quote"" 'q'")).
+Eval vm_compute in ("<<<M814>>>" ++ check (runes_of_ascii "//x
+root packet  uint8x {	@lengthOf( int
+)@lengthOf( metadata )@lengthOf(  pack ) asx @lengthOf( trueish)
+// 50% %s
+//x
+,}packet int{ match Logon as chars {""packet"": Packet ,
+    ""{,}"" :  x, } ,msg_type `two words` , uint8 i8i8 `u8 x,` , @tag( 007
+    ) @calculatedFrom(
+""" ++ [128512]%N ++ runes_of_ascii """
+    // `tick` ""quote"" 'q'
+    )
+@tag(
+    3 // " ++ [27880; 37322]%N ++ runes_of_ascii "
+) zchar[//	t
+255 ] charz @lengthOf( falsey ),  u8
+    crc
+    @calculatedFrom(
+    ""it's"")
+    `say ""hi""` ,Logon i8i8
+    ,
+    u64 f32a , tag A`` ,i64_@calculatedFrom(
+""" ++ [233]%N ++ runes_of_ascii "t" ++ [233]%N ++ runes_of_ascii """
+) // @lengthOf(
+`u8 x,`, @tag( 007 ) repeat
+    metadata , } packet i64_
+    {} options { BodyLength =
+    255  }")).
+Eval vm_compute in ("<<<M846>>>" ++ check (runes_of_ascii "MetaData options1 {Packet roots ,
+    }
+")).
+Eval vm_compute in ("<<<T846>>>" ++ terms [mkTok 37 "MetaData" 1 0 false; mkTok 42 "options1" 1 9 false; mkTok 2 "{" 1 18 false; mkTok 42 "Packet" 1 19 false; mkTok 42 "roots" 1 26 false; mkTok 40 "," 1 32 false; mkTok 3 "}" 2 4 false; mkTok 0 "<EOF>" 3 0 false] (mkPacket (mkPtok 37 "MetaData" 1 0 0) (Some (mkPtok 3 "}" 2 4 6)) [(DMeta (mkMetaDef (mkSpan (mkPtok 37 "MetaData" 1 0 0) (mkPtok 3 "}" 2 4 6)) (mkPtok 37 "MetaData" 1 0 0) (mkPtok 42 "options1" 1 9 1) (mkPtok 2 "{" 1 18 2) [(MIRef (mkRefMetaDecl (mkSpan (mkPtok 42 "Packet" 1 19 3) (mkPtok 40 "," 1 32 5)) (mkPtok 42 "Packet" 1 19 3) (mkPtok 42 "roots" 1 26 4) None (mkPtok 40 "," 1 32 5)))] (mkPtok 3 "}" 2 4 6)))])).
+Eval vm_compute in ("<<<M878>>>" ++ check (runes_of_ascii "packet len // 50% %s
+{
+    @calculatedFrom(""it's"" )
+calculatedFrom/// triple
+msg_type,
+}options {zchar = 3; T
+    = """ ++ [28040; 24687]%N ++ runes_of_ascii """ ;  x = char[ // 50% %s
+3] Foo=false ;
+} options {zchar= ""`tick`"" ;T =
+    true
+Packet
+=
+    ' ' }options { A= ""\n""
+    ;  roots = ""1""
+    ;lengthOf= 0 ;	metadata
+    // " ++ [128512]%N ++ runes_of_ascii " emoji
+    =0123456789 }
 
 ")).
-Eval vm_compute in ("<<<M2030>>>" ++ check (runes_of_ascii "options{ i64_ = string string ; trueish =
-    '\x00'
-    leftPad = ""a\\"" /// triple
-; crc
-    = 255; uint8x
-=
-""abc""
-    ;}")).
-Eval vm_compute in ("<<<M2062>>>" ++ check (runes_of_ascii "options{ i64_ = string ; trueish =
-    '\x00'
-    leftPad as ""a\\"" /// triple
-; crc
-    = 255; uint8x
-=
-""abc""
-    ;}")).
-Eval vm_compute in ("<<<M2094>>>" ++ check (runes_of_ascii "options{ i64_ = string ; trueish =
-    '\x00'
-    leftPad = ""a\\"" /// triple
-; crc
-    = 255; 
-=
-""abc""
-    ;}")).
-Eval vm_compute in ("<<<M2126>>>" ++ check (runes_of_ascii "options{ i6~4_ = string ; trueish =
-    '\x00'
-    leftPad = ""a\\"" /// triple
-; crc
-    = 255; uint8x
-=
-""abc""
-    ;}")).
-Eval vm_compute in ("<<<M2158>>>" ++ check (runes_of_ascii "  packet
-asx
-{
-/// triple
-// @lengthOf(
-, stringy
-`" ++ [28040; 24687; 31867; 22411]%N ++ runes_of_ascii "` ,} MetaData
-    A {string  _x, zchar Header `a\`
-// @lengthOf(
-// packet A { u8 x, }
-, char[] MetaDataX
-,zchar[ 1 ]
-    matchKey
-    , char[] //
-u,	char[0123456789 ]
-    matchKey
-    `{ , }`, }
+Eval vm_compute in ("<<<M910>>>" ++ check (runes_of_ascii "//x
+
 ")).
-Eval vm_compute in ("<<<M2190>>>" ++ check (runes_of_ascii "  packet
-asx
-{
+Eval vm_compute in ("<<<M942>>>" ++ check (runes_of_ascii "packet uint8x{
+//	t
+// 50% %s
+@tag(  0 )repeat MetaDataX {
+match
+    tag /// triple
+as
+T {  ""packet"": i8i8 ,
+[
+    ""\n"" /// triple
+] :
+    tag ,} , repeat
+i32
+    //	t
+    trueish `say ""hi""` , }
 /// triple
-// @lengthOf(
-u32 stringy
-`" ++ [28040; 24687; 31867; 22411]%N ++ runes_of_ascii "` ,} MetaData
-    A string  _x, zchar Header `a\`
-// @lengthOf(
+// " ++ [128512]%N ++ runes_of_ascii " emoji
+, // a // b
+}
+packet options1
+{
+match
+As as  lengthOf//x
+{ [ // 50% %s
+65535
+    , // packet A { u8 x, }
+42
 // packet A { u8 x, }
-, char[] MetaDataX
-,zchar[ 1 ]
-    matchKey
-    , char[] //
-u,	char[0123456789 ]
-    matchKey
-    `{ , }`, }
+// @lengthOf(
+,""it's""  , """ ++ [233]%N ++ runes_of_ascii "t" ++ [233]%N ++ runes_of_ascii """ ,
+    0,""1"" ]: i8i8  ,""a\""b""
+: body, 00 : MetaDataX // 50% %s
+, //x
+[00
+]// " ++ [27880; 37322]%N ++ runes_of_ascii "
+: u8x , }, }")).
+Eval vm_compute in ("<<<M974>>>" ++ check (runes_of_ascii "options	{
+lengthOf
+    =
+    """ ++ [233]%N ++ runes_of_ascii "t" ++ [233]%N ++ runes_of_ascii """
+// 50% %s
+//x
+; } packet// packet A { u8 x, }
+i8i8 { match stringy as a1 { 42 : i64_ 10  : chars  , } , @tag( 255  ) f64
+    // 50% %s
+    MetaDataX , @calculatedFrom( ""it's"" )@rightPad(
+) @tag( 255
+)
+u32  metadata
+// trailing space 
+//
+@calculatedFrom( ""a\""b"" )
+, i64_ zchar , char[
+    42 ]
+    //	t
+    BodyLength `
+`, // packet A { u8 x, }
+zchar[ 0123456789 ] stringy @lengthOf( crc ), @rightPad( '0' )
+u As , f32
+    int , repeat msg_type `it's` , } root
+packet crc	{	repeat zchar[007 ]
+    MetaDataX
+,u
+    roots	, @calculatedFrom(
+    """" )
+    match// " ++ [27880; 37322]%N ++ runes_of_ascii "
+i64_
+as u128 { [ // a // b
+""" ++ [28040; 24687]%N ++ runes_of_ascii """,// trailing space 
+""\" ++ [233]%N ++ runes_of_ascii """ ,""// no comment"", """" ,
+    ""{,}"" , """ ++ [128512]%N ++ runes_of_ascii """ ]:
+    T 65535
+    : uint8x
+    ,
+3 : rootA
+// `tick` ""quote"" 'q'
+// trailing space 
+, 3 :
+// trailing space 
+// `tick` ""quote"" 'q'
+chars ,
+00	:
+    //
+    matchKey, ""packet"" :
+stringy , }	,
+/// triple
+// a // b
+}
+    root packet Foo {float32 T
+,}
+packet
+    charz { chars Pad
+`crlf
+line` , char[]	u8x @calculatedFrom( ""a	b"" ),	@tag(65535)
+// packet A { u8 x, }
+/// triple
+@tag(0123456789 ) // 50% %s
+i16 Packet
+`crlf
+line` // packet A { u8 x, }
+, }")).
+Eval vm_compute in ("<<<M1006>>>" ++ check (runes_of_ascii "MetaData
+    //
+    options1	{ pack
+string_ , i8  Header
+    ,
+    float64 o , }
+    root packet
+    u8x{
+// " ++ [27880; 37322]%N ++ runes_of_ascii "
+// a // b
+}")).
+Eval vm_compute in ("<<<M1038>>>" ++ check (runes_of_ascii "packet Packet
+{repeatCount	{char[ 65535  ]
+Logon
+    , repeat packetx { x_y_z
+@calculatedFrom(	""""
+    ) ,	}  , repeat
+u64// @lengthOf(
+f32a
+    , string a1 @lengthOf( calculatedFrom
+) ,} , @lengthOf( x ) int64
+    Logon ,
+    @tag( 10 )zchar[0 ]metadata , }
+MetaData //
+a1 { charz float
+    ,i32 i8i8	`" ++ [233]%N ++ runes_of_ascii "`, }")).
+Eval vm_compute in ("<<<M1070>>>" ++ check (runes_of_ascii "
+
 ")).
-Eval vm_compute in ("<<<M2222>>>" ++ check (runes_of_ascii "  packet
-asx
-{
-/// triple
-// @lengthOf(
-u32 stringy
-`" ++ [28040; 24687; 31867; 22411]%N ++ runes_of_ascii "` ,} MetaData
-    A {string  _x, zchar Header ,
+Eval vm_compute in ("<<<T1070>>>" ++ terms [mkTok 0 "<EOF>" 3 0 false] (mkPacket (mkPtok 0 "<EOF>" 3 0 0) None [])).
+Eval vm_compute in ("<<<M1102>>>" ++ check (runes_of_ascii "root packet MetaDataX {string msg_type @lengthOf(zchar ),
+uint16	tag , char[ 007
+    ]body @lengthOf( roots )
+,
+@lengthOf(
+uint8x ) zchar[ 3	]u
+, char[//
+00 ]
+T ,
+@leftPad (	' '
+)
+    @tag( 65535 ) f64
+// packet A { u8 x, }
+// 50% %s
+matchKey`line1
+line2` ,
 // @lengthOf(
 // packet A { u8 x, }
-`a\` char[] MetaDataX
-,zchar[ 1 ]
-    matchKey
-    , char[] //
-u,	char[0123456789 ]
-    matchKey
-    `{ , }`, }
+char[
+4294967296]  chars @calculatedFrom(""" ++ [28040; 24687]%N ++ runes_of_ascii """
+) `" ++ [28040; 24687; 31867; 22411]%N ++ runes_of_ascii "`
+    // " ++ [128512]%N ++ runes_of_ascii " emoji
+    ,uint16 metadata `crlf
+line` , char[ 65535
+] a1 ,
+options1 @calculatedFrom( ""x y""	)
+    //x
+    `
+` ,
+} options
+    {
+stringy ='\x00' ;stringy = ""CRC32""
+    ;	Packet =	10 zchar = 4294967296 ; len =
+""" ++ [28040; 24687]%N ++ runes_of_ascii """  }
+MetaData x_y_z
+{
+    pack int, }// packet A { u8 x, }
+MetaData
+tag {  u MetaDataX
+, }")).
+Eval vm_compute in ("<<<M1134>>>" ++ check (runes_of_ascii "MetaData uint8x
+{i8	x_y_z , char[ 255  ] repeatCount `{ , }`
+    , }options { u= false options1= 0123456789 BodyLength	= 255
+;lengthOf=
+""`tick`"" ; u
+    =	' '}
+MetaData Header {  zchar[0123456789] Z9_ ,int32 Header
+, char[007 ] A`
+`	, } //	t")).
+Eval vm_compute in ("<<<M1166>>>" ++ check (runes_of_ascii "packet
+// c
+//	t
+Foo { repeat
+    zchar x_y_z
+,match // a // b
+f32a as body { 7 :
+    len ,} ,
+    @tag( //x
+4294967296 )//	t
+lengthOf	@lengthOf( MetaDataX )
+, @tag( 007 ) repeat f64 chars , repeat
+//x
+// a // b
+packetx { f64
+    calculatedFrom , char[ 0123456789
+    ] Header
+@lengthOf( Foo) , repeat rootA
+,} , @calculatedFrom(
+// c
+// trailing space 
+""CRC32"" )
+falsey  _x `it's` , match roots as packetx{
+    42 : rootA ,0123456789 : Z9_ // @lengthOf(
+3 : a1
+42	://	t
+int // c
+, 007 // @lengthOf(
+:
+    // a // b
+    options1 , } ,  } root packet
+    u8x {zchar[
+    00
+    ] i8i8
+    `{ , }` , u128``
+    ,  } packet
+    lengthOf	{@leftPad ( '0' )
+// " ++ [27880; 37322]%N ++ runes_of_ascii "
+// a // b
+@rightPad
+    (  '0' )
+@calculatedFrom("""" ) int16 pack
+// `tick` ""quote"" 'q'
+// packet A { u8 x, }
+@lengthOf(
+// " ++ [128512]%N ++ runes_of_ascii " emoji
+// " ++ [27880; 37322]%N ++ runes_of_ascii "
+repeatCount ) `// not a comment`	,@lengthOf(
+// @lengthOf(
+// c
+crc  )	T ,
+// c
+// 50% %s
+} options{ }
+// 50% %s
+// " ++ [128512]%N ++ runes_of_ascii " emoji
+root packet
+    roots {
+u8x calculatedFrom , }
 ")).
-Eval vm_compute in ("<<<M2254>>>" ++ check (runes_of_ascii "  packet
-asx
-{
-/// triple
-// @lengthOf(
-u32 stringy
-`" ++ [28040; 24687; 31867; 22411]%N ++ runes_of_ascii "` ,} MetaData
-    A {string  _x, zchar Header `a\`
-// @lengthOf(
-// packet A { u8 x, }
-, char[] MetaDataX
-,zchar[")).
-Eval vm_compute in ("<<<M2286>>>" ++ check (runes_of_ascii "  packet
-asx
-{
-/// triple
-// @lengthOf(
-u32 stringy
-`" ++ [28040; 24687; 31867; 22411]%N ++ runes_of_ascii "` ,} MetaData
-    A {string  _x, zchar Header `a\`
-// @lengthOf(
-// packet A { u8 x, }
-, char[] MetaDataX
-,zchar[ 1 ]
-    matchKey
-    , char[] //
-u,	char[ char[0123456789 ]
-    matchKey
-    `{ , }`, }
+Eval vm_compute in ("<<<M1198>>>" ++ check (@nil rune)).
+Eval vm_compute in ("<<<M1230>>>" ++ check (runes_of_ascii "packet u8x{ @tag( 10
+    // a // b
+    ) u128
+`` , //	t
+}
 ")).
-Eval vm_compute in ("<<<M2318>>>" ++ check (runes_of_ascii "  packet
-asx
-{
+Eval vm_compute in ("<<<M1262>>>" ++ check (runes_of_ascii "MetaData lengthOf { uint32 charz`100% of %d`//	t
+,
+    } packet zchar{
+    @calculatedFrom(	""x y"" ) match As
+// trailing space 
+// `tick` ""quote"" 'q'
+as As
+{ [ 7 ,""" ++ [128512]%N ++ runes_of_ascii """
+    ] : lengthOf, [""""
+, 007
+,
+    3 , 42	, ""\n""// packet A { u8 x, }
+] :Packet // " ++ [27880; 37322]%N ++ runes_of_ascii "
+, //x
+} , @leftPad ()
+    @tag( 42 ) zchar// c
+,
+@lengthOf( x ) uint16 crc // " ++ [27880; 37322]%N ++ runes_of_ascii "
+@lengthOf(lengthOf // " ++ [128512]%N ++ runes_of_ascii " emoji
+) `u8 x,`// c
+,Foo { repeat packetx , zchar[3] chars@lengthOf(
 /// triple
+//	t
+tag ), string chars
+    // `tick` ""quote"" 'q'
+    @calculatedFrom(	""abc"" ) `a\`,
+}	, @rightPad( '0'  )Logon {
+// " ++ [128512]%N ++ runes_of_ascii " emoji
+// " ++ [27880; 37322]%N ++ runes_of_ascii "
+int16 leftPad
+//	t
+// `tick` ""quote"" 'q'
+@calculatedFrom(	""""),
+Foo@calculatedFrom(  ""\" ++ [233]%N ++ runes_of_ascii """
+) ,
+// 50% %s
 // @lengthOf(
-u32 stringy
-`" ++ [28040; 24687; 31867; 22411]%N ++ runes_of_ascii "` ,} MetaData
-    A {string  _x, zchar Header `a\`
+int16  len `u8 x,` , } ,	} MetaData matchKey {
+    }
+")).
+Eval vm_compute in ("<<<M1294>>>" ++ check (runes_of_ascii "
+MetaData MetaDataX
+    { u64	f32a, metadata lengthOf
+    //x
+    , }")).
+Eval vm_compute in ("<<<T1294>>>" ++ terms [mkTok 37 "MetaData" 2 0 false; mkTok 42 "MetaDataX" 2 9 false; mkTok 2 "{" 3 4 false; mkTok 23 "u64" 3 6 false; mkTok 42 "f32a" 3 10 false; mkTok 40 "," 3 14 false; mkTok 42 "metadata" 3 16 false; mkTok 42 "lengthOf" 3 25 false; mkTok 44 "//x" 4 4 true; mkTok 40 "," 5 4 false; mkTok 3 "}" 5 6 false; mkTok 0 "<EOF>" 5 7 false] (mkPacket (mkPtok 37 "MetaData" 2 0 0) (Some (mkPtok 3 "}" 5 6 10)) [(DMeta (mkMetaDef (mkSpan (mkPtok 37 "MetaData" 2 0 0) (mkPtok 3 "}" 5 6 10)) (mkPtok 37 "MetaData" 2 0 0) (mkPtok 42 "MetaDataX" 2 9 1) (mkPtok 2 "{" 3 4 2) [(MIDecl (mkMetaDecl (mkSpan (mkPtok 23 "u64" 3 6 3) (mkPtok 40 "," 3 14 5)) (TyBasic (mkSpan (mkPtok 23 "u64" 3 6 3) (mkPtok 23 "u64" 3 6 3)) (mkBasicType (mkSpan (mkPtok 23 "u64" 3 6 3) (mkPtok 23 "u64" 3 6 3)) (mkPtok 23 "u64" 3 6 3))) (mkPtok 42 "f32a" 3 10 4) None (mkPtok 40 "," 3 14 5))); (MIRef (mkRefMetaDecl (mkSpan (mkPtok 42 "metadata" 3 16 6) (mkPtok 40 "," 5 4 9)) (mkPtok 42 "metadata" 3 16 6) (mkPtok 42 "lengthOf" 3 25 7) None (mkPtok 40 "," 5 4 9)))] (mkPtok 3 "}" 5 6 10)))])).
+Eval vm_compute in ("<<<M1326>>>" ++ check (runes_of_ascii "packet	zchar{
+} options  { int = ""{,}""; } packet zchar
+{@calculatedFrom(""1"" )
+    match
+    trueish
+as falsey {""it's"" :x [ 00 ,
+    255 , ""`tick`""
+,
+    // trailing space 
+    007
+    // 50% %s
+    ,
+    10 , 4294967296 , ""a\\""	,""CRC32""
+    ] :	float
+    , } // trailing space 
+, match Logon as o
+{
+007 : lengthOf 255 : zchar
+    ,
+}
+    , u64// trailing space 
+packetx //
+`tab	here` , } 	 ")).
+Eval vm_compute in ("<<<M1358>>>" ++ check (runes_of_ascii "
+
+")).
+Eval vm_compute in ("<<<M1390>>>" ++ check (runes_of_ascii "packet stringy { } // packet A { u8 x, }
+options { }	MetaData  A {float32 trueish ,
+// " ++ [27880; 37322]%N ++ runes_of_ascii "
+// a // b
+}")).
+Eval vm_compute in ("<<<M1422>>>" ++ check (runes_of_ascii "// a // b
+MetaData
+    T
+    {
 // @lengthOf(
+// trailing space 
+Foo Logon ,Logon lengthOf , char[00
+    ]
+//
+// @lengthOf(
+pack
+    ,
+    char[7 //
+]
+    // " ++ [128512]%N ++ runes_of_ascii " emoji
+    i8i8 `line1
+line2` ,} packet trueish // trailing space 
+{	@calculatedFrom(	""abc""
+) @leftPad
+( '0') @lengthOf(trueish) uint8x
+    ,match x as
+Packet //
+{// a // b
+""" ++ [128512]%N ++ runes_of_ascii """: repeatCount , [ 007 , 255, //x
+4294967296 , 255// a // b
+, """ ++ [28040; 24687]%N ++ runes_of_ascii """ , ""\n"" // a // b
+,""\" ++ [233]%N ++ runes_of_ascii """ ,
+""abc""
+] :  A
+    , ""abc"" : packetx  , }
+, @tag(
+7 ) @lengthOf(msg_type )
+    @tag( 00 )
+int
+    pack
+`" ++ [28040; 24687; 31867; 22411]%N ++ runes_of_ascii "`	, }
+// a // b
+")).
+Eval vm_compute in ("<<<M1454>>>" ++ check (runes_of_ascii "
+MetaData x_y_z
+{ /// triple
+}packet
+    T
+    {	@rightPad ('\x00')
+pack ,
+} packet
+    x_y_z	{ // a // b
+@tag( 42 ) @calculatedFrom( """ ++ [128512]%N ++ runes_of_ascii """	)uint32 rootA `say ""hi""` , int64 len , @leftPad (	'0' // " ++ [27880; 37322]%N ++ runes_of_ascii "
+) match
+a1  as string_ { 00 : BodyLength
+255:
+    MetaDataX ,
+[ 1
+] :float ,
+    // " ++ [27880; 37322]%N ++ runes_of_ascii "
+    00 :
+stringy
+    , 007
+:
+Header// `tick` ""quote"" 'q'
+,	}
+    ,calculatedFrom , @rightPad () i64_ {
+repeat char[ 3
+    // `tick` ""quote"" 'q'
+    ]
+msg_type `tab	here`
+, } ,repeat _x Pad `say ""hi""`
+    ,
+//	t
+// `tick` ""quote"" 'q'
+a1 rootA, uint32 body
+`" ++ [233]%N ++ runes_of_ascii "`
+,
+//x
+// `tick` ""quote"" 'q'
+} packet x { repeat Pad
+Header	,
+}packet msg_type { repeat o	{ // `tick` ""quote"" 'q'
+uint16 matchKey //x
+@lengthOf(float )  , repeat leftPad // @lengthOf(
+matchKey `100% of %d`, char[ 007 ] string_ @lengthOf(
+// 50% %s
 // packet A { u8 x, }
-, char[] MetaDataX
-,zchar[ 1 ]
-    matchKey
-    , char[] //
-u,	char[0123456789 ]
-    matchKey
-    `{ , }`,")).
-Eval vm_compute in ("<<<M2350>>>" ++ check (runes_of_ascii "root")).
-Eval vm_compute in ("<<<M2382>>>" ++ check (runes_of_ascii "root
-    packet
-Packet
-{ //")).
-Eval vm_compute in ("<<<M2414>>>" ++ check (runes_of_ascii "options{ = // a // b
+o ) , match A as x_y_z{ 10 :	body ,
+    255:
+Packet , ""it's"" :
+metadata [ 10	]	:
+    stringy , 00: zchar
+, } , }
+, @calculatedFrom(  ""`tick`"" ) @lengthOf(
 falsey
-    '0' } options { repeatCount =
-true ; string_// a // b
-=
-// c
-// " ++ [27880; 37322]%N ++ runes_of_ascii "
-int64
+)
+repeat Z9_
+{ matchKey
+    Z9_ `doc` , repeat char[
+00]
+//
 // trailing space 
+Foo ,}, match f32a as o {	[ 007 , ""\" ++ [233]%N ++ runes_of_ascii """// " ++ [27880; 37322]%N ++ runes_of_ascii "
+,
+10
+, 00	,
 /// triple
-; } // @lengthOf(")).
-Eval vm_compute in ("<<<M2446>>>" ++ check (runes_of_ascii "options{ falsey // a // b
-=
-    '0' } options {")).
-Eval vm_compute in ("<<<M2478>>>" ++ check (runes_of_ascii "options{ falsey // a // b
-=
-    '0' } options { repeatCount =
-true ; string_// a // b
-=
+//	t
+""" ++ [128512]%N ++ runes_of_ascii """ ] : // @lengthOf(
+repeatCount , [10
+]
+    //x
+    : Packet
+,""a\\""	: string_	[ /// triple
+""a	b"" ]
+: f32a , [255 ,
+255 , ""x y"" ,
+    /// triple
+    ""packet"" ] :
+repeatCount//	t
+,[	""packet"" ,	42
+    // `tick` ""quote"" 'q'
+    ] :  u ,  }
+,  repeatCount{	zchar[	007] zchar @calculatedFrom(""a\""b""
+)  , } , @calculatedFrom( ""a\""b"" )@lengthOf( Foo )
+trueish lengthOf `// not a comment` , float64 // packet A { u8 x, }
+float `" ++ [28040; 24687; 31867; 22411]%N ++ runes_of_ascii "` ,// packet A { u8 x, }
+}
+")).
+Eval vm_compute in ("<<<M1486>>>" ++ check (runes_of_ascii "packet packetx { // `tick` ""quote"" 'q'
+match Pad
+as roots
+{
+10 :body , 0 :
+Z9_, 42 :Logon
+    , 00
+: tag
+    ,
+    """ ++ [28040; 24687]%N ++ runes_of_ascii """
+    : pack  ,
+}, @calculatedFrom(
+""{,}"") i64 Z9_ ,string u	@lengthOf(
+metadata ) , @tag( 0123456789 ) BodyLength u `{ , }`,  @rightPad (
+    // a // b
+    ) msg_type	@lengthOf(
+    //x
+    T
+) ,
+    // @lengthOf(
+    }
+/// triple
+/// triple
+packet Logon { @rightPad // packet A { u8 x, }
+( '\x00') repeat
+// " ++ [27880; 37322]%N ++ runes_of_ascii "
+/// triple
+int16	metadata
+, @tag( 42 ) chars
+Pad ,
+@calculatedFrom(
+    """ ++ [233]%N ++ runes_of_ascii "t" ++ [233]%N ++ runes_of_ascii """)repeat
+    //
+    A Pad	`line1
+line2`,
+@lengthOf( T  ) char[] Pad ,
+//	t
+// `tick` ""quote"" 'q'
+len @lengthOf( int
+    ), string
+Foo ,} options { }
+")).
+Eval vm_compute in ("<<<M1518>>>" ++ check (runes_of_ascii "
+root packet  Packet {match uint8x as u8x/// triple
+{ // 50% %s
+[
+/// triple
 // c
-// " ++ [27880; 37322]%N ++ runes_of_ascii "
-int64
+""\n"",65535  ] : MetaDataX
+    [ ""\" ++ [233]%N ++ runes_of_ascii """ ]
+    : options1 ,
+0123456789 : leftPad , },
+int16 Header	`doc`, @rightPad
+    ( ) @tag( 4294967296)
+    @tag( 1 ) repeat i64 Header , } /// triple")).
+Eval vm_compute in ("<<<T1518>>>" ++ terms [mkTok 34 "root" 2 0 false; mkTok 35 "packet" 2 5 false; mkTok 42 "Packet" 2 13 false; mkTok 2 "{" 2 20 false; mkTok 38 "match" 2 21 false; mkTok 42 "uint8x" 2 27 false; mkTok 17 "as" 2 34 false; mkTok 42 "u8x" 2 37 false; mkTok 44 "/// triple" 2 40 true; mkTok 2 "{" 3 0 false; mkTok 44 "// 50% %s" 3 2 true; mkTok 18 "[" 4 0 false; mkTok 44 "/// triple" 5 0 true; mkTok 44 "// c" 6 0 true; mkTok 31 """\n""" 7 0 false; mkTok 40 "," 7 4 false; mkTok 30 "65535" 7 5 false; mkTok 13 "]" 7 12 false; mkTok 39 ":" 7 14 false; mkTok 42 "MetaDataX" 7 16 false; mkTok 18 "[" 8 4 false; mkTok 31 (string_of_bytes [34; 92; 195; 169; 34]%N) 8 6 false; mkTok 13 "]" 8 11 false; mkTok 39 ":" 9 4 false; mkTok 42 "options1" 9 6 false; mkTok 40 "," 9 15 false; mkTok 30 "0123456789" 10 0 false; mkTok 39 ":" 10 11 false; mkTok 42 "leftPad" 10 13 false; mkTok 40 "," 10 21 false; mkTok 3 "}" 10 23 false; mkTok 40 "," 10 24 false; mkTok 25 "int16" 11 0 false; mkTok 42 "Header" 11 6 false; mkTok 43 "`doc`" 11 13 false; mkTok 40 "," 11 18 false; mkTok 32 "@rightPad" 11 20 false; mkTok 8 "(" 12 4 false; mkTok 6 ")" 12 6 false; mkTok 9 "@tag(" 12 8 false; mkTok 30 "4294967296" 12 14 false; mkTok 6 ")" 12 24 false; mkTok 9 "@tag(" 13 4 false; mkTok 30 "1" 13 10 false; mkTok 6 ")" 13 12 false; mkTok 36 "repeat" 13 14 false; mkTok 27 "i64" 13 21 false; mkTok 42 "Header" 13 25 false; mkTok 40 "," 13 32 false; mkTok 3 "}" 13 34 false; mkTok 44 "/// triple" 13 36 true; mkTok 0 "<EOF>" 13 46 false] (mkPacket (mkPtok 34 "root" 2 0 0) (Some (mkPtok 3 "}" 13 34 49)) [(DPacket (mkPacketDef (mkSpan (mkPtok 34 "root" 2 0 0) (mkPtok 3 "}" 13 34 49)) (Some (mkPtok 34 "root" 2 0 0)) (mkPtok 35 "packet" 2 5 1) (mkPtok 42 "Packet" 2 13 2) (mkPtok 2 "{" 2 20 3) [(mkFieldWithAttr (mkSpan (mkPtok 38 "match" 2 21 4) (mkPtok 40 "," 10 24 31)) [] (MatchField (mkSpan (mkPtok 38 "match" 2 21 4) (mkPtok 40 "," 10 24 31)) (mkMatchFieldDecl (mkSpan (mkPtok 38 "match" 2 21 4) (mkPtok 3 "}" 10 23 30)) (mkPtok 38 "match" 2 21 4) (mkPtok 42 "uint8x" 2 27 5) (mkPtok 17 "as" 2 34 6) (mkPtok 42 "u8x" 2 37 7) (mkPtok 2 "{" 3 0 9) [(mkMatchPair (mkSpan (mkPtok 18 "[" 4 0 11) (mkPtok 42 "MetaDataX" 7 16 19)) (MKList (mkKeyList (mkSpan (mkPtok 18 "[" 4 0 11) (mkPtok 13 "]" 7 12 17)) (mkPtok 18 "[" 4 0 11) (mkPtok 31 """\n""" 7 0 14) [((mkPtok 40 "," 7 4 15), (mkPtok 30 "65535" 7 5 16))] (mkPtok 13 "]" 7 12 17))) (mkPtok 39 ":" 7 14 18) (mkPtok 42 "MetaDataX" 7 16 19) None); (mkMatchPair (mkSpan (mkPtok 18 "[" 8 4 20) (mkPtok 40 "," 9 15 25)) (MKList (mkKeyList (mkSpan (mkPtok 18 "[" 8 4 20) (mkPtok 13 "]" 8 11 22)) (mkPtok 18 "[" 8 4 20) (mkPtok 31 (string_of_bytes [34; 92; 195; 169; 34]%N) 8 6 21) [] (mkPtok 13 "]" 8 11 22))) (mkPtok 39 ":" 9 4 23) (mkPtok 42 "options1" 9 6 24) (Some (mkPtok 40 "," 9 15 25))); (mkMatchPair (mkSpan (mkPtok 30 "0123456789" 10 0 26) (mkPtok 40 "," 10 21 29)) (MKDigits (mkPtok 30 "0123456789" 10 0 26)) (mkPtok 39 ":" 10 11 27) (mkPtok 42 "leftPad" 10 13 28) (Some (mkPtok 40 "," 10 21 29)))] (mkPtok 3 "}" 10 23 30)) (mkPtok 40 "," 10 24 31))); (mkFieldWithAttr (mkSpan (mkPtok 25 "int16" 11 0 32) (mkPtok 40 "," 11 18 35)) [] (MetaField (mkSpan (mkPtok 25 "int16" 11 0 32) (mkPtok 40 "," 11 18 35)) None (mkMetaDecl (mkSpan (mkPtok 25 "int16" 11 0 32) (mkPtok 40 "," 11 18 35)) (TyBasic (mkSpan (mkPtok 25 "int16" 11 0 32) (mkPtok 25 "int16" 11 0 32)) (mkBasicType (mkSpan (mkPtok 25 "int16" 11 0 32) (mkPtok 25 "int16" 11 0 32)) (mkPtok 25 "int16" 11 0 32))) (mkPtok 42 "Header" 11 6 33) (Some (mkPtok 43 "`doc`" 11 13 34)) (mkPtok 40 "," 11 18 35)))); (mkFieldWithAttr (mkSpan (mkPtok 32 "@rightPad" 11 20 36) (mkPtok 40 "," 13 32 48)) [(FAPadding (mkSpan (mkPtok 32 "@rightPad" 11 20 36) (mkPtok 6 ")" 12 6 38)) (mkPaddingAttr (mkSpan (mkPtok 32 "@rightPad" 11 20 36) (mkPtok 6 ")" 12 6 38)) (mkPtok 32 "@rightPad" 11 20 36) (mkPtok 8 "(" 12 4 37) None (mkPtok 6 ")" 12 6 38))); (FATag (mkSpan (mkPtok 9 "@tag(" 12 8 39) (mkPtok 6 ")" 12 24 41)) (mkTagAttr (mkSpan (mkPtok 9 "@tag(" 12 8 39) (mkPtok 6 ")" 12 24 41)) (mkPtok 9 "@tag(" 12 8 39) (mkPtok 30 "4294967296" 12 14 40) (mkPtok 6 ")" 12 24 41))); (FATag (mkSpan (mkPtok 9 "@tag(" 13 4 42) (mkPtok 6 ")" 13 12 44)) (mkTagAttr (mkSpan (mkPtok 9 "@tag(" 13 4 42) (mkPtok 6 ")" 13 12 44)) (mkPtok 9 "@tag(" 13 4 42) (mkPtok 30 "1" 13 10 43) (mkPtok 6 ")" 13 12 44)))] (MetaField (mkSpan (mkPtok 36 "repeat" 13 14 45) (mkPtok 40 "," 13 32 48)) (Some (mkPtok 36 "repeat" 13 14 45)) (mkMetaDecl (mkSpan (mkPtok 27 "i64" 13 21 46) (mkPtok 40 "," 13 32 48)) (TyBasic (mkSpan (mkPtok 27 "i64" 13 21 46) (mkPtok 27 "i64" 13 21 46)) (mkBasicType (mkSpan (mkPtok 27 "i64" 13 21 46) (mkPtok 27 "i64" 13 21 46)) (mkPtok 27 "i64" 13 21 46))) (mkPtok 42 "Header" 13 25 47) None (mkPtok 40 "," 13 32 48))))] (mkPtok 3 "}" 13 34 49)))])).
+Eval vm_compute in ("<<<M1550>>>" ++ check (runes_of_ascii "root //	t
+packet metadata {@lengthOf(
+roots ) T{ match u as roots
+    {
+[007,""" ++ [128512]%N ++ runes_of_ascii """
+    , 0 , // `tick` ""quote"" 'q'
+""it's"" // `tick` ""quote"" 'q'
+, """ ++ [128512]%N ++ runes_of_ascii """
+, 65535 , 007] :rootA , ""{,}""	: uint8x ,
+42:u128 ,
+    [ 10]
+: f32a // trailing space 
+, } , match // packet A { u8 x, }
+lengthOf as
+    string_ { [""x y""
+, 0 , ""// no comment""	,4294967296 ,//x
+"""" , """" ]
+    : // packet A { u8 x, }
+uint8x
+,
+[ 42 ,  ""\" ++ [233]%N ++ runes_of_ascii """
+, 3
+, """" ]// packet A { u8 x, }
+: tag, // 50% %s
+}
+, i64 /// triple
+string_ , }// trailing space 
+,@lengthOf( metadata)packetx  Packet `say ""hi""` , @lengthOf( leftPad )matchKey @lengthOf( u128 ) // @lengthOf(
+`doc`	,match A as
+    trueish
+    { [ 0123456789 ] : Foo // `tick` ""quote"" 'q'
+""`tick`"" : Pad	, 10 :
+x_y_z,
+    // c
+    3: tag
+, 1	:
+//x
+//	t
+leftPad 0123456789 :  string_ , } ,	@tag( 0)repeat// trailing space 
+zchar
+string_
+    /// triple
+    `say ""hi""` , @calculatedFrom( """ ++ [128512]%N ++ runes_of_ascii """ ) // trailing space 
+int64 body @lengthOf( body )`// not a comment` ,
+    i32
+_x
+`two words` ,
+    uint32 msg_type @calculatedFrom(// @lengthOf(
+""" ++ [128512]%N ++ runes_of_ascii """) ,  } root
+packet
+    calculatedFrom{ u8 string_ @calculatedFrom( ""{,}""  )`it's`
+    , /// triple
+x
+@calculatedFrom(
+""`tick`""	)
+    ,@tag( 007
+    //x
+    ) repeat	calculatedFrom , // c
+}")).
+Eval vm_compute in ("<<<M1582>>>" ++ check (runes_of_ascii "/// triple
+packet crc { }
+MetaData// trailing space 
+body { }")).
+Eval vm_compute in ("<<<M1614>>>" ++ check (runes_of_ascii "options{
+lengthOf= string ; u8x
+=
+int32 Pad = int32  ; Foo = false;}
+
+")).
+Eval vm_compute in ("<<<M1646>>>" ++ check (runes_of_ascii "// a // b
+options {
+    //
+    matchKey
+    =char[// 50% %s
+3] ; }
+")).
+Eval vm_compute in ("<<<M1678>>>" ++ check (runes_of_ascii "packet metadata { @lengthOf(
+u8x
+    ) /// triple
+repeat BodyLength, repeat lengthOf {
+char[] falsey `line1
+line2` ,	uint64
+u8x,
+    f64//x
+u `u8 x,`,
+repeat len
+Logon`
+` // `tick` ""quote"" 'q'
+, }
+    , @tag(65535 )repeat BodyLength Pad
+    , @calculatedFrom( ""x y""
+    )@lengthOf(metadata  )
+    @leftPad ('\x00' ) pack { zchar[ 00 ] Logon , }
+// " ++ [128512]%N ++ runes_of_ascii " emoji
+// packet A { u8 x, }
+, @lengthOf( int ) uint8 MetaDataX,match MetaDataX
+    as u8x { ""abc"" : a1 } , //	t
+string  x_y_z`tab	here`
+,  zchar
+{ u8 Z9_ @lengthOf( chars
+    )
+    // 50% %s
+    `say ""hi""`,
+    } ,repeat x_y_z
+{ match f32a as
+    Pad
+//	t
+// c
+{
+    255// c
+: repeatCount,
+007: charz ,
+}
+,
+    repeat zchar[ 0 ]
+roots,
+    i32 tag @lengthOf(falsey ) `u8 x,`
+, a1 { char Foo @lengthOf(
+    _x ) // `tick` ""quote"" 'q'
+, }
+    ,// @lengthOf(
+}// a // b
+,	repeat
+// " ++ [128512]%N ++ runes_of_ascii " emoji
+// 50% %s
+u64// a // b
+string_
+,} options
+{ i8i8
+    = '0'
+    ;
+calculatedFrom
+=//	t
+""1"" len = uint8 }
+")).
+Eval vm_compute in ("<<<M1710>>>" ++ check (runes_of_ascii "
+")).
+Eval vm_compute in ("<<<M1742>>>" ++ check (runes_of_ascii "root packet trueish { match
+// `tick` ""quote"" 'q'
+// 50% %s
+Pad as As
+// `tick` ""quote"" 'q'
+// @lengthOf(
+{65535 // " ++ [128512]%N ++ runes_of_ascii " emoji
+:calculatedFrom
+, } ,
+    } root packet trueish { }
+packet trueish
+    {uint16
+chars `{ , }`
+, @lengthOf( // @lengthOf(
+stringy)u16 matchKey `u8 x,`, @tag( 0 )
+// @lengthOf(
+// a // b
+char[] tag @lengthOf(
+    stringy // packet A { u8 x, }
+) `it's` ,
+repeat float32 /// triple
+rootA // a // b
+,@lengthOf(
+uint8x )uint8
+    x_y_z
+,
+    body @calculatedFrom(""abc"" ) ,
+    float32 len ,crc /// triple
+int ,
+// packet A { u8 x, }
+// c
+}options {BodyLength= int32; }
+
+")).
+Eval vm_compute in ("<<<T1742>>>" ++ terms [mkTok 34 "root" 1 0 false; mkTok 35 "packet" 1 5 false; mkTok 42 "trueish" 1 12 false; mkTok 2 "{" 1 20 false; mkTok 38 "match" 1 22 false; mkTok 44 "// `tick` ""quote"" 'q'" 2 0 true; mkTok 44 "// 50% %s" 3 0 true; mkTok 42 "Pad" 4 0 false; mkTok 17 "as" 4 4 false; mkTok 42 "As" 4 7 false; mkTok 44 "// `tick` ""quote"" 'q'" 5 0 true; mkTok 44 "// @lengthOf(" 6 0 true; mkTok 2 "{" 7 0 false; mkTok 30 "65535" 7 1 false; mkTok 44 (string_of_bytes [47; 47; 32; 240; 159; 152; 128; 32; 101; 109; 111; 106; 105]%N) 7 7 true; mkTok 39 ":" 8 0 false; mkTok 42 "calculatedFrom" 8 1 false; mkTok 40 "," 9 0 false; mkTok 3 "}" 9 2 false; mkTok 40 "," 9 4 false; mkTok 3 "}" 10 4 false; mkTok 34 "root" 10 6 false; mkTok 35 "packet" 10 11 false; mkTok 42 "trueish" 10 18 false; mkTok 2 "{" 10 26 false; mkTok 3 "}" 10 28 false; mkTok 35 "packet" 11 0 false; mkTok 42 "trueish" 11 7 false; mkTok 2 "{" 12 4 false; mkTok 21 "uint16" 12 5 false; mkTok 42 "chars" 13 0 false; mkTok 43 "`{ , }`" 13 6 false; mkTok 40 "," 14 0 false; mkTok 7 "@lengthOf(" 14 2 false; mkTok 44 "// @lengthOf(" 14 13 true; mkTok 42 "stringy" 15 0 false; mkTok 6 ")" 15 7 false; mkTok 21 "u16" 15 8 false; mkTok 42 "matchKey" 15 12 false; mkTok 43 "`u8 x,`" 15 21 false; mkTok 40 "," 15 28 false; mkTok 9 "@tag(" 15 30 false; mkTok 30 "0" 15 36 false; mkTok 6 ")" 15 38 false; mkTok 44 "// @lengthOf(" 16 0 true; mkTok 44 "// a // b" 17 0 true; mkTok 16 "char[]" 18 0 false; mkTok 42 "tag" 18 7 false; mkTok 7 "@lengthOf(" 18 11 false; mkTok 42 "stringy" 19 4 false; mkTok 44 "// packet A { u8 x, }" 19 12 true; mkTok 6 ")" 20 0 false; mkTok 43 "`it's`" 20 2 false; mkTok 40 "," 20 9 false; mkTok 36 "repeat" 21 0 false; mkTok 28 "float32" 21 7 false; mkTok 44 "/// triple" 21 15 true; mkTok 42 "rootA" 22 0 false; mkTok 44 "// a // b" 22 6 true; mkTok 40 "," 23 0 false; mkTok 7 "@lengthOf(" 23 1 false; mkTok 42 "uint8x" 24 0 false; mkTok 6 ")" 24 7 false; mkTok 20 "uint8" 24 8 false; mkTok 42 "x_y_z" 25 4 false; mkTok 40 "," 26 0 false; mkTok 42 "body" 27 4 false; mkTok 5 "@calculatedFrom(" 27 9 false; mkTok 31 """abc""" 27 25 false; mkTok 6 ")" 27 31 false; mkTok 40 "," 27 33 false; mkTok 28 "float32" 28 4 false; mkTok 42 "len" 28 12 false; mkTok 40 "," 28 16 false; mkTok 42 "crc" 28 17 false; mkTok 44 "/// triple" 28 21 true; mkTok 42 "int" 29 0 false; mkTok 40 "," 29 4 false; mkTok 44 "// packet A { u8 x, }" 30 0 true; mkTok 44 "// c" 31 0 true; mkTok 3 "}" 32 0 false; mkTok 1 "options" 32 1 false; mkTok 2 "{" 32 9 false; mkTok 42 "BodyLength" 32 10 false; mkTok 4 "=" 32 20 false; mkTok 26 "int32" 32 22 false; mkTok 41 ";" 32 27 false; mkTok 3 "}" 32 29 false; mkTok 0 "<EOF>" 34 0 false] (mkPacket (mkPtok 34 "root" 1 0 0) (Some (mkPtok 3 "}" 32 29 87)) [(DPacket (mkPacketDef (mkSpan (mkPtok 34 "root" 1 0 0) (mkPtok 3 "}" 10 4 20)) (Some (mkPtok 34 "root" 1 0 0)) (mkPtok 35 "packet" 1 5 1) (mkPtok 42 "trueish" 1 12 2) (mkPtok 2 "{" 1 20 3) [(mkFieldWithAttr (mkSpan (mkPtok 38 "match" 1 22 4) (mkPtok 40 "," 9 4 19)) [] (MatchField (mkSpan (mkPtok 38 "match" 1 22 4) (mkPtok 40 "," 9 4 19)) (mkMatchFieldDecl (mkSpan (mkPtok 38 "match" 1 22 4) (mkPtok 3 "}" 9 2 18)) (mkPtok 38 "match" 1 22 4) (mkPtok 42 "Pad" 4 0 7) (mkPtok 17 "as" 4 4 8) (mkPtok 42 "As" 4 7 9) (mkPtok 2 "{" 7 0 12) [(mkMatchPair (mkSpan (mkPtok 30 "65535" 7 1 13) (mkPtok 40 "," 9 0 17)) (MKDigits (mkPtok 30 "65535" 7 1 13)) (mkPtok 39 ":" 8 0 15) (mkPtok 42 "calculatedFrom" 8 1 16) (Some (mkPtok 40 "," 9 0 17)))] (mkPtok 3 "}" 9 2 18)) (mkPtok 40 "," 9 4 19)))] (mkPtok 3 "}" 10 4 20))); (DPacket (mkPacketDef (mkSpan (mkPtok 34 "root" 10 6 21) (mkPtok 3 "}" 10 28 25)) (Some (mkPtok 34 "root" 10 6 21)) (mkPtok 35 "packet" 10 11 22) (mkPtok 42 "trueish" 10 18 23) (mkPtok 2 "{" 10 26 24) [] (mkPtok 3 "}" 10 28 25))); (DPacket (mkPacketDef (mkSpan (mkPtok 35 "packet" 11 0 26) (mkPtok 3 "}" 32 0 80)) None (mkPtok 35 "packet" 11 0 26) (mkPtok 42 "trueish" 11 7 27) (mkPtok 2 "{" 12 4 28) [(mkFieldWithAttr (mkSpan (mkPtok 21 "uint16" 12 5 29) (mkPtok 40 "," 14 0 32)) [] (MetaField (mkSpan (mkPtok 21 "uint16" 12 5 29) (mkPtok 40 "," 14 0 32)) None (mkMetaDecl (mkSpan (mkPtok 21 "uint16" 12 5 29) (mkPtok 40 "," 14 0 32)) (TyBasic (mkSpan (mkPtok 21 "uint16" 12 5 29) (mkPtok 21 "uint16" 12 5 29)) (mkBasicType (mkSpan (mkPtok 21 "uint16" 12 5 29) (mkPtok 21 "uint16" 12 5 29)) (mkPtok 21 "uint16" 12 5 29))) (mkPtok 42 "chars" 13 0 30) (Some (mkPtok 43 "`{ , }`" 13 6 31)) (mkPtok 40 "," 14 0 32)))); (mkFieldWithAttr (mkSpan (mkPtok 7 "@lengthOf(" 14 2 33) (mkPtok 40 "," 15 28 40)) [(FALengthOf (mkSpan (mkPtok 7 "@lengthOf(" 14 2 33) (mkPtok 6 ")" 15 7 36)) (mkLengthOf (mkSpan (mkPtok 7 "@lengthOf(" 14 2 33) (mkPtok 6 ")" 15 7 36)) (mkPtok 7 "@lengthOf(" 14 2 33) (mkPtok 42 "stringy" 15 0 35) (mkPtok 6 ")" 15 7 36)))] (MetaField (mkSpan (mkPtok 21 "u16" 15 8 37) (mkPtok 40 "," 15 28 40)) None (mkMetaDecl (mkSpan (mkPtok 21 "u16" 15 8 37) (mkPtok 40 "," 15 28 40)) (TyBasic (mkSpan (mkPtok 21 "u16" 15 8 37) (mkPtok 21 "u16" 15 8 37)) (mkBasicType (mkSpan (mkPtok 21 "u16" 15 8 37) (mkPtok 21 "u16" 15 8 37)) (mkPtok 21 "u16" 15 8 37))) (mkPtok 42 "matchKey" 15 12 38) (Some (mkPtok 43 "`u8 x,`" 15 21 39)) (mkPtok 40 "," 15 28 40)))); (mkFieldWithAttr (mkSpan (mkPtok 9 "@tag(" 15 30 41) (mkPtok 40 "," 20 9 53)) [(FATag (mkSpan (mkPtok 9 "@tag(" 15 30 41) (mkPtok 6 ")" 15 38 43)) (mkTagAttr (mkSpan (mkPtok 9 "@tag(" 15 30 41) (mkPtok 6 ")" 15 38 43)) (mkPtok 9 "@tag(" 15 30 41) (mkPtok 30 "0" 15 36 42) (mkPtok 6 ")" 15 38 43)))] (LengthField (mkSpan (mkPtok 16 "char[]" 18 0 46) (mkPtok 40 "," 20 9 53)) (mkLengthFieldDecl (mkSpan (mkPtok 16 "char[]" 18 0 46) (mkPtok 40 "," 20 9 53)) (Some (TyDynamic (mkSpan (mkPtok 16 "char[]" 18 0 46) (mkPtok 16 "char[]" 18 0 46)) (mkDynamicString (mkSpan (mkPtok 16 "char[]" 18 0 46) (mkPtok 16 "char[]" 18 0 46)) (mkPtok 16 "char[]" 18 0 46)))) (mkPtok 42 "tag" 18 7 47) (mkLengthOf (mkSpan (mkPtok 7 "@lengthOf(" 18 11 48) (mkPtok 6 ")" 20 0 51)) (mkPtok 7 "@lengthOf(" 18 11 48) (mkPtok 42 "stringy" 19 4 49) (mkPtok 6 ")" 20 0 51)) (Some (mkPtok 43 "`it's`" 20 2 52)) (mkPtok 40 "," 20 9 53)))); (mkFieldWithAttr (mkSpan (mkPtok 36 "repeat" 21 0 54) (mkPtok 40 "," 23 0 59)) [] (MetaField (mkSpan (mkPtok 36 "repeat" 21 0 54) (mkPtok 40 "," 23 0 59)) (Some (mkPtok 36 "repeat" 21 0 54)) (mkMetaDecl (mkSpan (mkPtok 28 "float32" 21 7 55) (mkPtok 40 "," 23 0 59)) (TyBasic (mkSpan (mkPtok 28 "float32" 21 7 55) (mkPtok 28 "float32" 21 7 55)) (mkBasicType (mkSpan (mkPtok 28 "float32" 21 7 55) (mkPtok 28 "float32" 21 7 55)) (mkPtok 28 "float32" 21 7 55))) (mkPtok 42 "rootA" 22 0 57) None (mkPtok 40 "," 23 0 59)))); (mkFieldWithAttr (mkSpan (mkPtok 7 "@lengthOf(" 23 1 60) (mkPtok 40 "," 26 0 65)) [(FALengthOf (mkSpan (mkPtok 7 "@lengthOf(" 23 1 60) (mkPtok 6 ")" 24 7 62)) (mkLengthOf (mkSpan (mkPtok 7 "@lengthOf(" 23 1 60) (mkPtok 6 ")" 24 7 62)) (mkPtok 7 "@lengthOf(" 23 1 60) (mkPtok 42 "uint8x" 24 0 61) (mkPtok 6 ")" 24 7 62)))] (MetaField (mkSpan (mkPtok 20 "uint8" 24 8 63) (mkPtok 40 "," 26 0 65)) None (mkMetaDecl (mkSpan (mkPtok 20 "uint8" 24 8 63) (mkPtok 40 "," 26 0 65)) (TyBasic (mkSpan (mkPtok 20 "uint8" 24 8 63) (mkPtok 20 "uint8" 24 8 63)) (mkBasicType (mkSpan (mkPtok 20 "uint8" 24 8 63) (mkPtok 20 "uint8" 24 8 63)) (mkPtok 20 "uint8" 24 8 63))) (mkPtok 42 "x_y_z" 25 4 64) None (mkPtok 40 "," 26 0 65)))); (mkFieldWithAttr (mkSpan (mkPtok 42 "body" 27 4 66) (mkPtok 40 "," 27 33 70)) [] (CheckSumField (mkSpan (mkPtok 42 "body" 27 4 66) (mkPtok 40 "," 27 33 70)) (mkChecksumFieldDecl (mkSpan (mkPtok 42 "body" 27 4 66) (mkPtok 40 "," 27 33 70)) None (mkPtok 42 "body" 27 4 66) (mkCalculatedFrom (mkSpan (mkPtok 5 "@calculatedFrom(" 27 9 67) (mkPtok 6 ")" 27 31 69)) (mkPtok 5 "@calculatedFrom(" 27 9 67) (mkPtok 31 """abc""" 27 25 68) (mkPtok 6 ")" 27 31 69)) None (mkPtok 40 "," 27 33 70)))); (mkFieldWithAttr (mkSpan (mkPtok 28 "float32" 28 4 71) (mkPtok 40 "," 28 16 73)) [] (MetaField (mkSpan (mkPtok 28 "float32" 28 4 71) (mkPtok 40 "," 28 16 73)) None (mkMetaDecl (mkSpan (mkPtok 28 "float32" 28 4 71) (mkPtok 40 "," 28 16 73)) (TyBasic (mkSpan (mkPtok 28 "float32" 28 4 71) (mkPtok 28 "float32" 28 4 71)) (mkBasicType (mkSpan (mkPtok 28 "float32" 28 4 71) (mkPtok 28 "float32" 28 4 71)) (mkPtok 28 "float32" 28 4 71))) (mkPtok 42 "len" 28 12 72) None (mkPtok 40 "," 28 16 73)))); (mkFieldWithAttr (mkSpan (mkPtok 42 "crc" 28 17 74) (mkPtok 40 "," 29 4 77)) [] (ObjectField (mkSpan (mkPtok 42 "crc" 28 17 74) (mkPtok 40 "," 29 4 77)) None (mkPtok 42 "crc" 28 17 74) (Some (mkPtok 42 "int" 29 0 76)) None (mkPtok 40 "," 29 4 77)))] (mkPtok 3 "}" 32 0 80))); (DOption (mkOptionDef (mkSpan (mkPtok 1 "options" 32 1 81) (mkPtok 3 "}" 32 29 87)) (mkPtok 1 "options" 32 1 81) (mkPtok 2 "{" 32 9 82) [(mkOptionDecl (mkSpan (mkPtok 42 "BodyLength" 32 10 83) (mkPtok 41 ";" 32 27 86)) (mkPtok 42 "BodyLength" 32 10 83) (mkPtok 4 "=" 32 20 84) (VType (mkSpan (mkPtok 26 "int32" 32 22 85) (mkPtok 26 "int32" 32 22 85)) (TyBasic (mkSpan (mkPtok 26 "int32" 32 22 85) (mkPtok 26 "int32" 32 22 85)) (mkBasicType (mkSpan (mkPtok 26 "int32" 32 22 85) (mkPtok 26 "int32" 32 22 85)) (mkPtok 26 "int32" 32 22 85)))) (Some (mkPtok 41 ";" 32 27 86)))] (mkPtok 3 "}" 32 29 87)))])).
+Eval vm_compute in ("<<<M1774>>>" ++ check (runes_of_ascii "root packet u { @tag( 7 ) charz BodyLength ,zchar[ 10 ]
+    msg_type @calculatedFrom( ""it's"" ) `100% of %d`
+, } root packet string_
+    { @leftPad (
+) char[ 65535
+    ]
+x
+// a // b
+// packet A { u8 x, }
+`two words`
+    ,
+    repeat char roots ,}  root packet
+leftPad  {
+uint8x { zchar[
+0123456789 ] Header
+    @lengthOf(
+    pack ), }
+, }
+")).
+Eval vm_compute in ("<<<M1806>>>" ++ check (runes_of_ascii "packet packetx{//x
+@tag( 00 ) repeat u A //
+, @tag( 0 )Logon
+trueish , repeat
+char[ 42 ] stringy , repeat//	t
+string_ a1 ,} // @lengthOf(")).
+Eval vm_compute in ("<<<M1838>>>" ++ check (runes_of_ascii "packet
+    // `tick` ""quote"" 'q'
+    Header {  }
+packet x
+{
+}")).
+Eval vm_compute in ("<<<M1870>>>" ++ check (@nil rune)).
+Eval vm_compute in ("<<<M1902>>>" ++ check (runes_of_ascii "  packet As {}/// triple
+root packet
+f32a { leftPad crc ,} packet As
+    { Packet `crlf
+line`  ,
+@tag( 255 // " ++ [128512]%N ++ runes_of_ascii " emoji
+) char _x , }")).
+Eval vm_compute in ("<<<M1934>>>" ++ check (runes_of_ascii "packet uint8x { metadata { a1
+`two words`	,	int
 // trailing space 
+// packet A { u8 x, }
+{ zchar[
+255]msg_type // " ++ [27880; 37322]%N ++ runes_of_ascii "
+@calculatedFrom( """ ++ [233]%N ++ runes_of_ascii "t" ++ [233]%N ++ runes_of_ascii """ ),} , } , char[
+00]
+    chars
+    , //
+}")).
+Eval vm_compute in ("<<<M1966>>>" ++ check (runes_of_ascii "//	t
+MetaData
+body { u _x
+    ,
+char[]	chars
+,float64
+matchKey
+    `two words` ,f32
+x
+,
+// packet A { u8 x, }
 /// triple
-; ; } // @lengthOf(")).
-Eval vm_compute in ("<<<M2510>>>" ++ check (runes_of_ascii "{options}root packet
-metadata {
-@lengthOf(x ) float32
-body ``, }
-    MetaData
-Z9_
-    {
-    string string_ , Logon x
-,
-uint32
-    // packet A { u8 x, }
-    Z9_,asx
-_x
-    `tab	here` , }
-")).
-Eval vm_compute in ("<<<M2542>>>" ++ check (runes_of_ascii "options{}root packet
-metadata")).
-Eval vm_compute in ("<<<M2574>>>" ++ check (runes_of_ascii "options{}root packet
-metadata {
-@lengthOf(x ) float32
-body ``, , }
-    MetaData
-Z9_
-    {
-    string string_ , Logon x
-,
-uint32
-    // packet A { u8 x, }
-    Z9_,asx
-_x
-    `tab	here` , }
-")).
-Eval vm_compute in ("<<<M2606>>>" ++ check (runes_of_ascii "options{}root packet
-metadata {
-@lengthOf(x ) float32
-body ``, }
-    MetaData
-Z9_
-    {
-    string as , Logon x
-,
-uint32
-    // packet A { u8 x, }
-    Z9_,asx
-_x
-    `tab	here` , }
-")).
-Eval vm_compute in ("<<<M2638>>>" ++ check (runes_of_ascii "options{}root packet
-metadata {
-@lengthOf(x ) float32
-body ``, }
-    MetaData
-Z9_
-    {
-    string string_ , Logon x
-,
-uint32
-    // packet A { u8 x, }
-    Z9_ asx
-_x
-    `tab	here` , }
-")).
-Eval vm_compute in ("<<<M2670>>>" ++ check (runes_of_ascii "options{}root packet
-metadata {
-@lengthOf(x ) float32
-body ``, }
-    MetaData
-Z9_
-    {
-    string s")).
-Eval vm_compute in ("<<<M2702>>>" ++ check (runes_of_ascii "options {
-    @calculatedFrom(=
-""a\\"" ; }")).
-Eval vm_compute in ("<<<M2734>>>" ++ check (runes_of_ascii "options {
-    falsey" ++ [233]%N ++ runes_of_ascii "=
-""a\\"" ; }")).
-Eval vm_compute in ("<<<M2766>>>" ++ check (runes_of_ascii "MetaData f32a
+BodyLength charz ,
+} packet trueish { @lengthOf(
+    // 50% %s
+    trueish )
+char[]packetx@lengthOf( stringy // " ++ [27880; 37322]%N ++ runes_of_ascii "
+)	,@tag(1 //	t
+) Pad
+    { char[]
+crc , string falsey `u8 x,` , } ,
+    @rightPad
+(
+//	t
+// @lengthOf(
+'\x00' ) @rightPad ( '0' ) @leftPad
+( )
+    falsey  {
+i8 matchKey  @calculatedFrom(
+""" ++ [28040; 24687]%N ++ runes_of_ascii """ )
+    , }
+, } packet	T { } packet Header { }	packet options1
 {
-    //	t
-    }root root
-    packet tag  {
-}
+    // " ++ [27880; 37322]%N ++ runes_of_ascii "
+    u { repeat string o
+    , }, }
 ")).
-Eval vm_compute in ("<<<M2798>>>" ++ check (runes_of_ascii "MetaData f32a
+Eval vm_compute in ("<<<T1966>>>" ++ terms [mkTok 44 (string_of_bytes [47; 47; 9; 116]%N) 1 0 true; mkTok 37 "MetaData" 2 0 false; mkTok 42 "body" 3 0 false; mkTok 2 "{" 3 5 false; mkTok 42 "u" 3 7 false; mkTok 42 "_x" 3 9 false; mkTok 40 "," 4 4 false; mkTok 16 "char[]" 5 0 false; mkTok 42 "chars" 5 7 false; mkTok 40 "," 6 0 false; mkTok 29 "float64" 6 1 false; mkTok 42 "matchKey" 7 0 false; mkTok 43 "`two words`" 8 4 false; mkTok 40 "," 8 16 false; mkTok 28 "f32" 8 17 false; mkTok 42 "x" 9 0 false; mkTok 40 "," 10 0 false; mkTok 44 "// packet A { u8 x, }" 11 0 true; mkTok 44 "/// triple" 12 0 true; mkTok 42 "BodyLength" 13 0 false; mkTok 42 "charz" 13 11 false; mkTok 40 "," 13 17 false; mkTok 3 "}" 14 0 false; mkTok 35 "packet" 14 2 false; mkTok 42 "trueish" 14 9 false; mkTok 2 "{" 14 17 false; mkTok 7 "@lengthOf(" 14 19 false; mkTok 44 "// 50% %s" 15 4 true; mkTok 42 "trueish" 16 4 false; mkTok 6 ")" 16 12 false; mkTok 16 "char[]" 17 0 false; mkTok 42 "packetx" 17 6 false; mkTok 7 "@lengthOf(" 17 13 false; mkTok 42 "stringy" 17 24 false; mkTok 44 (string_of_bytes [47; 47; 32; 230; 179; 168; 233; 135; 138]%N) 17 32 true; mkTok 6 ")" 18 0 false; mkTok 40 "," 18 2 false; mkTok 9 "@tag(" 18 3 false; mkTok 30 "1" 18 8 false; mkTok 44 (string_of_bytes [47; 47; 9; 116]%N) 18 10 true; mkTok 6 ")" 19 0 false; mkTok 42 "Pad" 19 2 false; mkTok 2 "{" 20 4 false; mkTok 16 "char[]" 20 6 false; mkTok 42 "crc" 21 0 false; mkTok 40 "," 21 4 false; mkTok 15 "string" 21 6 false; mkTok 42 "falsey" 21 13 false; mkTok 43 "`u8 x,`" 21 20 false; mkTok 40 "," 21 28 false; mkTok 3 "}" 21 30 false; mkTok 40 "," 21 32 false; mkTok 32 "@rightPad" 22 4 false; mkTok 8 "(" 23 0 false; mkTok 44 (string_of_bytes [47; 47; 9; 116]%N) 24 0 true; mkTok 44 "// @lengthOf(" 25 0 true; mkTok 33 "'\x00'" 26 0 false; mkTok 6 ")" 26 7 false; mkTok 32 "@rightPad" 26 9 false; mkTok 8 "(" 26 19 false; mkTok 33 "'0'" 26 21 false; mkTok 6 ")" 26 25 false; mkTok 32 "@leftPad" 26 27 false; mkTok 8 "(" 27 0 false; mkTok 6 ")" 27 2 false; mkTok 42 "falsey" 28 4 false; mkTok 2 "{" 28 12 false; mkTok 24 "i8" 29 0 false; mkTok 42 "matchKey" 29 3 false; mkTok 5 "@calculatedFrom(" 29 13 false; mkTok 31 (string_of_bytes [34; 230; 182; 136; 230; 129; 175; 34]%N) 30 0 false; mkTok 6 ")" 30 5 false; mkTok 40 "," 31 4 false; mkTok 3 "}" 31 6 false; mkTok 40 "," 32 0 false; mkTok 3 "}" 32 2 false; mkTok 35 "packet" 32 4 false; mkTok 42 "T" 32 11 false; mkTok 2 "{" 32 13 false; mkTok 3 "}" 32 15 false; mkTok 35 "packet" 32 17 false; mkTok 42 "Header" 32 24 false; mkTok 2 "{" 32 31 false; mkTok 3 "}" 32 33 false; mkTok 35 "packet" 32 35 false; mkTok 42 "options1" 32 42 false; mkTok 2 "{" 33 0 false; mkTok 44 (string_of_bytes [47; 47; 32; 230; 179; 168; 233; 135; 138]%N) 34 4 true; mkTok 42 "u" 35 4 false; mkTok 2 "{" 35 6 false; mkTok 36 "repeat" 35 8 false; mkTok 15 "string" 35 15 false; mkTok 42 "o" 35 22 false; mkTok 40 "," 36 4 false; mkTok 3 "}" 36 6 false; mkTok 40 "," 36 7 false; mkTok 3 "}" 36 9 false; mkTok 0 "<EOF>" 37 0 false] (mkPacket (mkPtok 37 "MetaData" 2 0 1) (Some (mkPtok 3 "}" 36 9 96)) [(DMeta (mkMetaDef (mkSpan (mkPtok 37 "MetaData" 2 0 1) (mkPtok 3 "}" 14 0 22)) (mkPtok 37 "MetaData" 2 0 1) (mkPtok 42 "body" 3 0 2) (mkPtok 2 "{" 3 5 3) [(MIRef (mkRefMetaDecl (mkSpan (mkPtok 42 "u" 3 7 4) (mkPtok 40 "," 4 4 6)) (mkPtok 42 "u" 3 7 4) (mkPtok 42 "_x" 3 9 5) None (mkPtok 40 "," 4 4 6))); (MIDecl (mkMetaDecl (mkSpan (mkPtok 16 "char[]" 5 0 7) (mkPtok 40 "," 6 0 9)) (TyDynamic (mkSpan (mkPtok 16 "char[]" 5 0 7) (mkPtok 16 "char[]" 5 0 7)) (mkDynamicString (mkSpan (mkPtok 16 "char[]" 5 0 7) (mkPtok 16 "char[]" 5 0 7)) (mkPtok 16 "char[]" 5 0 7))) (mkPtok 42 "chars" 5 7 8) None (mkPtok 40 "," 6 0 9))); (MIDecl (mkMetaDecl (mkSpan (mkPtok 29 "float64" 6 1 10) (mkPtok 40 "," 8 16 13)) (TyBasic (mkSpan (mkPtok 29 "float64" 6 1 10) (mkPtok 29 "float64" 6 1 10)) (mkBasicType (mkSpan (mkPtok 29 "float64" 6 1 10) (mkPtok 29 "float64" 6 1 10)) (mkPtok 29 "float64" 6 1 10))) (mkPtok 42 "matchKey" 7 0 11) (Some (mkPtok 43 "`two words`" 8 4 12)) (mkPtok 40 "," 8 16 13))); (MIDecl (mkMetaDecl (mkSpan (mkPtok 28 "f32" 8 17 14) (mkPtok 40 "," 10 0 16)) (TyBasic (mkSpan (mkPtok 28 "f32" 8 17 14) (mkPtok 28 "f32" 8 17 14)) (mkBasicType (mkSpan (mkPtok 28 "f32" 8 17 14) (mkPtok 28 "f32" 8 17 14)) (mkPtok 28 "f32" 8 17 14))) (mkPtok 42 "x" 9 0 15) None (mkPtok 40 "," 10 0 16))); (MIRef (mkRefMetaDecl (mkSpan (mkPtok 42 "BodyLength" 13 0 19) (mkPtok 40 "," 13 17 21)) (mkPtok 42 "BodyLength" 13 0 19) (mkPtok 42 "charz" 13 11 20) None (mkPtok 40 "," 13 17 21)))] (mkPtok 3 "}" 14 0 22))); (DPacket (mkPacketDef (mkSpan (mkPtok 35 "packet" 14 2 23) (mkPtok 3 "}" 32 2 75)) None (mkPtok 35 "packet" 14 2 23) (mkPtok 42 "trueish" 14 9 24) (mkPtok 2 "{" 14 17 25) [(mkFieldWithAttr (mkSpan (mkPtok 7 "@lengthOf(" 14 19 26) (mkPtok 40 "," 18 2 36)) [(FALengthOf (mkSpan (mkPtok 7 "@lengthOf(" 14 19 26) (mkPtok 6 ")" 16 12 29)) (mkLengthOf (mkSpan (mkPtok 7 "@lengthOf(" 14 19 26) (mkPtok 6 ")" 16 12 29)) (mkPtok 7 "@lengthOf(" 14 19 26) (mkPtok 42 "trueish" 16 4 28) (mkPtok 6 ")" 16 12 29)))] (LengthField (mkSpan (mkPtok 16 "char[]" 17 0 30) (mkPtok 40 "," 18 2 36)) (mkLengthFieldDecl (mkSpan (mkPtok 16 "char[]" 17 0 30) (mkPtok 40 "," 18 2 36)) (Some (TyDynamic (mkSpan (mkPtok 16 "char[]" 17 0 30) (mkPtok 16 "char[]" 17 0 30)) (mkDynamicString (mkSpan (mkPtok 16 "char[]" 17 0 30) (mkPtok 16 "char[]" 17 0 30)) (mkPtok 16 "char[]" 17 0 30)))) (mkPtok 42 "packetx" 17 6 31) (mkLengthOf (mkSpan (mkPtok 7 "@lengthOf(" 17 13 32) (mkPtok 6 ")" 18 0 35)) (mkPtok 7 "@lengthOf(" 17 13 32) (mkPtok 42 "stringy" 17 24 33) (mkPtok 6 ")" 18 0 35)) None (mkPtok 40 "," 18 2 36)))); (mkFieldWithAttr (mkSpan (mkPtok 9 "@tag(" 18 3 37) (mkPtok 40 "," 21 32 51)) [(FATag (mkSpan (mkPtok 9 "@tag(" 18 3 37) (mkPtok 6 ")" 19 0 40)) (mkTagAttr (mkSpan (mkPtok 9 "@tag(" 18 3 37) (mkPtok 6 ")" 19 0 40)) (mkPtok 9 "@tag(" 18 3 37) (mkPtok 30 "1" 18 8 38) (mkPtok 6 ")" 19 0 40)))] (InerObjectField (mkSpan (mkPtok 42 "Pad" 19 2 41) (mkPtok 40 "," 21 32 51)) None (InerObjectDecl (mkSpan (mkPtok 42 "Pad" 19 2 41) (mkPtok 3 "}" 21 30 50)) (mkPtok 42 "Pad" 19 2 41) (mkPtok 2 "{" 20 4 42) [(MetaField (mkSpan (mkPtok 16 "char[]" 20 6 43) (mkPtok 40 "," 21 4 45)) None (mkMetaDecl (mkSpan (mkPtok 16 "char[]" 20 6 43) (mkPtok 40 "," 21 4 45)) (TyDynamic (mkSpan (mkPtok 16 "char[]" 20 6 43) (mkPtok 16 "char[]" 20 6 43)) (mkDynamicString (mkSpan (mkPtok 16 "char[]" 20 6 43) (mkPtok 16 "char[]" 20 6 43)) (mkPtok 16 "char[]" 20 6 43))) (mkPtok 42 "crc" 21 0 44) None (mkPtok 40 "," 21 4 45))); (MetaField (mkSpan (mkPtok 15 "string" 21 6 46) (mkPtok 40 "," 21 28 49)) None (mkMetaDecl (mkSpan (mkPtok 15 "string" 21 6 46) (mkPtok 40 "," 21 28 49)) (TyDynamic (mkSpan (mkPtok 15 "string" 21 6 46) (mkPtok 15 "string" 21 6 46)) (mkDynamicString (mkSpan (mkPtok 15 "string" 21 6 46) (mkPtok 15 "string" 21 6 46)) (mkPtok 15 "string" 21 6 46))) (mkPtok 42 "falsey" 21 13 47) (Some (mkPtok 43 "`u8 x,`" 21 20 48)) (mkPtok 40 "," 21 28 49)))] (mkPtok 3 "}" 21 30 50)) (mkPtok 40 "," 21 32 51))); (mkFieldWithAttr (mkSpan (mkPtok 32 "@rightPad" 22 4 52) (mkPtok 40 "," 32 0 74)) [(FAPadding (mkSpan (mkPtok 32 "@rightPad" 22 4 52) (mkPtok 6 ")" 26 7 57)) (mkPaddingAttr (mkSpan (mkPtok 32 "@rightPad" 22 4 52) (mkPtok 6 ")" 26 7 57)) (mkPtok 32 "@rightPad" 22 4 52) (mkPtok 8 "(" 23 0 53) (Some (mkPtok 33 "'\x00'" 26 0 56)) (mkPtok 6 ")" 26 7 57))); (FAPadding (mkSpan (mkPtok 32 "@rightPad" 26 9 58) (mkPtok 6 ")" 26 25 61)) (mkPaddingAttr (mkSpan (mkPtok 32 "@rightPad" 26 9 58) (mkPtok 6 ")" 26 25 61)) (mkPtok 32 "@rightPad" 26 9 58) (mkPtok 8 "(" 26 19 59) (Some (mkPtok 33 "'0'" 26 21 60)) (mkPtok 6 ")" 26 25 61))); (FAPadding (mkSpan (mkPtok 32 "@leftPad" 26 27 62) (mkPtok 6 ")" 27 2 64)) (mkPaddingAttr (mkSpan (mkPtok 32 "@leftPad" 26 27 62) (mkPtok 6 ")" 27 2 64)) (mkPtok 32 "@leftPad" 26 27 62) (mkPtok 8 "(" 27 0 63) None (mkPtok 6 ")" 27 2 64)))] (InerObjectField (mkSpan (mkPtok 42 "falsey" 28 4 65) (mkPtok 40 "," 32 0 74)) None (InerObjectDecl (mkSpan (mkPtok 42 "falsey" 28 4 65) (mkPtok 3 "}" 31 6 73)) (mkPtok 42 "falsey" 28 4 65) (mkPtok 2 "{" 28 12 66) [(CheckSumField (mkSpan (mkPtok 24 "i8" 29 0 67) (mkPtok 40 "," 31 4 72)) (mkChecksumFieldDecl (mkSpan (mkPtok 24 "i8" 29 0 67) (mkPtok 40 "," 31 4 72)) (Some (TyBasic (mkSpan (mkPtok 24 "i8" 29 0 67) (mkPtok 24 "i8" 29 0 67)) (mkBasicType (mkSpan (mkPtok 24 "i8" 29 0 67) (mkPtok 24 "i8" 29 0 67)) (mkPtok 24 "i8" 29 0 67)))) (mkPtok 42 "matchKey" 29 3 68) (mkCalculatedFrom (mkSpan (mkPtok 5 "@calculatedFrom(" 29 13 69) (mkPtok 6 ")" 30 5 71)) (mkPtok 5 "@calculatedFrom(" 29 13 69) (mkPtok 31 (string_of_bytes [34; 230; 182; 136; 230; 129; 175; 34]%N) 30 0 70) (mkPtok 6 ")" 30 5 71)) None (mkPtok 40 "," 31 4 72)))] (mkPtok 3 "}" 31 6 73)) (mkPtok 40 "," 32 0 74)))] (mkPtok 3 "}" 32 2 75))); (DPacket (mkPacketDef (mkSpan (mkPtok 35 "packet" 32 4 76) (mkPtok 3 "}" 32 15 79)) None (mkPtok 35 "packet" 32 4 76) (mkPtok 42 "T" 32 11 77) (mkPtok 2 "{" 32 13 78) [] (mkPtok 3 "}" 32 15 79))); (DPacket (mkPacketDef (mkSpan (mkPtok 35 "packet" 32 17 80) (mkPtok 3 "}" 32 33 83)) None (mkPtok 35 "packet" 32 17 80) (mkPtok 42 "Header" 32 24 81) (mkPtok 2 "{" 32 31 82) [] (mkPtok 3 "}" 32 33 83))); (DPacket (mkPacketDef (mkSpan (mkPtok 35 "packet" 32 35 84) (mkPtok 3 "}" 36 9 96)) None (mkPtok 35 "packet" 32 35 84) (mkPtok 42 "options1" 32 42 85) (mkPtok 2 "{" 33 0 86) [(mkFieldWithAttr (mkSpan (mkPtok 42 "u" 35 4 88) (mkPtok 40 "," 36 7 95)) [] (InerObjectField (mkSpan (mkPtok 42 "u" 35 4 88) (mkPtok 40 "," 36 7 95)) None (InerObjectDecl (mkSpan (mkPtok 42 "u" 35 4 88) (mkPtok 3 "}" 36 6 94)) (mkPtok 42 "u" 35 4 88) (mkPtok 2 "{" 35 6 89) [(MetaField (mkSpan (mkPtok 36 "repeat" 35 8 90) (mkPtok 40 "," 36 4 93)) (Some (mkPtok 36 "repeat" 35 8 90)) (mkMetaDecl (mkSpan (mkPtok 15 "string" 35 15 91) (mkPtok 40 "," 36 4 93)) (TyDynamic (mkSpan (mkPtok 15 "string" 35 15 91) (mkPtok 15 "string" 35 15 91)) (mkDynamicString (mkSpan (mkPtok 15 "string" 35 15 91) (mkPtok 15 "string" 35 15 91)) (mkPtok 15 "string" 35 15 91))) (mkPtok 42 "o" 35 22 92) None (mkPtok 40 "," 36 4 93)))] (mkPtok 3 "}" 36 6 94)) (mkPtok 40 "," 36 7 95)))] (mkPtok 3 "}" 36 9 96)))])).
+Eval vm_compute in ("<<<M1998>>>" ++ check (runes_of_ascii "options { string_
+= string } packet
+rootA
 {
-    //	t
-    }root
-    ""packet tag  {
-}
-")).
-Eval vm_compute in ("<<<M2830>>>" ++ check (runes_of_ascii "
-options
-    {msg_type")).
-Eval vm_compute in ("<<<M2862>>>" ++ check (runes_of_ascii "
-options
-    {msg_type =
-    float32  }root
-packet Z9_{ char char /// triple
-crc @lengthOf(
-options1 ) //
-,} MetaData a1{}
-")).
-Eval vm_compute in ("<<<M2894>>>" ++ check (runes_of_ascii "
-options
-    {msg_type =
-    float32  }root
-packet Z9_{ char /// triple
-crc @lengthOf(
-options1 ) //
-,MetaData MetaData a1{}
-")).
-Eval vm_compute in ("<<<M2926>>>" ++ check (runes_of_ascii "
-options
-    {msg_type =
-    float32  }root
-packet Z9_" ++ [0]%N ++ runes_of_ascii " { char /// triple
-crc @lengthOf(
-options1 ) //
-,} MetaData a1{}
-")).
-Eval vm_compute in ("<<<M2958>>>" ++ check (runes_of_ascii "packet crc{ // " ++ [128512]%N ++ runes_of_ascii " emoji
-repeat string string i8i8
-`a\`, }
-")).
-Eval vm_compute in ("<<<M2990>>>" ++ check (runes_of_ascii "packet crc{ // " ++ [128512]%N ++ runes_of_ascii " emoji
-repeat string i8i8
-`a\`, ' }
-")).
-Eval vm_compute in ("<<<M3022>>>" ++ check (runes_of_ascii "packet BodyLength {")).
-Eval vm_compute in ("<<<M3054>>>" ++ check (runes_of_ascii "packet BodyLength {} MetaData zchar{ zchar[// @lengthOf(
-42 ]
-    pack pack , string_
-A , char[]crc , _x trueish ,
+@lengthOf(
+MetaDataX ) repeat char[
+    255] chars, }packet stringy { u`tab	here` ,  x_y_z
+    { zchar[42
+] i64_ @lengthOf(roots ),}, @lengthOf(
+packetx) Logon @lengthOf(o) , int64 Packet	,
+    }
 // " ++ [27880; 37322]%N ++ runes_of_ascii "
-// " ++ [128512]%N ++ runes_of_ascii " emoji
-zchar[
-    3 ]	T // trailing space 
-, } packet body
-{
-    }
 ")).
-Eval vm_compute in ("<<<M3086>>>" ++ check (runes_of_ascii "packet BodyLength {} MetaData zchar{ zchar[// @lengthOf(
-42 ]
-    pack , string_
-A , char[]string , _x trueish ,
-// " ++ [27880; 37322]%N ++ runes_of_ascii "
-// " ++ [128512]%N ++ runes_of_ascii " emoji
-zchar[
-    3 ]	T // trailing space 
-, } packet body
-{
-    }
+Eval vm_compute in ("<<<M2030>>>" ++ check (runes_of_ascii "MetaData repeatCount { float64 packetx packetx,
+} root packet  metadata {
+char _x @lengthOf( trueish ), @leftPad
+( ' '// " ++ [27880; 37322]%N ++ runes_of_ascii "
+)/// triple
+char[] len`doc` , // packet A { u8 x, }
+repeatCount , }
 ")).
-Eval vm_compute in ("<<<M3118>>>" ++ check (runes_of_ascii "packet BodyLength {} MetaData zchar{ zchar[// @lengthOf(
-42 ]
-    pack , string_
-A , char[]crc , _x trueish ,
-// " ++ [27880; 37322]%N ++ runes_of_ascii "
-// " ++ [128512]%N ++ runes_of_ascii " emoji
-zchar[
-    3 	T // trailing space 
-, } packet body
-{
-    }
+Eval vm_compute in ("<<<M2062>>>" ++ check (runes_of_ascii "MetaData repeatCount { float64 packetx,
+} root packet  metadata string
+char _x @lengthOf( trueish ), @leftPad
+( ' '// " ++ [27880; 37322]%N ++ runes_of_ascii "
+)/// triple
+char[] len`doc` , // packet A { u8 x, }
+repeatCount , }
 ")).
-Eval vm_compute in ("<<<M3150>>>" ++ check (runes_of_ascii "packet BodyLength {} MetaData zchar{ zchar[// @lengthOf(
-42 ]
-    pack , string_
-A , char[]crc , _x trueish ,
-// " ++ [27880; 37322]%N ++ runes_of_ascii "
-// " ++ [128512]%N ++ runes_of_ascii " emoji
-zchar[
-    3 ]	T // trailing space 
-, } packet body
-}
-    {
+Eval vm_compute in ("<<<M2094>>>" ++ check (runes_of_ascii "MetaData repeatCount { float64 packetx,
+} root packet  metadata {
+char _x @lengthOf( trueish ), 
+( ' '// " ++ [27880; 37322]%N ++ runes_of_ascii "
+)/// triple
+char[] len`doc` , // packet A { u8 x, }
+repeatCount , }
 ")).
-Eval vm_compute in ("<<<M3182>>>" ++ check (runes_of_ascii "as
-string_ {@lengthOf( int ) match packetx as f32a {
-    1 :	calculatedFrom , }  ,
-    } packet len
-    //	t
-    { @calculatedFrom( """ ++ [233]%N ++ runes_of_ascii "t" ++ [233]%N ++ runes_of_ascii """ ) body Header , char[] lengthOf  `two words` ,chars{repeat string_ matchKey ,
-    } ,
-    }
+Eval vm_compute in ("<<<M2126>>>" ++ check (runes_of_ascii "MetaData repeatCount { float64 packetx,
+} root packet  metadata {
+char _x @lengthOf( trueish ), @leftPad
+( ' '// " ++ [27880; 37322]%N ++ runes_of_ascii "
+)/// triple
+char[] len, `doc` // packet A { u8 x, }
+repeatCount , }
 ")).
-Eval vm_compute in ("<<<M3214>>>" ++ check (runes_of_ascii "packet
-string_ {@lengthOf( int ) match  as f32a {
-    1 :	calculatedFrom , }  ,
-    } packet len
-    //	t
-    { @calculatedFrom( """ ++ [233]%N ++ runes_of_ascii "t" ++ [233]%N ++ runes_of_ascii """ ) body Header , char[] lengthOf  `two words` ,chars{repeat string_ matchKey ,
-    } ,
-    }
+Eval vm_compute in ("<<<M2158>>>" ++ check (runes_of_ascii "MetaData repeatCount { float64 packetx,
+} root packet  metadata {
+char _x @lengthOf( trueish ), @leftPad
+( ?' '// " ++ [27880; 37322]%N ++ runes_of_ascii "
+)/// triple
+char[] len`doc` , // packet A { u8 x, }
+repeatCount , }
 ")).
-Eval vm_compute in ("<<<M3246>>>" ++ check (runes_of_ascii "packet
-string_ {@lengthOf( int ) match packetx as f32a {
-    1 :	, calculatedFrom }  ,
-    } packet len
-    //	t
-    { @calculatedFrom( """ ++ [233]%N ++ runes_of_ascii "t" ++ [233]%N ++ runes_of_ascii """ ) body Header , char[] lengthOf  `two words` ,chars{repeat string_ matchKey ,
-    } ,
-    }
+Eval vm_compute in ("<<<M2190>>>" ++ check (runes_of_ascii "options{
+leftPad
+    =
+;
+a1 = true ; packetx=  '\x00' ; packetx
+=  """ ++ [28040; 24687]%N ++ runes_of_ascii """MetaDataX= // " ++ [27880; 37322]%N ++ runes_of_ascii "
+false }root // c
+packet // packet A { u8 x, }
+Pad { repeat
+u8 Header
+// packet A { u8 x, }
+//	t
+`{ , }`
+// a // b
+//x
+, }
 ")).
-Eval vm_compute in ("<<<M3278>>>" ++ check (runes_of_ascii "packet
-string_ {@lengthOf( int ) match packetx as f32a {
-    1 :	calculatedFrom , }  ,
-    } packet")).
-Eval vm_compute in ("<<<M3310>>>" ++ check (runes_of_ascii "packet
-string_ {@lengthOf( int ) match packetx as f32a {
-    1 :	calculatedFrom , }  ,
-    } packet len
-    //	t
-    { @calculatedFrom( """ ++ [233]%N ++ runes_of_ascii "t" ++ [233]%N ++ runes_of_ascii """ ) body Header , , char[] lengthOf  `two words` ,chars{repeat string_ matchKey ,
-    } ,
-    }
+Eval vm_compute in ("<<<M2222>>>" ++ check (runes_of_ascii "options{
+leftPad
+    =65535
+;
+a1 = true ; =packetx  '\x00' ; packetx
+=  """ ++ [28040; 24687]%N ++ runes_of_ascii """MetaDataX= // " ++ [27880; 37322]%N ++ runes_of_ascii "
+false }root // c
+packet // packet A { u8 x, }
+Pad { repeat
+u8 Header
+// packet A { u8 x, }
+//	t
+`{ , }`
+// a // b
+//x
+, }
 ")).
-Eval vm_compute in ("<<<M3342>>>" ++ check (runes_of_ascii "packet
-string_ {@lengthOf( int ) match packetx as f32a {
-    1 :	calculatedFrom , }  ,
-    } packet len
-    //	t
-    { @calculatedFrom( """ ++ [233]%N ++ runes_of_ascii "t" ++ [233]%N ++ runes_of_ascii """ ) body Header , char[] lengthOf  `two words` ,chars repeat repeat string_ matchKey ,
-    } ,
-    }
+Eval vm_compute in ("<<<M2254>>>" ++ check (runes_of_ascii "options{
+leftPad
+    =65535
+;
+a1 = true ; packetx=  '\x00' ; packetx
+=")).
+Eval vm_compute in ("<<<M2286>>>" ++ check (runes_of_ascii "options{
+leftPad
+    =65535
+;
+a1 = true ; packetx=  '\x00' ; packetx
+=  """ ++ [28040; 24687]%N ++ runes_of_ascii """MetaDataX= // " ++ [27880; 37322]%N ++ runes_of_ascii "
+false }root // c
+packet // packet A { u8 x, }
+Pad Pad { repeat
+u8 Header
+// packet A { u8 x, }
+//	t
+`{ , }`
+// a // b
+//x
+, }
 ")).
-Eval vm_compute in ("<<<M3374>>>" ++ check (runes_of_ascii "packet
-string_ {@lengthOf( int ) match packetx as f32a {
-    1 :	calculatedFrom , }  ,
-    } packet len
-    //	t
-    { @calculatedFrom( """ ++ [233]%N ++ runes_of_ascii "t" ++ [233]%N ++ runes_of_ascii """ ) body Header , char[] lengthOf  `two words` ,chars{repeat string_ matchKey ,
-    } ,
+Eval vm_compute in ("<<<M2318>>>" ++ check (runes_of_ascii "options{
+leftPad
+    =65535
+;
+a1 = true ; packetx=  '\x00' ; packetx
+=  """ ++ [28040; 24687]%N ++ runes_of_ascii """MetaDataX= // " ++ [27880; 37322]%N ++ runes_of_ascii "
+false }root // c
+packet // packet A { u8 x, }
+Pad { repeat
+u8 Header
+// packet A { u8 x, }
+//	t
+`{ , }`
+// a // b
+//x
+MetaData }
+")).
+Eval vm_compute in ("<<<M2350>>>" ++ check (runes_of_ascii "
+")).
+Eval vm_compute in ("<<<M2382>>>" ++ check (runes_of_ascii "
+packet float
+{	@calculatedFrom( """ ++ [233]%N ++ runes_of_ascii "t" ++ [233]%N ++ runes_of_ascii """ )
+@rightPad ( ( '\x00' )
+    @calculatedFrom( ""x y"" ) string chars  ,
+    // a // b
+    char[0 ]
+    u	@lengthOf( i8i8 ) `{ , }` ,repeat char[] o //x
+`// not a comment`, } // c")).
+Eval vm_compute in ("<<<M2414>>>" ++ check (runes_of_ascii "
+packet float
+{	@calculatedFrom( """ ++ [233]%N ++ runes_of_ascii "t" ++ [233]%N ++ runes_of_ascii """ )
+@rightPad ( '\x00' )
+    @calculatedFrom( ""x y"" ) u32 chars  ,
+    // a // b
+    char[0 ]
+    u	@lengthOf( i8i8 ) `{ , }` ,repeat char[] o //x
+`// not a comment`, } // c")).
+Eval vm_compute in ("<<<M2446>>>" ++ check (runes_of_ascii "
+packet float
+{	@calculatedFrom( """ ++ [233]%N ++ runes_of_ascii "t" ++ [233]%N ++ runes_of_ascii """ )
+@rightPad ( '\x00' )
+    @calculatedFrom( ""x y"" ) string chars  ,
+    // a // b
+    char[0 ]
+    u	 i8i8 ) `{ , }` ,repeat char[] o //x
+`// not a comment`, } // c")).
+Eval vm_compute in ("<<<M2478>>>" ++ check (runes_of_ascii "
+packet float
+{	@calculatedFrom( """ ++ [233]%N ++ runes_of_ascii "t" ++ [233]%N ++ runes_of_ascii """ )
+@rightPad ( '\x00' )
+    @calculatedFrom( ""x y"" ) string chars  ,
+    // a // b
+    char[0 ]
+    u	@lengthOf( i8i8 ) `{ , }` ,repeat o char[] //x
+`// not a comment`, } // c")).
+Eval vm_compute in ("<<<M2510>>>" ++ check (runes_of_ascii "
+packet float
+{	@calculatedFrom( """ ++ [233]%N ++ runes_of_ascii "t" ++ [233]%N ++ runes_of_ascii """ )
+@rightPad ( '\x00' )
+  |  @calculatedFrom( ""x y"" ) string chars  ,
+    // a // b
+    char[0 ]
+    u	@lengthOf( i8i8 ) `{ , }` ,repeat char[] o //x
+`// not a comment`, } // c")).
+Eval vm_compute in ("<<<M2542>>>" ++ check (runes_of_ascii "root packet u128{
     
+    zchar[ 65535 ] u `" ++ [28040; 24687; 31867; 22411]%N ++ runes_of_ascii "` ,// `tick` ""quote"" 'q'
+} packet i64_ {repeatCount
+    `
+` ,	} // " ++ [128512]%N ++ runes_of_ascii " emoji")).
+Eval vm_compute in ("<<<T2542>>>" ++ terms [mkTok 34 "root" 1 0 false; mkTok 35 "packet" 1 5 false; mkTok 42 "u128" 1 12 false; mkTok 2 "{" 1 16 false; mkTok 14 "zchar[" 3 4 false; mkTok 30 "65535" 3 11 false; mkTok 13 "]" 3 17 false; mkTok 42 "u" 3 19 false; mkTok 43 (string_of_bytes [96; 230; 182; 136; 230; 129; 175; 231; 177; 187; 229; 158; 139; 96]%N) 3 21 false; mkTok 40 "," 3 28 false; mkTok 44 "// `tick` ""quote"" 'q'" 3 29 true; mkTok 3 "}" 4 0 false; mkTok 35 "packet" 4 2 false; mkTok 42 "i64_" 4 9 false; mkTok 2 "{" 4 14 false; mkTok 42 "repeatCount" 4 15 false; mkTok 43 (string_of_bytes [96; 10; 96]%N) 5 4 false; mkTok 40 "," 6 2 false; mkTok 3 "}" 6 4 false; mkTok 44 (string_of_bytes [47; 47; 32; 240; 159; 152; 128; 32; 101; 109; 111; 106; 105]%N) 6 6 true; mkTok 0 "<EOF>" 6 16 false] (mkPacket (mkPtok 34 "root" 1 0 0) (Some (mkPtok 3 "}" 6 4 18)) [(DPacket (mkPacketDef (mkSpan (mkPtok 34 "root" 1 0 0) (mkPtok 3 "}" 4 0 11)) (Some (mkPtok 34 "root" 1 0 0)) (mkPtok 35 "packet" 1 5 1) (mkPtok 42 "u128" 1 12 2) (mkPtok 2 "{" 1 16 3) [(mkFieldWithAttr (mkSpan (mkPtok 14 "zchar[" 3 4 4) (mkPtok 40 "," 3 28 9)) [] (MetaField (mkSpan (mkPtok 14 "zchar[" 3 4 4) (mkPtok 40 "," 3 28 9)) None (mkMetaDecl (mkSpan (mkPtok 14 "zchar[" 3 4 4) (mkPtok 40 "," 3 28 9)) (TyFixed (mkSpan (mkPtok 14 "zchar[" 3 4 4) (mkPtok 13 "]" 3 17 6)) (mkFixedString (mkSpan (mkPtok 14 "zchar[" 3 4 4) (mkPtok 13 "]" 3 17 6)) (mkPtok 14 "zchar[" 3 4 4) (mkPtok 30 "65535" 3 11 5) (mkPtok 13 "]" 3 17 6))) (mkPtok 42 "u" 3 19 7) (Some (mkPtok 43 (string_of_bytes [96; 230; 182; 136; 230; 129; 175; 231; 177; 187; 229; 158; 139; 96]%N) 3 21 8)) (mkPtok 40 "," 3 28 9))))] (mkPtok 3 "}" 4 0 11))); (DPacket (mkPacketDef (mkSpan (mkPtok 35 "packet" 4 2 12) (mkPtok 3 "}" 6 4 18)) None (mkPtok 35 "packet" 4 2 12) (mkPtok 42 "i64_" 4 9 13) (mkPtok 2 "{" 4 14 14) [(mkFieldWithAttr (mkSpan (mkPtok 42 "repeatCount" 4 15 15) (mkPtok 40 "," 6 2 17)) [] (ObjectField (mkSpan (mkPtok 42 "repeatCount" 4 15 15) (mkPtok 40 "," 6 2 17)) None (mkPtok 42 "repeatCount" 4 15 15) None (Some (mkPtok 43 (string_of_bytes [96; 10; 96]%N) 5 4 16)) (mkPtok 40 "," 6 2 17)))] (mkPtok 3 "}" 6 4 18)))])).
+Eval vm_compute in ("<<<M2574>>>" ++ check (runes_of_ascii "root packet u128{
+    repeat
+    zchar[ 65535 ] u `" ++ [28040; 24687; 31867; 22411]%N ++ runes_of_ascii "` }// `tick` ""quote"" 'q'
+, packet i64_ {repeatCount
+    `
+` ,	} // " ++ [128512]%N ++ runes_of_ascii " emoji")).
+Eval vm_compute in ("<<<M2606>>>" ++ check (runes_of_ascii "root packet u128{
+    repeat
+    zchar[ 65535 ] u `" ++ [28040; 24687; 31867; 22411]%N ++ runes_of_ascii "` ,// `tick` ""quote"" 'q'
+} packet i64_ {repeatCount")).
+Eval vm_compute in ("<<<M2638>>>" ++ check (runes_of_ascii "
+
+roots { int8
+    BodyLength ,//	t
+}
 ")).
-Eval vm_compute in ("<<<M3406>>>" ++ check (runes_of_ascii "/// triple
-root
-packet // packet A { u8 x, }
-chars { @lengthOf(charz )
-stringy,  @tag(  0 ) // a // b
-asx
-    As
-,
-// trailing space 
-// trailing space 
-x_y_z {
-repeat i16 charz , } ,	int16  crc ,")).
-Eval vm_compute in ("<<<M3438>>>" ++ check (runes_of_ascii "/// triple
-root
-packet // packet A { u8 x, }
-chars { @lengthOf(charz )
-stringy,  @tag(  0 ) // a // b
-asx
-    As
-,
-// trailing space 
-// trailing space 
-x_y_z repeat
-{ i16 charz , } ,	int16  crc ,}
+Eval vm_compute in ("<<<M2670>>>" ++ check (runes_of_ascii "
+MetaData
+roots { int8
+    BodyLength ,//	t
+int64
 ")).
-Eval vm_compute in ("<<<M3470>>>" ++ check (runes_of_ascii "/// triple
-root
-packet // packet A { u8 x, }
-chars { @lengthOf(charz )
-stringy,  @tag(  0 ) // a // b
-asx
-    As
-,
-// trailing space 
-// trailing space 
-x_y_z {
-repeat i16")).
+Eval vm_compute in ("<<<M2702>>>" ++ check (runes_of_ascii "options MetaData Packet = ""CRC32""i8i8 = false; leftPad =
+    '\x00'
+    // `tick` ""quote"" 'q'
+    ; o=255  ;
+    // packet A { u8 x, }
+    }")).
+Eval vm_compute in ("<<<M2734>>>" ++ check (runes_of_ascii "options {Packet = ""CRC32""i8i8 = false leftPad =
+    '\x00'
+    // `tick` ""quote"" 'q'
+    ; o=255  ;
+    // packet A { u8 x, }
+    }")).
+Eval vm_compute in ("<<<M2766>>>" ++ check (runes_of_ascii "options {Packet = ""CRC32""i8i8 = false; leftPad =
+    '\x00'
+    // `tick` ""quote"" 'q'
+    ; o 255=  ;
+    // packet A { u8 x, }
+    }")).
+Eval vm_compute in ("<<<M2798>>>" ++ check (runes_of_ascii "options {Packet = @tag""CRC32""i8i8 = false; leftPad =
+    '\x00'
+    // `tick` ""quote"" 'q'
+    ; o=255  ;
+    // packet A { u8 x, }
+    }")).
+Eval vm_compute in ("<<<M2830>>>" ++ check (runes_of_ascii "
+packet metadata { @rightPad (
+    // packet A { u8 x, }
+     ) repeat u32	A
+,matchKey ,
+    @lengthOf( string_ ) @lengthOf( body )
+    // a // b
+    @lengthOf(float  )	repeat
+int32 u8x
+    // c
+    `tab	here`
+, } // a // b")).
+Eval vm_compute in ("<<<M2862>>>" ++ check (runes_of_ascii "
+packet metadata { @rightPad (
+    // packet A { u8 x, }
+    ' ' ) repeat u32	A
+,, matchKey
+    @lengthOf( string_ ) @lengthOf( body )
+    // a // b
+    @lengthOf(float  )	repeat
+int32 u8x
+    // c
+    `tab	here`
+, } // a // b")).
+Eval vm_compute in ("<<<M2894>>>" ++ check (runes_of_ascii "
+packet metadata { @rightPad (
+    // packet A { u8 x, }
+    ' ' ) repeat u32	A
+,matchKey ,
+    @lengthOf( string_ ) @lengthOf(")).
+Eval vm_compute in ("<<<M2926>>>" ++ check (runes_of_ascii "
+packet metadata { @rightPad (
+    // packet A { u8 x, }
+    ' ' ) repeat u32	A
+,matchKey ,
+    @lengthOf( string_ ) @lengthOf( body )
+    // a // b
+    @lengthOf(float  )	repeat
+int32 u8x u8x
+    // c
+    `tab	here`
+, } // a // b")).
+Eval vm_compute in ("<<<M2958>>>" ++ check (runes_of_ascii "
+packet metadata { @rightPad (
+    // packet A { u8 x, }
+    ' ' ) repeat u32	A
+,matchKey ,
+    @lengthOf( string_ ) @lengthOf( body )
+    // a // b
+    @lengthOf(float  )	rep" ++ [233]%N ++ runes_of_ascii "eat
+int32 u8x
+    // c
+    `tab	here`
+, } // a // b")).
+Eval vm_compute in ("<<<M2990>>>" ++ check (runes_of_ascii "packet x{
+string")).
+Eval vm_compute in ("<<<M3022>>>" ++ check (runes_of_ascii "
+ Logon
+{ // c
+}root packet
+    Pad {
+    } options
+{
+u
+    =
+    ""CRC32""
+    // " ++ [128512]%N ++ runes_of_ascii " emoji
+    i64_ = u16;
+T =65535 x = ' '
+    ; u128
+= true ; }")).
+Eval vm_compute in ("<<<M3054>>>" ++ check (runes_of_ascii "
+MetaData Logon
+{ // c
+}root packet
+    { Pad
+    } options
+{
+u
+    =
+    ""CRC32""
+    // " ++ [128512]%N ++ runes_of_ascii " emoji
+    i64_ = u16;
+T =65535 x = ' '
+    ; u128
+= true ; }")).
+Eval vm_compute in ("<<<M3086>>>" ++ check (runes_of_ascii "
+MetaData Logon
+{ // c
+}root packet
+    Pad {
+    } options
+{
+u")).
+Eval vm_compute in ("<<<M3118>>>" ++ check (runes_of_ascii "
+MetaData Logon
+{ // c
+}root packet
+    Pad {
+    } options
+{
+u
+    =
+    ""CRC32""
+    // " ++ [128512]%N ++ runes_of_ascii " emoji
+    i64_ = u16;
+T = =65535 x = ' '
+    ; u128
+= true ; }")).
+Eval vm_compute in ("<<<M3150>>>" ++ check (runes_of_ascii "
+MetaData Logon
+{ // c
+}root packet
+    Pad {
+    } options
+{
+u
+    =
+    ""CRC32""
+    // " ++ [128512]%N ++ runes_of_ascii " emoji
+    i64_ = u16;
+T =65535 x = ' '
+    ; repeat
+= true ; }")).
+Eval vm_compute in ("<<<M3182>>>" ++ check (runes_of_ascii "
+MetaData Logon
+{ // c
+}root " ++ [65279]%N ++ runes_of_ascii " packet
+    Pad {
+    } options
+{
+u
+    =
+    ""CRC32""
+    // " ++ [128512]%N ++ runes_of_ascii " emoji
+    i64_ = u16;
+T =65535 x = ' '
+    ; u128
+= true ; }")).
+Eval vm_compute in ("<<<M3214>>>" ++ check (runes_of_ascii "MetaData body{}
+packet packet	Packet { x_y_z @calculatedFrom(  ""a\\"")// `tick` ""quote"" 'q'
+, }
+")).
+Eval vm_compute in ("<<<M3246>>>" ++ check (runes_of_ascii "MetaData body{}
+packet	Packet { x_y_z @calculatedFrom(  ""a\\""@calculatedFrom(// `tick` ""quote"" 'q'
+, }
+")).
+Eval vm_compute in ("<<<M3278>>>" ++ check (runes_of_ascii "MetaData body{}
+packet	" ++ [21517; 23383]%N ++ runes_of_ascii " { x_y_z @calculatedFrom(  ""a\\"")// `tick` ""quote"" 'q'
+, }
+")).
+Eval vm_compute in ("<<<M3310>>>" ++ check (runes_of_ascii "packet f32a {} root packet len len {repeat u // " ++ [128512]%N ++ runes_of_ascii " emoji
+`{ , }` , }
+")).
+Eval vm_compute in ("<<<M3342>>>" ++ check (runes_of_ascii "packet f32a {} root packet len {repeat u // " ++ [128512]%N ++ runes_of_ascii " emoji
+`{ , }` ,")).
+Eval vm_compute in ("<<<M3374>>>" ++ check (runes_of_ascii "options _x {=""\" ++ [233]%N ++ runes_of_ascii """;
+    Logon = 10	; Foo= 7;
+i64_= char[]} options {
+matchKey = ""// no comment"" // a // b
+falsey = string
+; trueish =
+    4294967296
+options1=
+    ""it's"" string_	= true } options {
+    /// triple
+    }")).
+Eval vm_compute in ("<<<M3406>>>" ++ check (runes_of_ascii "options{ _x' '""\" ++ [233]%N ++ runes_of_ascii """;
+    Logon = 10	; Foo= 7;
+i64_= char[]} options {
+matchKey = ""// no comment"" // a // b
+falsey = string
+; trueish =
+    4294967296
+options1=
+    ""it's"" string_	= true } options {
+    /// triple
+    }")).
+Eval vm_compute in ("<<<M3438>>>" ++ check (runes_of_ascii "options{ _x=""\" ++ [233]%N ++ runes_of_ascii """;
+    Logon = 10	; Foo= 7;
+i64_= char[]} options {
+matchKey = ""// no comment"" // a // b
+falsey = string")).
+Eval vm_compute in ("<<<M3470>>>" ++ check (runes_of_ascii "options{ _x=""\" ++ [233]%N ++ runes_of_ascii """;
+    Logon = ;	10 Foo= 7;
+i64_= char[]} options {
+matchKey = ""// no comment"" // a // b
+falsey = string
+; trueish =
+    4294967296
+options1=
+    ""it's"" string_	= true } options {
+    /// triple
+    }")).
 Eval vm_compute in ("<<<M3502>>>" ++ check (runes_of_ascii "u80")).
 Eval vm_compute in ("<<<M3534>>>" ++ check (runes_of_ascii "matches")).
 Eval vm_compute in ("<<<M3566>>>" ++ check (runes_of_ascii "///")).
@@ -2166,10 +1789,10 @@ Eval vm_compute in ("<<<M3662>>>" ++ check (runes_of_ascii "packet A { B { }, }"
 Eval vm_compute in ("<<<M3694>>>" ++ check (runes_of_ascii "packet A { u8 x, @tag(1) }")).
 Eval vm_compute in ("<<<M3726>>>" ++ check (runes_of_ascii "options { a = 1; b = 2 c = 3;; }")).
 Eval vm_compute in ("<<<M3758>>>" ++ check (runes_of_ascii "/")).
-Eval vm_compute in ("<<<M3790>>>" ++ check (runes_of_ascii ") ( 0123456789 '0' string MetaData true")).
-Eval vm_compute in ("<<<M3822>>>" ++ check (runes_of_ascii "packet f64 int32 repeat packetx ) char[]")).
-Eval vm_compute in ("<<<M3854>>>" ++ check (runes_of_ascii "char[ } zchar[ ] packet ; as } string repeat ,")).
-Eval vm_compute in ("<<<M3886>>>" ++ check (runes_of_ascii "char[] '\x00' false uint64 repeat zchar[ uint16 float64")).
-Eval vm_compute in ("<<<M3918>>>" ++ check (runes_of_ascii "root 1 : ; u16 ' ' string")).
-Eval vm_compute in ("<<<M3950>>>" ++ check (runes_of_ascii "; options zchar[ [ uint64 ) int16 root match int64 ( 255 uint8 `say ""hi""`")).
-Eval vm_compute in ("<<<M3982>>>" ++ check (runes_of_ascii "MetaData uint32 false = as")).
+Eval vm_compute in ("<<<M3790>>>" ++ check (runes_of_ascii "char root options u16 zchar[ [ char[] char[] , true uint16")).
+Eval vm_compute in ("<<<M3822>>>" ++ check (runes_of_ascii "as ) uint32")).
+Eval vm_compute in ("<<<M3854>>>" ++ check (runes_of_ascii "i32 ""x y"" , f32 char[ uint16 char[ @calculatedFrom( repeat ;")).
+Eval vm_compute in ("<<<M3886>>>" ++ check (runes_of_ascii "i32 f32 }")).
+Eval vm_compute in ("<<<M3918>>>" ++ check (runes_of_ascii "false '0' @tag( @calculatedFrom( float64 u64 float64 u16 ) match ""\n""")).
+Eval vm_compute in ("<<<M3950>>>" ++ check (runes_of_ascii "Header @calculatedFrom( MetaData uint32 @tag( true")).
+Eval vm_compute in ("<<<M3982>>>" ++ check (runes_of_ascii ") { { true int16 root '0' int8")).
